@@ -730,6 +730,69 @@ theorem parsePlanes_leaves (s : Side) (h0 : V3OK s.p0 = true) (h1 : V3OK s.p1 = 
 
 
 
+theorem toLower_of_isDigit (c : Char) (h : c.isDigit = true) : c.toLower = c := by
+  simp only [Char.isDigit, Bool.and_eq_true, decide_eq_true_eq] at h
+  unfold Char.toLower
+  have : ¬ (c.val ≥ 65 ∧ c.val ≤ 90) := by
+    intro ⟨h1, h2⟩
+    have h3 : c.val ≤ 57 := h.2
+    have : (65 : UInt32) ≤ 57 := UInt32.le_trans h1 h3
+    exact absurd this (by decide)
+  simp only [ge_iff_le] at this
+  simp [this]
+
+theorem lower_showInt (i : Int) : lower (showInt i) = showInt i := by
+  unfold lower
+  have : ∀ c ∈ showInt i, c.toLower = c := by
+    intro c hc
+    rcases showInt_chars i c hc with h | rfl
+    · exact toLower_of_isDigit c h
+    · rfl
+  have := List.map_congr_left (l := showInt i) (f := Char.toLower) (g := id) this
+  simpa using this
+
+theorem lower_pad2_showInt (i : Int) : lower (pad2 (showInt i)) = pad2 (showInt i) := by
+  unfold pad2
+  split
+  · show lower ('0' :: showInt i) = _
+    simp only [lower, List.map_cons] 
+    have := lower_showInt i
+    simp only [lower] at this
+    rw [this]; rfl
+  · exact lower_showInt i
+
+theorem parseInt_pad2 (i : Int) : parseInt? (pad2 (showInt i)) = some i := by
+  unfold pad2
+  split
+  · rename_i hlen
+    cases i with
+    | ofNat n =>
+      have hp := parseNat_showNat n
+      have hd := showNat_all_digit n
+      simp only [showInt] at hlen ⊢
+      unfold parseInt?
+      have hpn : parseNat? ('0' :: showNat n) = some n := by
+        unfold parseNat? at hp ⊢
+        have hne : (showNat n).isEmpty = false := by
+          cases h : showNat n with
+          | nil => exact absurd h (showNat_ne_nil n)
+          | cons a b => rfl
+        simp only [hd, hne, Bool.not_false, Bool.and_self, if_true, Option.some.injEq] at hp
+        have h0 : ('0' : Char).isDigit = true := by decide
+        simp only [List.isEmpty_cons, Bool.not_false, List.all_cons, h0, hd, Bool.and_self, if_true, Option.some.injEq]
+        rw [Nat.ofDigitChars_cons]
+        simpa using hp
+      simp [hpn]
+    | negSucc n =>
+      exfalso
+      simp only [showInt, List.length_cons] at hlen
+      have := showNat_ne_nil (n + 1)
+      cases h : showNat (n + 1) with
+      | nil => exact this h
+      | cons a b => rw [h] at hlen; simp only [List.length_cons] at hlen; omega
+  · exact parseInt_showInt i
+
+
 /-! ### Strata `point_data` -/
 
 theorem notMem_showNat_space (n : Nat) : ' ' ∉ showNat n := by
@@ -814,2129 +877,6 @@ theorem parsePoints_export (pts : List V3) (h : ∀ p ∈ pts, V3OK p = true) :
   simp only [List.map_nil, List.nil_append, List.length_nil] at this
   rw [this]
   exact collectPoints_some pts
-
-
-
-/-- the face fields other than point data and displacement -/
-def SideCoreOK (s : Side) : Bool :=
-  V3OK s.p0 && V3OK s.p1 && V3OK s.p2 && UVOK s.uaxis && UVOK s.vaxis && isNum s.rot
-
-theorem parseSide_core (nm : Str) (s : Side) (extra : List KV) (hb : ∀ k ∈ extra, k.isBlock = true)
-    (disp : Option Disp) (points : Option (List V3))
-    (hd : parseSideDisp (sideLeaves s ++ extra) = .ok disp)
-    (hp : parseSidePoints (sideLeaves s ++ extra) = .ok points)
-    (h : SideCoreOK s = true) :
-    parseSide (KV.block nm (sideLeaves s ++ extra)) = .ok { s with points := points, disp := disp } := by
-  simp only [SideCoreOK, Bool.and_eq_true] at h
-  obtain ⟨⟨⟨⟨⟨h0, h1⟩, h2⟩, hu⟩, hv⟩, hr⟩ := h
-  have gl : ∀ key, getLeaf key (sideLeaves s ++ extra) = getLeaf key (sideLeaves s) :=
-    fun key => getLeaf_append_blocks key _ _ hb
-  have hpl : parsePlanes (sideLeaves s ++ extra) = .ok (s.p0, s.p1, s.p2) := by
-    have := parsePlanes_leaves s h0 h1 h2
-    unfold parsePlanes at this ⊢
-    rw [gl]; exact this
-  simp only [parseSide]
-  rw [hpl]
-  simp only []
-  have eu : getLeaf "uaxis" (sideLeaves s) = some s.uaxis.str := by unfold sideLeaves; kv_simp
-  have ev : getLeaf "vaxis" (sideLeaves s) = some s.vaxis.str := by unfold sideLeaves; kv_simp
-  rw [gl, gl, eu, ev]
-  simp only [Option.getD_some]
-  rw [parseUV_str _ hu, parseUV_str _ hv]
-  simp only []
-  rw [hd, hp]
-  simp only []
-  have e1 : getInt "id" (-1) (sideLeaves s ++ extra) = s.id := by
-    unfold getInt; rw [gl]; unfold sideLeaves; kv_simp; simp [parseInt_showInt]
-  have e2 : getLeaf "material" (sideLeaves s) = some s.mat := by unfold sideLeaves; kv_simp
-  have e3 : getFloat "rotation" ['0'] (sideLeaves s ++ extra) = s.rot := by
-    unfold getFloat; rw [gl]; unfold sideLeaves; kv_simp; simp [hr]
-  have e4 : getInt "lightmapscale" 16 (sideLeaves s ++ extra) = s.lightmap := by
-    unfold getInt; rw [gl]; unfold sideLeaves; kv_simp; simp [parseInt_showInt]
-  have e5 : getInt "smoothing_groups" 0 (sideLeaves s ++ extra) = s.smooth := by
-    unfold getInt; rw [gl]; unfold sideLeaves; kv_simp; simp [parseInt_showInt]
-  rw [e1, gl, e2, e3, e4, e5]
-  cases s
-  simp_all
-
-/-- v1: a face without displacement (Strata point data allowed). -/
-def SideOK1 (s : Side) : Bool :=
-  SideCoreOK s && (match s.points with
-    | some pts => pts.all V3OK
-    | none => true) && s.disp.isNone
-
-theorem parseSide_export1 (mb : Bool) (s : Side) (h : SideOK1 s = true) :
-    parseSide (exportSide mb s) = .ok s := by
-  simp only [SideOK1, Bool.and_eq_true, Option.isNone_iff_eq_none] at h
-  obtain ⟨⟨hc, hp⟩, hd⟩ := h
-  cases hpts : s.points with
-  | none =>
-    have hexp : exportSide mb s = KV.block "side".toList (sideLeaves s ++ []) := by
-      simp [exportSide, hpts, hd, sideLeaves, kBlock]
-    rw [hexp, parseSide_core _ s [] (by simp) none none (by
-        simp only [List.append_nil]; unfold parseSideDisp sideLeaves; kv_simp) (by
-        simp only [List.append_nil]; unfold parseSidePoints sideLeaves; kv_simp) hc]
-    cases s; simp_all
-  | some pts =>
-    rw [hpts] at hp
-    simp only [List.all_eq_true] at hp
-    have hexp : exportSide mb s = KV.block "side".toList (sideLeaves s ++ [exportPoints pts]) := by
-      simp [exportSide, hpts, hd, sideLeaves, kBlock]
-    have hdisp : parseSideDisp (sideLeaves s ++ [exportPoints pts]) = .ok none := by
-      unfold parseSideDisp sideLeaves exportPoints; kv_simp
-    have hpoints : parseSidePoints (sideLeaves s ++ [exportPoints pts]) = .ok (some pts) := by
-      have h1 : hasBlock "point_data" (sideLeaves s ++ [exportPoints pts]) = true := by
-        unfold hasBlock; rw [findLast_append]; simp [findLast, exportPoints, kBlock, named, KV.fname, KV.name, KV.isBlock, lower]
-      have h2 : getBlock "point_data" (sideLeaves s ++ [exportPoints pts])
-          = kInt "numpts" pts.length :: pointLeaves 0 pts := by
-        unfold getBlock; rw [findLast_append]
-        simp [findLast, exportPoints, kBlock, named, KV.fname, KV.name, KV.isBlock, KV.kids, lower]
-      simp only [parseSidePoints, h1, if_true, h2, parsePoints_export pts hp]
-    rw [hexp, parseSide_core _ s [exportPoints pts] (by simp [exportPoints, kBlock, KV.isBlock]) none (some pts) hdisp hpoints hc]
-    cases s; simp_all
-
-
-theorem foldE_append {σ} (step : σ → KV → Except Err σ) (st : σ) (a b : List KV) :
-    foldE step st (a ++ b) = match foldE step st a with
-      | .error e => .error e
-      | .ok st' => foldE step st' b := by
-  induction a generalizing st with
-  | nil => rfl
-  | cons k ks ih =>
-    simp only [List.cons_append, foldE]
-    cases step st k with
-    | error e => rfl
-    | ok st' => exact ih st'
-
-theorem convBool_boolStr (b d : Bool) : convBool (boolStr b) d = b := by
-  simp [convBool, boolLookup_boolStr]
-
-/-! ### solids -/
-
-theorem named_side_export (mb : Bool) (s : Side) : named "side" (exportSide mb s) = true := by
-  simp [exportSide, kBlock, named, KV.fname, KV.name, lower]
-
-theorem named_editor_export_side (mb : Bool) (s : Side) : named "editor" (exportSide mb s) = false := by
-  simp [exportSide, kBlock, named, KV.fname, KV.name, lower]
-
-theorem isBlock_export_side (mb : Bool) (s : Side) : (exportSide mb s).isBlock = true := by
-  simp [exportSide, kBlock, KV.isBlock]
-
-def SolidOK1 (s : Solid) : Bool := s.sides.all SideOK1 && V3OK s.color
-
-theorem parseSides_export (mb : Bool) (sides : List Side) (rest : List KV)
-    (h : ∀ s ∈ sides, SideOK1 s = true) (hr : parseSides rest = .ok []) :
-    parseSides (sides.map (exportSide mb) ++ rest) = .ok sides := by
-  induction sides with
-  | nil => simpa using hr
-  | cons s ss ih =>
-    simp only [List.map_cons, List.cons_append, parseSides, named_side_export, if_true]
-    rw [parseSide_export1 mb s (h s (by simp)), ih (fun t ht => h t (by simp [ht]))]
-
-theorem editorKids_skip (l rest : List KV) (h : ∀ k ∈ l, named "editor" k = false) :
-    editorKids (l ++ rest) = editorKids rest := by
-  induction l with
-  | nil => rfl
-  | cons k ks ih =>
-    simp only [List.cons_append, editorKids, h k (by simp), Bool.false_eq_true, if_false]
-    exact ih (fun j hj => h j (by simp [hj]))
-
-theorem solidEd_color (st : SolidEd) (v : Str) :
-    solidEdStep st (kLeaf "color" v) = .ok { st with color := parseV3 v3white v } := by
-  simp [solidEdStep, kLeaf, named, KV.fname, KV.name, lower, KV.isBlock]
-
-theorem solidEd_groupid (st : SolidEd) (g : Int) :
-    solidEdStep st (kInt "groupid" g) = .ok { st with group := some g } := by
-  simp [solidEdStep, kInt, kLeaf, named, KV.fname, KV.name, lower, KV.isBlock, parseInt_showInt]
-
-theorem solidEd_visgroupid (st : SolidEd) (g : Int) :
-    solidEdStep st (kInt "visgroupid" g) = .ok { st with visIds := st.visIds ++ [g] } := by
-  simp [solidEdStep, kInt, kLeaf, named, KV.fname, KV.name, lower, KV.isBlock, parseInt_showInt]
-
-theorem solidEd_shown (st : SolidEd) (b : Bool) :
-    solidEdStep st (kBool "visgroupshown" b) = .ok { st with visShown := b } := by
-  simp [solidEdStep, kBool, kLeaf, named, KV.fname, KV.name, lower, KV.isBlock, convBool_boolStr]
-
-theorem solidEd_auto (st : SolidEd) (b : Bool) :
-    solidEdStep st (kBool "visgroupautoshown" b) = .ok { st with visAuto := b } := by
-  simp [solidEdStep, kBool, kLeaf, named, KV.fname, KV.name, lower, KV.isBlock, convBool_boolStr]
-
-theorem solidEd_cordon (st : SolidEd) :
-    solidEdStep st (kLeaf "cordonsolid" ['1']) = .ok { st with cordon := true } := by
-  simp [solidEdStep, kLeaf, named, KV.fname, KV.name, lower, KV.isBlock]
-
-theorem foldE_solid_visids (st : SolidEd) (ids : List Int) :
-    foldE solidEdStep st (ids.map (kInt "visgroupid")) = .ok { st with visIds := st.visIds ++ ids } := by
-  induction ids generalizing st with
-  | nil => simp [foldE]
-  | cons i is ih =>
-    simp only [List.map_cons, foldE, solidEd_visgroupid]
-    rw [ih]
-    simp
-
-/-- what a re-parse makes of a solid (v1: faces without displacement are unchanged). -/
-def solidRT (ig hidden : Bool) (s : Solid) : Solid :=
-  { s with hidden, visIds := if ig then isort intLe s.visIds else [], group := if ig then s.group else none }
-
-theorem foldE_solidEditor (ig : Bool) (s : Solid) (hc : V3OK s.color = true) :
-    foldE solidEdStep {} (solidEditor ig s) =
-      .ok { visIds := if ig then isort intLe s.visIds else [], group := if ig then s.group else none,
-            visShown := s.visShown, visAuto := s.visAuto, cordon := s.cordon, color := s.color } := by
-  unfold solidEditor
-  simp only [foldE_append, List.singleton_append, List.cons_append, List.nil_append, foldE, solidEd_color,
-    parseV3_str _ _ hc]
-  cases ig with
-  | false =>
-    simp only [Bool.false_eq_true, if_false, foldE, solidEd_shown, solidEd_auto]
-    cases hcd : s.cordon <;> simp [foldE, solidEd_cordon]
-  | true =>
-    simp only [if_true]
-    cases hg : s.group with
-    | none =>
-      simp only [List.nil_append, foldE_solid_visids, foldE, solidEd_shown, solidEd_auto]
-      cases hcd : s.cordon <;> simp [foldE, solidEd_cordon]
-    | some g =>
-      simp only [List.singleton_append, foldE, solidEd_groupid, foldE_solid_visids, solidEd_shown, solidEd_auto]
-      cases hcd : s.cordon <;> simp [foldE, solidEd_cordon]
-
-theorem parseSolid_block (mb ig hidden : Bool) (s : Solid) (h : SolidOK1 s = true) :
-    parseSolid hidden (solidBlock mb ig s) = .ok (solidRT ig hidden s) := by
-  simp only [SolidOK1, Bool.and_eq_true, List.all_eq_true] at h
-  obtain ⟨hs, hc⟩ := h
-  simp only [solidBlock, kBlock, parseSolid]
-  have e1 : parseSides (kInt "id" s.id :: (s.sides.map (exportSide mb) ++ [KV.block "editor".toList (solidEditor ig s)])) = .ok s.sides := by
-    have hid : named "side" (kInt "id" s.id) = false := by kv_simp
-    simp only [parseSides, hid, Bool.false_eq_true, if_false]
-    exact parseSides_export mb s.sides _ hs (by
-      simp [parseSides, named, KV.fname, KV.name, lower])
-  have e2 : editorKids (kInt "id" s.id :: (s.sides.map (exportSide mb) ++ [KV.block "editor".toList (solidEditor ig s)])) = .ok (solidEditor ig s) := by
-    have hid : named "editor" (kInt "id" s.id) = false := by kv_simp
-    simp only [editorKids, hid, Bool.false_eq_true, if_false]
-    rw [editorKids_skip _ _ (by
-      intro k hk
-      simp only [List.mem_map] at hk
-      obtain ⟨t, _, rfl⟩ := hk
-      exact named_editor_export_side mb t)]
-    simp [editorKids, named, KV.fname, KV.name, lower, blockKids]
-  have e3 : getInt "id" (-1) (kInt "id" s.id :: (s.sides.map (exportSide mb) ++ [KV.block "editor".toList (solidEditor ig s)])) = s.id := by
-    unfold getInt
-    have := getLeaf_append_blocks "id" [kInt "id" s.id] (s.sides.map (exportSide mb) ++ [KV.block "editor".toList (solidEditor ig s)]) (by
-      intro k hk
-      simp only [List.mem_append, List.mem_map, List.mem_singleton] at hk
-      rcases hk with ⟨t, _, rfl⟩ | rfl
-      · exact isBlock_export_side mb t
-      · rfl)
-    simp only [List.singleton_append] at this
-    rw [this]
-    kv_simp
-    simp [parseInt_showInt]
-  rw [e1]
-  simp only []
-  rw [e2]
-  simp only []
-  rw [foldE_solidEditor ig s hc]
-  simp only []
-  rw [e3]
-  cases s
-  simp [solidOf, solidRT]
-
-
-
-
-/-! ### sorting -/
-
-theorem insertBy_perm {α} (le : α → α → Bool) (x : α) (l : List α) : (insertBy le x l).Perm (x :: l) := by
-  induction l with
-  | nil => exact List.Perm.refl _
-  | cons y ys ih =>
-    simp only [insertBy]
-    split
-    · exact List.Perm.refl _
-    · exact (List.Perm.cons y ih).trans (List.Perm.swap x y ys)
-
-theorem isort_perm {α} (le : α → α → Bool) (l : List α) : (isort le l).Perm l := by
-  induction l with
-  | nil => exact List.Perm.refl _
-  | cons x xs ih => exact (insertBy_perm le x _).trans (List.Perm.cons x ih)
-
-theorem mem_isort {α} (le : α → α → Bool) (l : List α) (x : α) : x ∈ isort le l ↔ x ∈ l :=
-  (isort_perm le l).mem_iff
-
-/-! ### dictionaries -/
-
-theorem dictSet_new (d : List (Str × Str)) (k v : Str) (h : ∀ kv ∈ d, kv.1 ≠ k) :
-    dictSet d k v = d ++ [(k, v)] := by
-  have : d.any (·.1 == k) = false := by
-    simp only [List.any_eq_false, beq_iff_eq]
-    intro kv hkv; exact h kv hkv
-  simp [dictSet, this]
-
-theorem entSetKey_new (d : List (Str × Str)) (k v : Str) (h : ∀ kv ∈ d, lower kv.1 ≠ lower k) :
-    entSetKey d k v = d ++ [(k, v)] := by
-  have : d.any (fun kv => lower kv.1 == lower k) = false := by
-    simp only [List.any_eq_false, beq_iff_eq]
-    intro kv hkv; exact h kv hkv
-  simp [entSetKey, this]
-
-/-- keys pairwise different ignoring case (the invariant `Entity.__setitem__` maintains) -/
-def KeysDistinct (l : List (Str × Str)) : Prop := l.Pairwise (fun a b => lower a.1 ≠ lower b.1)
-
-theorem foldl_entSetKey (acc l : List (Str × Str)) (h : KeysDistinct (acc ++ l)) :
-    l.foldl (fun ks kv => entSetKey ks kv.1 kv.2) acc = acc ++ l := by
-  induction l generalizing acc with
-  | nil => simp
-  | cons kv r ih =>
-    simp only [List.foldl_cons]
-    have h1 : ∀ a ∈ acc, lower a.1 ≠ lower kv.1 := by
-      intro a ha
-      have := List.pairwise_append.mp h
-      exact this.2.2 a ha kv (by simp)
-    rw [entSetKey_new acc kv.1 kv.2 h1]
-    have : KeysDistinct ((acc ++ [(kv.1, kv.2)]) ++ r) := by
-      simpa [KeysDistinct] using h
-    rw [ih _ this]
-    simp
-
-theorem lower_ne_of_ne {a b : Str} (h : lower a ≠ lower b) : a ≠ b := fun e => h (by rw [e])
-
-
-
-
-theorem fixSplit_nodup (seen : List Int) (l : List Fix)
-    (h1 : (l.map (·.id)).Nodup) (h2 : ∀ f ∈ l, f.id ∉ seen) : fixSplit seen l = (l, []) := by
-  induction l generalizing seen with
-  | nil => rfl
-  | cons f r ih =>
-    simp only [List.map_cons, List.nodup_cons] at h1
-    have := ih (f.id :: seen) h1.2 (by
-      intro g hg
-      simp only [List.mem_cons, not_or]
-      refine ⟨?_, h2 g (by simp [hg])⟩
-      intro e
-      exact h1.1 (by simp only [List.mem_map]; exact ⟨g, hg, e⟩))
-    have hf' : f.id ∉ seen := h2 f (by simp)
-    simp [fixSplit, hf', this]
-
-def VarsDistinct (l : List Fix) : Prop := l.Pairwise (fun a b => lower a.var ≠ lower b.var)
-
-theorem fixPut_new (d : List Fix) (f : Fix) (h : ∀ g ∈ d, lower g.var ≠ lower f.var) : fixPut d f = d ++ [f] := by
-  have : d.any (fun g => lower g.var == lower f.var) = false := by
-    simp only [List.any_eq_false, beq_iff_eq]
-    intro g hg; exact h g hg
-  simp [fixPut, this]
-
-theorem foldl_fixPut (acc l : List Fix) (h : VarsDistinct (acc ++ l)) : l.foldl fixPut acc = acc ++ l := by
-  induction l generalizing acc with
-  | nil => simp
-  | cons f r ih =>
-    simp only [List.foldl_cons]
-    have h1 : ∀ a ∈ acc, lower a.var ≠ lower f.var := by
-      intro a ha
-      exact (List.pairwise_append.mp h).2.2 a ha f (by simp)
-    rw [fixPut_new acc f h1]
-    have : VarsDistinct ((acc ++ [f]) ++ r) := by simpa [VarsDistinct] using h
-    rw [ih _ this]; simp
-
-theorem fixInit_id (l : List Fix) (h1 : (l.map (·.id)).Nodup) (h2 : VarsDistinct l) : fixInit l = l := by
-  unfold fixInit
-  rw [fixSplit_nodup [] l h1 (by simp)]
-  simp only [List.foldl_nil]
-  have := foldl_fixPut [] l (by simpa using h2)
-  simpa using this
-
-
-
-theorem isNumeric_showNat (n : Nat) : isNumeric (showNat n) = true := by
-  have h1 := showNat_all_digit n
-  have h2 : (showNat n).isEmpty = false := by
-    cases h : showNat n with
-    | nil => exact absurd h (showNat_ne_nil n)
-    | cons a b => rfl
-  simp [isNumeric, h1, h2]
-
-theorem entStep_id (w : Bool) (st : EntSt) (n : Nat) :
-    entStep w st (kInt "id" (Int.ofNat n)) = .ok { st with id := Int.ofNat n } := by
-  have hp := parseInt_showInt (Int.ofNat n)
-  simp only [showInt] at hp
-  show entStep w st (KV.leaf ['i', 'd'] (showNat n)) = _
-  have hn : named "id" (KV.leaf ['i', 'd'] (showNat n)) = true := by
-    simp [named, KV.fname, KV.name, lower]
-  unfold entStep
-  simp only [hn, isNumeric_showNat, Bool.and_self, if_true, hp, Option.getD_some]
-
-/-- an entity key that is neither the `id` line nor a `replaceNN` line -/
-def KeyNameOK (k : Str) : Bool := lower k != lit "id" && !(lit "replace").isPrefixOf (lower k)
-
-theorem entStep_key (w : Bool) (st : EntSt) (k v : Str) (h : KeyNameOK k = true) :
-    entStep w st (.leaf k v) = .ok { st with keys := dictSet st.keys k v } := by
-  simp only [KeyNameOK, Bool.and_eq_true, bne_iff_ne, ne_eq, Bool.not_eq_true'] at h
-  have h1 : named "id" (KV.leaf k v) = false := by
-    simp only [named, KV.fname, KV.name]
-    have : lower "id".toList = lit "id" := by decide
-    rw [this]
-    simpa using h.1
-  have h2 : (lit "replace").isPrefixOf (KV.leaf k v).fname = false := by
-    simpa [KV.fname, KV.name] using h.2
-  simp [entStep, h1, h2]
-
-theorem toLower_of_isDigit (c : Char) (h : c.isDigit = true) : c.toLower = c := by
-  simp only [Char.isDigit, Bool.and_eq_true, decide_eq_true_eq] at h
-  unfold Char.toLower
-  have : ¬ (c.val ≥ 65 ∧ c.val ≤ 90) := by
-    intro ⟨h1, h2⟩
-    have h3 : c.val ≤ 57 := h.2
-    have : (65 : UInt32) ≤ 57 := UInt32.le_trans h1 h3
-    exact absurd this (by decide)
-  simp only [ge_iff_le] at this
-  simp [this]
-
-theorem lower_showInt (i : Int) : lower (showInt i) = showInt i := by
-  unfold lower
-  have : ∀ c ∈ showInt i, c.toLower = c := by
-    intro c hc
-    rcases showInt_chars i c hc with h | rfl
-    · exact toLower_of_isDigit c h
-    · rfl
-  have := List.map_congr_left (l := showInt i) (f := Char.toLower) (g := id) this
-  simpa using this
-
-theorem lower_pad2_showInt (i : Int) : lower (pad2 (showInt i)) = pad2 (showInt i) := by
-  unfold pad2
-  split
-  · show lower ('0' :: showInt i) = _
-    simp only [lower, List.map_cons] 
-    have := lower_showInt i
-    simp only [lower] at this
-    rw [this]; rfl
-  · exact lower_showInt i
-
-theorem parseInt_pad2 (i : Int) : parseInt? (pad2 (showInt i)) = some i := by
-  unfold pad2
-  split
-  · rename_i hlen
-    cases i with
-    | ofNat n =>
-      have hp := parseNat_showNat n
-      have hd := showNat_all_digit n
-      simp only [showInt] at hlen ⊢
-      unfold parseInt?
-      have hpn : parseNat? ('0' :: showNat n) = some n := by
-        unfold parseNat? at hp ⊢
-        have hne : (showNat n).isEmpty = false := by
-          cases h : showNat n with
-          | nil => exact absurd h (showNat_ne_nil n)
-          | cons a b => rfl
-        simp only [hd, hne, Bool.not_false, Bool.and_self, if_true, Option.some.injEq] at hp
-        have h0 : ('0' : Char).isDigit = true := by decide
-        simp only [List.isEmpty_cons, Bool.not_false, List.all_cons, h0, hd, Bool.and_self, if_true, Option.some.injEq]
-        rw [Nat.ofDigitChars_cons]
-        simpa using hp
-      simp [hpn]
-    | negSucc n =>
-      exfalso
-      simp only [showInt, List.length_cons] at hlen
-      have := showNat_ne_nil (n + 1)
-      cases h : showNat (n + 1) with
-      | nil => exact this h
-      | cons a b => rw [h] at hlen; simp only [List.length_cons] at hlen; omega
-  · exact parseInt_showInt i
-
-def FixOK (f : Fix) : Bool := !f.var.contains ' ' && f.var.head? != some '$'
-
-theorem entStep_fix (w : Bool) (st : EntSt) (f : Fix) (h : FixOK f = true) :
-    entStep w st (exportFix f) = .ok { st with fixup := st.fixup ++ [f] } := by
-  cases f with
-  | mk var value id =>
-  simp only [FixOK, Bool.and_eq_true, Bool.not_eq_true', bne_iff_ne, ne_eq] at h
-  obtain ⟨hsp, hd⟩ := h
-  have hexp : exportFix ⟨var, value, id⟩
-      = KV.leaf (lit "replace" ++ pad2 (showInt id)) ('$' :: (var ++ ' ' :: value)) := rfl
-  rw [hexp]
-  have hlow : lower (lit "replace" ++ pad2 (showInt id)) = lit "replace" ++ pad2 (showInt id) := by
-    rw [lower_append, lower_pad2_showInt]
-    have : lower (lit "replace") = lit "replace" := by decide
-    rw [this]
-  have hname : named "id" (KV.leaf (lit "replace" ++ pad2 (showInt id)) ('$' :: (var ++ ' ' :: value))) = false := by
-    simp only [named, KV.fname, KV.name, hlow]
-    have : lower "id".toList = lit "id" := by decide
-    rw [this]
-    simp [lit]
-  have hsplit : splitFirst ' ' ('$' :: (var ++ ' ' :: value)) [] = ('$' :: var, some value) := by
-    have hns : ' ' ∉ ('$' :: var) := by
-      simp only [List.mem_cons, not_or]
-      exact ⟨by decide, by simpa using hsp⟩
-    have := splitFirst_pre ' ' ('$' :: var) value [] hns
-    simpa using this
-  have hstrip : lstripC '$' ('$' :: var) = var := by
-    cases hv : var with
-    | nil => simp [lstripC, List.dropWhile]
-    | cons c r =>
-      have hc : (c == '$') = false := by
-        simp only [beq_eq_false_iff_ne, ne_eq]
-        intro e; apply hd; simp [hv, e]
-      simp [lstripC, List.dropWhile, hc]
-  unfold entStep
-  simp only [hname, Bool.false_and, Bool.false_eq_true, if_false]
-  have hf : (KV.leaf (lit "replace" ++ pad2 (showInt id)) ('$' :: (var ++ ' ' :: value))).fname
-      = lit "replace" ++ pad2 (showInt id) := hlow
-  rw [hf]
-  have hpre : (lit "replace").isPrefixOf (lit "replace" ++ pad2 (showInt id)) = true := by
-    simp [List.isPrefixOf_iff_prefix]
-  have hdrop : (lit "replace" ++ pad2 (showInt id)).drop 7 = pad2 (showInt id) := by
-    simp [lit]
-  rw [hpre, hdrop, parseInt_pad2]
-  simp only [if_true, fixOfLeaf, hsplit, hstrip, Option.getD_some]
-
-theorem entStep_solid (mb w : Bool) (st : EntSt) (s : Solid) (h : SolidOK1 s = true) :
-    entStep w st (exportSolid mb w s) = .ok { st with solids := st.solids ++ [solidRT w s.hidden s] } := by
-  cases hh : s.hidden with
-  | false =>
-    have e : exportSolid mb w s = solidBlock mb w s := by simp [exportSolid, maybeHidden, hh]
-    rw [e]
-    have hp := parseSolid_block mb w false s h
-    have hn : named "solid" (solidBlock mb w s) = true := by
-      simp [solidBlock, kBlock, named, KV.fname, KV.name, lower]
-    simp only [solidBlock, kBlock] at hp hn ⊢
-    simp only [entStep, hn, if_true, hp]
-  | true =>
-    have e : exportSolid mb w s = kBlock "hidden" [solidBlock mb w s] := by simp [exportSolid, maybeHidden, hh]
-    rw [e]
-    have hp := parseSolid_block mb w true s h
-    have hn : named "solid" (solidBlock mb w s) = true := by
-      simp [solidBlock, kBlock, named, KV.fname, KV.name, lower]
-    have h1 : named "solid" (kBlock "hidden" [solidBlock mb w s]) = false := by
-      simp [kBlock, named, KV.fname, KV.name, lower]
-    have h2 : named "connections" (kBlock "hidden" [solidBlock mb w s]) = false := by
-      simp [kBlock, named, KV.fname, KV.name, lower]
-    have h3 : named "editor" (kBlock "hidden" [solidBlock mb w s]) = false := by
-      simp [kBlock, named, KV.fname, KV.name, lower]
-    have h4 : named "hidden" (kBlock "hidden" [solidBlock mb w s]) = true := by
-      simp [kBlock, named, KV.fname, KV.name, lower]
-    simp only [kBlock] at h1 h2 h3 h4 ⊢
-    simp only [entStep, h1, h2, h3, h4, Bool.false_eq_true, if_false, if_true, foldE, hiddenStep, hn, hp]
-
-theorem parseOuts_export (outs : List Out) (h : ∀ o ∈ outs, OutOK o = true) :
-    parseOuts (outs.map exportOut) = .ok (outs.map projOut) := by
-  induction outs with
-  | nil => rfl
-  | cons o os ih =>
-    simp only [List.map_cons, parseOuts, parseOut_export o (h o (by simp)), ih (fun p hp => h p (by simp [hp]))]
-
-theorem entStep_connections (w : Bool) (st : EntSt) (outs : List Out) (h : ∀ o ∈ outs, OutOK o = true) :
-    entStep w st (kBlock "connections" (outs.map exportOut)) =
-      .ok { st with outputs := st.outputs ++ outs.map projOut } := by
-  have h1 : named "solid" (kBlock "connections" (outs.map exportOut)) = false := by
-    simp [kBlock, named, KV.fname, KV.name, lower]
-  have h2 : named "connections" (kBlock "connections" (outs.map exportOut)) = true := by
-    simp [kBlock, named, KV.fname, KV.name, lower]
-  simp only [kBlock] at h1 h2 ⊢
-  simp only [entStep, h1, h2, Bool.false_eq_true, if_false, if_true, parseOuts_export outs h]
-
-theorem entStep_group (st : EntSt) (g : Group) (h : GroupOK g = true) :
-    entStep true st (exportGroup g) = .ok { st with groups := st.groups ++ [g] } := by
-  have hp := parseGroup_export g h
-  have h1 : named "solid" (exportGroup g) = false := by simp [exportGroup, kBlock, named, KV.fname, KV.name, lower]
-  have h2 : named "connections" (exportGroup g) = false := by simp [exportGroup, kBlock, named, KV.fname, KV.name, lower]
-  have h3 : named "editor" (exportGroup g) = false := by simp [exportGroup, kBlock, named, KV.fname, KV.name, lower]
-  have h4 : named "hidden" (exportGroup g) = false := by simp [exportGroup, kBlock, named, KV.fname, KV.name, lower]
-  have h5 : named "group" (exportGroup g) = true := by simp [exportGroup, kBlock, named, KV.fname, KV.name, lower]
-  simp only [exportGroup, kBlock] at hp h1 h2 h3 h4 h5 ⊢
-  simp only [entStep, h1, h2, h3, h4, h5, Bool.false_eq_true, if_false, if_true, Bool.not_true, hp]
-
-theorem foldE_groups (st : EntSt) (gs : List Group) (h : ∀ g ∈ gs, GroupOK g = true) :
-    foldE (entStep true) st (gs.map exportGroup) = .ok { st with groups := st.groups ++ gs } := by
-  induction gs generalizing st with
-  | nil => simp [foldE]
-  | cons g r ih =>
-    simp only [List.map_cons, foldE, entStep_group st g (h g (by simp))]
-    rw [ih _ (fun x hx => h x (by simp [hx]))]
-    simp
-
-theorem foldE_solids (mb w : Bool) (st : EntSt) (ss : List Solid) (h : ∀ s ∈ ss, SolidOK1 s = true) :
-    foldE (entStep w) st (ss.map (exportSolid mb w)) =
-      .ok { st with solids := st.solids ++ ss.map (fun s => solidRT w s.hidden s) } := by
-  induction ss generalizing st with
-  | nil => simp [foldE]
-  | cons s r ih =>
-    simp only [List.map_cons, foldE, entStep_solid mb w st s (h s (by simp))]
-    rw [ih _ (fun x hx => h x (by simp [hx]))]
-    simp
-
-theorem foldE_fixes (w : Bool) (st : EntSt) (fs : List Fix) (h : ∀ f ∈ fs, FixOK f = true) :
-    foldE (entStep w) st (fs.map exportFix) = .ok { st with fixup := st.fixup ++ fs } := by
-  induction fs generalizing st with
-  | nil => simp [foldE]
-  | cons f r ih =>
-    simp only [List.map_cons, foldE, entStep_fix w st f (h f (by simp))]
-    rw [ih _ (fun x hx => h x (by simp [hx]))]
-    simp
-
-theorem foldE_keys (w : Bool) (st : EntSt) (ks : List (Str × Str))
-    (h : ∀ kv ∈ ks, KeyNameOK kv.1 = true)
-    (hd : (st.keys ++ ks).Pairwise (fun a b => a.1 ≠ b.1)) :
-    foldE (entStep w) st (ks.map (fun kv => KV.leaf kv.1 kv.2)) = .ok { st with keys := st.keys ++ ks } := by
-  induction ks generalizing st with
-  | nil => simp [foldE]
-  | cons kv r ih =>
-    simp only [List.map_cons, foldE, entStep_key w st kv.1 kv.2 (h kv (by simp))]
-    have hnew : ∀ a ∈ st.keys, a.1 ≠ kv.1 := by
-      intro a ha
-      exact (List.pairwise_append.mp hd).2.2 a ha kv (by simp)
-    rw [dictSet_new st.keys kv.1 kv.2 hnew]
-    rw [ih _ (fun x hx => h x (by simp [hx])) (by simpa using hd)]
-    simp
-
-
-
-
-theorem entEd_color (st : EntSt) (v : Str) :
-    entEdStep st (kLeaf "color" v) = .ok { st with color := parseV3 v3white v } := by
-  simp [entEdStep, kLeaf, named, KV.fname, KV.name, lower, KV.isBlock]
-
-theorem entEd_groupid (st : EntSt) (g : Int) :
-    entEdStep st (kInt "groupid" g) = .ok { st with groupIds := st.groupIds ++ [g] } := by
-  simp [entEdStep, kInt, kLeaf, named, KV.fname, KV.name, lower, KV.isBlock, parseInt_showInt]
-
-theorem entEd_visgroupid (st : EntSt) (g : Int) :
-    entEdStep st (kInt "visgroupid" g) = .ok { st with visIds := st.visIds ++ [g] } := by
-  simp [entEdStep, kInt, kLeaf, named, KV.fname, KV.name, lower, KV.isBlock, parseInt_showInt]
-
-theorem entEd_shown (st : EntSt) (b : Bool) :
-    entEdStep st (kBool "visgroupshown" b) = .ok { st with visShown := b } := by
-  simp [entEdStep, kBool, kLeaf, named, KV.fname, KV.name, lower, KV.isBlock, convBool_boolStr]
-
-theorem entEd_auto (st : EntSt) (b : Bool) :
-    entEdStep st (kBool "visgroupautoshown" b) = .ok { st with visAuto := b } := by
-  simp [entEdStep, kBool, kLeaf, named, KV.fname, KV.name, lower, KV.isBlock, convBool_boolStr]
-
-theorem entEd_logical (st : EntSt) (v : Str) :
-    entEdStep st (kLeaf "logicalpos" v) = .ok { st with logicalPos := v } := by
-  simp [entEdStep, kLeaf, named, KV.fname, KV.name, lower, KV.isBlock]
-
-theorem entEd_comments (st : EntSt) (v : Str) :
-    entEdStep st (kLeaf "comments" v) = .ok { st with comments := v } := by
-  simp [entEdStep, kLeaf, named, KV.fname, KV.name, lower, KV.isBlock]
-
-theorem foldE_ent_groupids (st : EntSt) (ids : List Int) :
-    foldE entEdStep st (ids.map (kInt "groupid")) = .ok { st with groupIds := st.groupIds ++ ids } := by
-  induction ids generalizing st with
-  | nil => simp [foldE]
-  | cons i is ih =>
-    simp only [List.map_cons, foldE, entEd_groupid]
-    rw [ih]; simp
-
-theorem foldE_ent_visids (st : EntSt) (ids : List Int) :
-    foldE entEdStep st (ids.map (kInt "visgroupid")) = .ok { st with visIds := st.visIds ++ ids } := by
-  induction ids generalizing st with
-  | nil => simp [foldE]
-  | cons i is ih =>
-    simp only [List.map_cons, foldE, entEd_visgroupid]
-    rw [ih]; simp
-
-theorem foldE_entEditor (w : Bool) (st : EntSt) (e : Ent) (hc : V3OK e.color = true)
-    (h0 : st.groupIds = []) (h1 : st.visIds = []) (h2 : st.visShown = true) (h3 : st.visAuto = true)
-    (h4 : st.logicalPos = []) (h5 : st.comments = []) :
-    foldE entEdStep st (entEditor w e) =
-      .ok { st with color := e.color,
-                    groupIds := if w then [] else isort intLe e.groups,
-                    visIds := if w then [] else isort intLe e.visIds,
-                    visShown := if w then true else e.visShown,
-                    visAuto := if w then true else e.visAuto,
-                    logicalPos := if w then [] else e.logicalPos,
-                    comments := e.comments } := by
-  unfold entEditor
-  simp only [foldE_append, List.cons_append, List.nil_append, foldE, entEd_color, parseV3_str _ _ hc]
-  cases w with
-  | true =>
-    simp only [if_true, foldE]
-    cases hcm : e.comments with
-    | nil => simp [foldE, h0, h1, h2, h3, h4, h5]
-    | cons c r => simp [foldE, entEd_comments, h0, h1, h2, h3, h4]
-  | false =>
-    simp only [Bool.false_eq_true, if_false, foldE_append, foldE_ent_groupids, foldE_ent_visids, foldE,
-      entEd_shown, entEd_auto, entEd_logical]
-    cases hcm : e.comments with
-    | nil => simp [foldE, h0, h1, h5]
-    | cons c r => simp [foldE, entEd_comments, h0, h1]
-
-
-
-
-/-- v1 well-formedness of an entity (faces without displacement / Strata point data). -/
-structure EntOK1 (e : Ent) : Prop where
-  idNonneg : 0 ≤ e.id
-  keyNames : ∀ kv ∈ e.keys, KeyNameOK kv.1 = true
-  keysDistinct : KeysDistinct e.keys
-  fixes : ∀ f ∈ e.fixup, FixOK f = true
-  fixIds : (e.fixup.map (·.id)).Nodup
-  fixVars : VarsDistinct e.fixup
-  outs : ∀ o ∈ e.outputs, OutOK o = true
-  solids : ∀ s ∈ e.solids, SolidOK1 s = true
-  color : V3OK e.color = true
-
-/-- what `Entity.parse` (before id allocation) makes of an exported entity. -/
-def entRT (w hidden : Bool) (e : Ent) : Ent :=
-  { id := e.id, keys := isort keyLe e.keys, fixup := isort fixLe e.fixup,
-    outputs := e.outputs.map projOut, solids := e.solids.map (fun s => solidRT w s.hidden s),
-    hidden, groups := if w then [] else isort intLe e.groups,
-    visIds := if w then [] else isort intLe e.visIds,
-    visShown := if w then true else e.visShown, visAuto := if w then true else e.visAuto,
-    color := e.color, logicalPos := if w then [] else e.logicalPos, comments := e.comments }
-
-theorem keysDistinct_isort {l : List (Str × Str)} (h : KeysDistinct l) : KeysDistinct (isort keyLe l) :=
-  ((isort_perm keyLe l).pairwise_iff (fun hab => Ne.symm hab)).mpr h
-
-theorem varsDistinct_isort {l : List Fix} (h : VarsDistinct l) : VarsDistinct (isort fixLe l) :=
-  ((isort_perm fixLe l).pairwise_iff (fun hab => Ne.symm hab)).mpr h
-
-theorem entStep_editor (w : Bool) (st : EntSt) (kids : List KV) :
-    entStep w st (kBlock "editor" kids) = foldE entEdStep st kids := by
-  have h1 : named "solid" (kBlock "editor" kids) = false := by simp [kBlock, named, KV.fname, KV.name, lower]
-  have h2 : named "connections" (kBlock "editor" kids) = false := by simp [kBlock, named, KV.fname, KV.name, lower]
-  have h3 : named "editor" (kBlock "editor" kids) = true := by simp [kBlock, named, KV.fname, KV.name, lower]
-  simp only [kBlock] at h1 h2 h3 ⊢
-  simp only [entStep, h1, h2, h3, Bool.false_eq_true, if_false, if_true]
-
-theorem parseEnt_block (mb w hidden : Bool) (groups : List Group) (e : Ent) (h : EntOK1 e)
-    (hg : ∀ g ∈ groups, GroupOK g = true) :
-    parseEnt w hidden (entBlock mb w groups e) = .ok (entRT w hidden e, if w then groups else []) := by
-  obtain ⟨n, hn⟩ : ∃ n : Nat, e.id = Int.ofNat n := ⟨e.id.toNat, by have := h.idNonneg; simp; omega⟩
-  have hk : ∀ kv ∈ isort keyLe e.keys, KeyNameOK kv.1 = true :=
-    fun kv hkv => h.keyNames kv ((mem_isort _ _ _).mp hkv)
-  have hkd : KeysDistinct (isort keyLe e.keys) := keysDistinct_isort h.keysDistinct
-  have hkd' : (([] : List (Str × Str)) ++ isort keyLe e.keys).Pairwise (fun (a b : Str × Str) => a.1 ≠ b.1) := by
-    simp only [List.nil_append]
-    exact hkd.imp (fun hab => lower_ne_of_ne hab)
-  have hf : ∀ f ∈ isort fixLe e.fixup, FixOK f = true :=
-    fun f hf => h.fixes f ((mem_isort _ _ _).mp hf)
-  have hfid : ((isort fixLe e.fixup).map (·.id)).Nodup :=
-    ((isort_perm fixLe e.fixup).map (·.id)).nodup_iff.mpr h.fixIds
-  have hfv := varsDistinct_isort h.fixVars
-  have hfold : foldE (entStep w) {} (entKids mb w groups e) =
-      .ok { id := e.id, solids := e.solids.map (fun s => solidRT w s.hidden s),
-            keys := isort keyLe e.keys, outputs := e.outputs.map projOut,
-            fixup := isort fixLe e.fixup,
-            groupIds := if w then [] else isort intLe e.groups,
-            visIds := if w then [] else isort intLe e.visIds,
-            visShown := if w then true else e.visShown, visAuto := if w then true else e.visAuto,
-            logicalPos := if w then [] else e.logicalPos, comments := e.comments, color := e.color,
-            groups := if w then groups else [] } := by
-    unfold entKids
-    rw [hn]
-    simp only [foldE, entStep_id]
-    rw [foldE_append, foldE_keys w _ _ hk hkd']
-    simp only []
-    rw [foldE_append, foldE_fixes w _ _ hf]
-    simp only []
-    rw [foldE_append, foldE_solids mb w _ _ h.solids]
-    simp only []
-    rw [foldE_append]
-    have hconn : foldE (entStep w)
-        { id := Int.ofNat n, keys := [] ++ isort keyLe e.keys, fixup := [] ++ isort fixLe e.fixup,
-          solids := [] ++ e.solids.map (fun s => solidRT w s.hidden s) }
-        (if e.outputs.isEmpty then [] else [kBlock "connections" (e.outputs.map exportOut)]) =
-        .ok { id := Int.ofNat n, keys := [] ++ isort keyLe e.keys, fixup := [] ++ isort fixLe e.fixup,
-              solids := [] ++ e.solids.map (fun s => solidRT w s.hidden s),
-              outputs := e.outputs.map projOut } := by
-      cases ho : e.outputs with
-      | nil => simp [foldE]
-      | cons o os =>
-        simp only [List.isEmpty_cons, Bool.false_eq_true, if_false, foldE]
-        rw [entStep_connections w _ (o :: os) (by rw [← ho]; exact h.outs)]
-        simp
-    rw [hconn]
-    simp only []
-    rw [foldE_append]
-    cases w with
-    | true =>
-      simp only [if_true]
-      rw [foldE_groups _ _ hg]
-      simp only [foldE, entStep_editor]
-      rw [foldE_entEditor true _ e h.color rfl rfl rfl rfl rfl rfl]
-      simp
-    | false =>
-      simp only [Bool.false_eq_true, if_false, foldE, entStep_editor]
-      rw [foldE_entEditor false _ e h.color rfl rfl rfl rfl rfl rfl]
-      simp
-  simp only [entBlock, kBlock, parseEnt]
-  rw [hfold]
-  simp only [entOfSt, entRT]
-  have e1 := foldl_entSetKey [] (isort keyLe e.keys) (by simpa using hkd)
-  simp only [List.nil_append] at e1
-  rw [e1, fixInit_id _ hfid hfv]
-
-
-
-
-/-! ### `Entity.__setitem__` on the key list -/
-
-theorem go_map_keys (k v : Str) (l : List (Str × Str)) :
-    (entSetKey.go k v l).map (fun kv => lower kv.1) = l.map (fun kv => lower kv.1) := by
-  induction l with
-  | nil => rfl
-  | cons a r ih =>
-    simp only [entSetKey.go]
-    split
-    · simp
-    · simp [ih]
-
-theorem keysDistinct_iff (l : List (Str × Str)) :
-    KeysDistinct l ↔ (l.map (fun kv => lower kv.1)).Pairwise (· ≠ ·) := by
-  simp [KeysDistinct, List.pairwise_map]
-
-theorem keysDistinct_entSetKey (ks : List (Str × Str)) (k v : Str) (h : KeysDistinct ks) :
-    KeysDistinct (entSetKey ks k v) := by
-  unfold entSetKey
-  split
-  · rw [keysDistinct_iff, go_map_keys, ← keysDistinct_iff]; exact h
-  · rename_i hno
-    simp only [List.any_eq_true, beq_iff_eq, not_exists, not_and] at hno
-    simp only [KeysDistinct, List.pairwise_append, List.pairwise_cons, List.mem_singleton]
-    refine ⟨h, by simp, ?_⟩
-    intro a ha b hb
-    subst hb
-    exact hno a ha
-
-theorem go_mem (k v : Str) (l : List (Str × Str)) :
-    ∀ kv ∈ entSetKey.go k v l, kv ∈ l ∨ (lower kv.1 = lower k ∧ kv.2 = v) := by
-  induction l with
-  | nil => intro kv h; simp [entSetKey.go] at h
-  | cons a r ih =>
-    intro kv h
-    simp only [entSetKey.go] at h
-    split at h
-    · rename_i heq
-      simp only [List.mem_cons] at h
-      rcases h with rfl | h
-      · right; exact ⟨by simpa using heq, rfl⟩
-      · left; simp [h]
-    · simp only [List.mem_cons] at h
-      rcases h with rfl | h
-      · left; simp
-      · rcases ih kv h with h' | h'
-        · left; simp [h']
-        · right; exact h'
-
-theorem entSetKey_mem (ks : List (Str × Str)) (k v : Str) :
-    ∀ kv ∈ entSetKey ks k v, kv ∈ ks ∨ (lower kv.1 = lower k ∧ kv.2 = v) := by
-  intro kv h
-  unfold entSetKey at h
-  split at h
-  · exact go_mem k v ks kv h
-  · simp only [List.mem_append, List.mem_singleton] at h
-    rcases h with h | rfl
-    · left; exact h
-    · right; exact ⟨rfl, rfl⟩
-
-theorem go_has (k v : Str) (l : List (Str × Str)) (h : l.any (fun kv => lower kv.1 == lower k) = true) :
-    ∃ kv ∈ entSetKey.go k v l, lower kv.1 = lower k ∧ kv.2 = v := by
-  induction l with
-  | nil => simp at h
-  | cons a r ih =>
-    simp only [entSetKey.go]
-    split
-    · rename_i heq
-      exact ⟨(a.1, v), by simp, by simpa using heq, rfl⟩
-    · rename_i hne
-      simp only [List.any_cons, Bool.or_eq_true] at h
-      rcases h with h | h
-      · exact absurd h hne
-      · obtain ⟨kv, hm, hp⟩ := ih h
-        exact ⟨kv, by simp [hm], hp⟩
-
-theorem entSetKey_has (ks : List (Str × Str)) (k v : Str) :
-    ∃ kv ∈ entSetKey ks k v, lower kv.1 = lower k ∧ kv.2 = v := by
-  unfold entSetKey
-  split
-  · rename_i h; exact go_has k v ks h
-  · exact ⟨(k, v), by simp, rfl, rfl⟩
-
-theorem go_idem (k v : Str) (l : List (Str × Str)) (hd : KeysDistinct l)
-    (hm : ∃ kv ∈ l, lower kv.1 = lower k ∧ kv.2 = v) : entSetKey.go k v l = l := by
-  induction l with
-  | nil => rfl
-  | cons a r ih =>
-    simp only [KeysDistinct, List.pairwise_cons] at hd
-    obtain ⟨kv, hmem, hk, hv⟩ := hm
-    simp only [entSetKey.go]
-    split
-    · rename_i heq
-      have heq' : lower a.1 = lower k := by simpa using heq
-      simp only [List.mem_cons] at hmem
-      rcases hmem with rfl | hmem
-      · cases kv; simp_all
-      · exact absurd (heq'.trans hk.symm) (hd.1 kv hmem)
-    · rename_i hne
-      have hne' : lower a.1 ≠ lower k := by simpa using hne
-      simp only [List.mem_cons] at hmem
-      rcases hmem with rfl | hmem
-      · exact absurd hk hne'
-      · rw [ih hd.2 ⟨kv, hmem, hk, hv⟩]
-
-theorem entSetKey_idem (l : List (Str × Str)) (k v : Str) (hd : KeysDistinct l)
-    (hm : ∃ kv ∈ l, lower kv.1 = lower k ∧ kv.2 = v) : entSetKey l k v = l := by
-  unfold entSetKey
-  have : l.any (fun kv => lower kv.1 == lower k) = true := by
-    obtain ⟨kv, hmem, hk, _⟩ := hm
-    simp only [List.any_eq_true, beq_iff_eq]
-    exact ⟨kv, hmem, hk⟩
-  rw [this]
-  simp only [if_true]
-  exact go_idem k v l hd hm
-
-
-
-
-/-! ### Strata viewports -/
-
-def ViewOK : View → Bool
-  | .v2 a u v z => decide (a < 3) && TokOK u && TokOK v && TokOK z && !isBig u && !isBig v
-  | .v3 p a => V3OK p && V3OK a
-
-theorem tokOK_big1 : TokOK (lit "65536") = true := by decide
-theorem tokOK_big2 : TokOK (lit "-65536") = true := by decide
-
-theorem parseViewKids_export (title : String) (is0 : Bool) (d : Nat) (v : View) (h : ViewOK v = true) :
-    parseViewKids is0 d (exportView title v).kids = .ok v := by
-  cases v with
-  | v3 p a =>
-    simp only [ViewOK, Bool.and_eq_true] at h
-    simp only [exportView, kBlock, KV.kids]
-    have e1 : getBool "3d" is0 [kLeaf "3d" ['1'], kLeaf "position" (wrap '(' ')' p.str), kLeaf "angle" (wrap '[' ']' a.str)] = true := by
-      kv_simp; simp [show boolLookup ['1'] = some true by decide]
-    have e2 : getV3 "position" v3zero [kLeaf "3d" ['1'], kLeaf "position" (wrap '(' ')' p.str), kLeaf "angle" (wrap '[' ']' a.str)] = p := by
-      kv_simp; exact parseV3_wrap _ _ _ _ h.1 (by decide) (by decide) (by decide) (by decide)
-    have e3 : getLeaf "angle" [kLeaf "3d" ['1'], kLeaf "position" (wrap '(' ')' p.str), kLeaf "angle" (wrap '[' ']' a.str)] = some (wrap '[' ']' a.str) := by
-      kv_simp
-    simp only [parseViewKids, e1, e2, e3, if_true, Option.getD_some]
-    rw [parseV3_wrap _ _ _ _ h.2 (by decide) (by decide) (by decide) (by decide)]
-  | v2 ax u w z =>
-    simp only [ViewOK, Bool.and_eq_true, decide_eq_true_eq, Bool.not_eq_true'] at h
-    obtain ⟨⟨⟨⟨⟨hax, hu⟩, hw⟩, hz⟩, hbu⟩, hbw⟩ := h
-    have hzu : isZeroTok (lit "65536") = false := by decide
-    have hzn : isZeroTok (lit "-65536") = false := by decide
-    have hb1 : isBig (lit "65536") = true := by decide
-    have hb2 : isBig (lit "-65536") = true := by decide
-    have key : ∀ (pos : V3) (hp : V3OK pos = true),
-        parseViewKids is0 d [kLeaf "3d" ['0'], kLeaf "position" (wrap '(' ')' pos.str), kLeaf "zoom" z]
-          = (if pos.toks.all isZeroTok then .ok (.v2 d ['0'] ['0'] z) else viewFromVector pos z) := by
-      intro pos hp
-      have e1 : getBool "3d" is0 [kLeaf "3d" ['0'], kLeaf "position" (wrap '(' ')' pos.str), kLeaf "zoom" z] = false := by
-        kv_simp; simp [show boolLookup ['0'] = some false by decide]
-      have e2 : getV3 "position" v3zero [kLeaf "3d" ['0'], kLeaf "position" (wrap '(' ')' pos.str), kLeaf "zoom" z] = pos := by
-        kv_simp; exact parseV3_wrap _ _ _ _ hp (by decide) (by decide) (by decide) (by decide)
-      have e3 : getFloat "zoom" ['1'] [kLeaf "3d" ['0'], kLeaf "position" (wrap '(' ')' pos.str), kLeaf "zoom" z] = z := by
-        kv_simp; simp [tok_isNum hz]
-      simp only [parseViewKids, e1, e2, e3, Bool.false_eq_true, if_false]
-    have ax3 : ax = 0 ∨ ax = 1 ∨ ax = 2 := by omega
-    rcases ax3 with rfl | rfl | rfl
-    · have hp : V3OK ⟨lit "65536", u, w⟩ = true := by simp [V3OK, tokOK_big1, hu, hw]
-      have := key ⟨lit "65536", u, w⟩ hp
-      simp only [V3.str, V3.toks] at this
-      simp only [exportView, kBlock, KV.kids, beq_self_eq_true, if_true, List.cons_append, List.nil_append]
-      rw [this]
-      simp [hzu, viewFromVector, pickAxis, hb1, hbu, hbw, mkView2]
-    · have hp : V3OK ⟨u, lit "-65536", w⟩ = true := by simp [V3OK, tokOK_big2, hu, hw]
-      have := key ⟨u, lit "-65536", w⟩ hp
-      simp only [V3.str, V3.toks] at this
-      simp only [exportView, kBlock, KV.kids, Nat.reduceBEq, Bool.false_eq_true, if_false, beq_self_eq_true, if_true,
-        List.cons_append, List.nil_append]
-      rw [this]
-      simp [hzn, viewFromVector, pickAxis, hb2, hbu, hbw, mkView2]
-    · have hp : V3OK ⟨u, w, lit "65536"⟩ = true := by simp [V3OK, tokOK_big1, hu, hw]
-      have := key ⟨u, w, lit "65536"⟩ hp
-      simp only [V3.str, V3.toks] at this
-      simp only [exportView, kBlock, KV.kids, Nat.reduceBEq, Bool.false_eq_true, if_false, beq_self_eq_true, if_true,
-        List.cons_append, List.nil_append]
-      rw [this]
-      simp [hzu, viewFromVector, pickAxis, hb1, hbu, hbw, mkView2]
-
-theorem exportView_block (title : String) (v : View) :
-    exportView title v = KV.block title.toList (exportView title v).kids := by
-  cases v <;> simp [exportView, kBlock, KV.kids]
-
-theorem parseViews_export (pre : List KV) (a b c d : View)
-    (ha : ViewOK a = true) (hb : ViewOK b = true) (hc : ViewOK c = true) (hd : ViewOK d = true) :
-    parseViews (pre ++ [kBlock "views" (exportViews viewTitles [a, b, c, d])]) = .ok (some [a, b, c, d]) := by
-  have hfk : findKey "views" (pre ++ [kBlock "views" (exportViews viewTitles [a, b, c, d])])
-      = some (kBlock "views" (exportViews viewTitles [a, b, c, d])) := by
-    unfold findKey
-    rw [findLast_append]
-    simp [findLast, kBlock, named, KV.fname, KV.name, lower]
-  unfold parseViews
-  rw [hfk]
-  simp only [kBlock, blockKids, exportViews, viewTitles]
-  have s0 : viewSub "v0" [exportView "v0" a, exportView "v1" b, exportView "v2" c, exportView "v3" d] = .ok (exportView "v0" a).kids := by
-    rw [exportView_block "v0" a, exportView_block "v1" b, exportView_block "v2" c, exportView_block "v3" d]
-    simp [viewSub, findKey, findLast, named, KV.fname, KV.name, lower, blockKids, KV.kids]
-  have s1 : viewSub "v1" [exportView "v0" a, exportView "v1" b, exportView "v2" c, exportView "v3" d] = .ok (exportView "v1" b).kids := by
-    rw [exportView_block "v0" a, exportView_block "v1" b, exportView_block "v2" c, exportView_block "v3" d]
-    simp [viewSub, findKey, findLast, named, KV.fname, KV.name, lower, blockKids, KV.kids]
-  have s2 : viewSub "v2" [exportView "v0" a, exportView "v1" b, exportView "v2" c, exportView "v3" d] = .ok (exportView "v2" c).kids := by
-    rw [exportView_block "v0" a, exportView_block "v1" b, exportView_block "v2" c, exportView_block "v3" d]
-    simp [viewSub, findKey, findLast, named, KV.fname, KV.name, lower, blockKids, KV.kids]
-  have s3 : viewSub "v3" [exportView "v0" a, exportView "v1" b, exportView "v2" c, exportView "v3" d] = .ok (exportView "v3" d).kids := by
-    rw [exportView_block "v0" a, exportView_block "v1" b, exportView_block "v2" c, exportView_block "v3" d]
-    simp [viewSub, findKey, findLast, named, KV.fname, KV.name, lower, blockKids, KV.kids]
-  simp only [parseView, s0, s1, s2, s3, parseViewKids_export _ _ _ _ ha, parseViewKids_export _ _ _ _ hb,
-    parseViewKids_export _ _ _ _ hc, parseViewKids_export _ _ _ _ hd]
-
-
-
-
-/-! ### the root level -/
-
-/-- the exported entity blocks: blocks named `entity` or `hidden` -/
-def EntsShape (ents : List KV) : Prop :=
-  ∀ x ∈ ents, x.isBlock = true ∧ (x.fname = lit "entity" ∨ x.fname = lit "hidden")
-
-theorem ents_not_named (key : String) (ents : List KV) (h : EntsShape ents)
-    (h1 : lower key.toList ≠ lit "entity") (h2 : lower key.toList ≠ lit "hidden") :
-    ∀ x ∈ ents, named key x = false := by
-  intro x hx
-  simp only [named, beq_eq_false_iff_ne, ne_eq]
-  rcases (h x hx).2 with e | e <;> rw [e] <;> intro c
-  · exact h1 c.symm
-  · exact h2 c.symm
-
-theorem findLast_mid {α} (p : α → Bool) (pre ents post : List α) (he : ∀ x ∈ ents, p x = false) :
-    findLast p (pre ++ (ents ++ post)) = match findLast p post with
-      | some r => some r
-      | none => findLast p pre := by
-  rw [findLast_append, findLast_append_left_none p ents post he]
-  all_goals (cases findLast p post <;> rfl)
-
-section
-variable (minimal hasQuick : Bool) (verK visK viewK wk : List KV) (ents camK cordK quickK : List KV)
-
-theorem rootOf_assoc :
-    rootOf minimal hasQuick verK visK viewK (kBlock "world" wk) ents camK cordK quickK =
-      ([kBlock "versioninfo" verK, kBlock "visgroups" visK] ++
-        ((if minimal then [] else [kBlock "viewsettings" viewK]) ++ [kBlock "world" wk])) ++
-      (ents ++ ((if minimal then [] else [kBlock "cameras" camK, kBlock "cordons" cordK]) ++
-        (if hasQuick then [kBlock "quickhide" quickK] else []))) := by
-  simp [rootOf]
-
-macro "root_block" k:term:max hs:term:max : tactic => `(tactic| (
-  unfold getBlock
-  rw [rootOf_assoc, findLast_mid _ _ _ _ (by
-    intro x hx
-    have := ents_not_named $k _ $hs (by decide) (by decide) x hx
-    simp [this])]
-  cases minimal <;> cases hasQuick <;>
-    simp [findLast, kBlock, named, KV.fname, KV.name, KV.isBlock, KV.kids, lower]))
-
-theorem root_versioninfo (hs : EntsShape ents) :
-    getBlock "versioninfo" (rootOf minimal hasQuick verK visK viewK (kBlock "world" wk) ents camK cordK quickK) = verK := by
-  root_block "versioninfo" hs
-
-theorem root_viewsettings (hs : EntsShape ents) :
-    getBlock "viewsettings" (rootOf minimal hasQuick verK visK viewK (kBlock "world" wk) ents camK cordK quickK)
-      = if minimal then [] else viewK := by
-  root_block "viewsettings" hs
-
-theorem root_cameras (hs : EntsShape ents) :
-    getBlock "cameras" (rootOf minimal hasQuick verK visK viewK (kBlock "world" wk) ents camK cordK quickK)
-      = if minimal then [] else camK := by
-  root_block "cameras" hs
-
-theorem root_cordons (hs : EntsShape ents) :
-    getBlock "cordons" (rootOf minimal hasQuick verK visK viewK (kBlock "world" wk) ents camK cordK quickK)
-      = if minimal then [] else cordK := by
-  root_block "cordons" hs
-
-theorem root_quickhide (hs : EntsShape ents) :
-    getBlock "quickhide" (rootOf minimal hasQuick verK visK viewK (kBlock "world" wk) ents camK cordK quickK)
-      = if hasQuick then quickK else [] := by
-  root_block "quickhide" hs
-
-theorem root_world (hs : EntsShape ents) :
-    worldKv (rootOf minimal hasQuick verK visK viewK (kBlock "world" wk) ents camK cordK quickK) = kBlock "world" wk := by
-  unfold worldKv
-  rw [rootOf_assoc, findLast_mid _ _ _ _ (by
-    intro x hx
-    have := ents_not_named "world" _ hs (by decide) (by decide) x hx
-    simp [this])]
-  cases minimal <;> cases hasQuick <;>
-    simp [findLast, kBlock, named, KV.fname, KV.name, KV.isBlock, lower]
-
-theorem filter_none {α} (p : α → Bool) (l : List α) (h : ∀ x ∈ l, p x = false) : l.filter p = [] := by
-  induction l with
-  | nil => rfl
-  | cons a r ih => simp [h a (by simp), ih (fun x hx => h x (by simp [hx]))]
-
-theorem root_visgroups (hs : EntsShape ents) :
-    allVisgroups (rootOf minimal hasQuick verK visK viewK (kBlock "world" wk) ents camK cordK quickK)
-      = visK.filter (named "visgroup") := by
-  unfold allVisgroups
-  rw [rootOf_assoc]
-  simp only [List.filter_append]
-  rw [filter_none _ ents (ents_not_named "visgroups" _ hs (by decide) (by decide))]
-  cases minimal <;> cases hasQuick <;>
-    simp [kBlock, named, KV.fname, KV.name, KV.kids, lower]
-
-theorem parseRootEnts_skip (pre rest : List KV)
-    (h : ∀ x ∈ pre, named "entity" x = false ∧ named "hidden" x = false) :
-    parseRootEnts (pre ++ rest) = parseRootEnts rest := by
-  induction pre with
-  | nil => rfl
-  | cons k ks ih =>
-    have hk := h k (by simp)
-    simp only [List.cons_append, parseRootEnts, hk.1, hk.2, Bool.false_eq_true, if_false]
-    exact ih (fun x hx => h x (by simp [hx]))
-
-theorem parseRootEnts_append_nil (l post : List KV)
-    (h : ∀ x ∈ post, named "entity" x = false ∧ named "hidden" x = false) :
-    parseRootEnts (l ++ post) = parseRootEnts l := by
-  induction l with
-  | nil =>
-    have := parseRootEnts_skip post [] h
-    simpa [parseRootEnts] using this
-  | cons k ks ih =>
-    simp only [List.cons_append, parseRootEnts, ih]
-
-theorem root_ents :
-    parseRootEnts (rootOf minimal hasQuick verK visK viewK (kBlock "world" wk) ents camK cordK quickK)
-      = parseRootEnts ents := by
-  rw [rootOf_assoc, parseRootEnts_skip _ _ (by
-    cases minimal <;> simp [kBlock, named, KV.fname, KV.name, lower])]
-  exact parseRootEnts_append_nil _ _ (by
-    cases minimal <;> cases hasQuick <;> simp [kBlock, named, KV.fname, KV.name, lower])
-
-end
-
-
-
-
-theorem named_visgroup_exportVis (v : Vis) : named "visgroup" (exportVis v) = true := by
-  cases v with
-  | mk n i c ch => simp [exportVis, exportVisAux, named, KV.fname, KV.name, lit, lower]
-
-theorem visListOK_mem {vs : List Vis} (h : VisListOK vs = true) : ∀ v ∈ vs, VisOK v = true := by
-  induction vs with
-  | nil => intro v hv; simp at hv
-  | cons a r ih =>
-    simp only [VisListOK, Bool.and_eq_true] at h
-    intro v hv
-    simp only [List.mem_cons] at hv
-    rcases hv with rfl | hv
-    · exact h.1
-    · exact ih h.2 v hv
-
-theorem parseVisAll_export (vs : List Vis) (h : VisListOK vs = true) :
-    parseVisAll ((vs.map exportVis).filter (named "visgroup")) = .ok vs := by
-  rw [filter_map_all _ _ _ (fun v _ => named_visgroup_exportVis v)]
-  have hm := visListOK_mem h
-  clear h
-  induction vs with
-  | nil => rfl
-  | cons v r ih =>
-    simp only [List.map_cons, parseVisAll]
-    have hv : parseVis (exportVis v) = .ok v := parseVis_export v (hm v (by simp))
-    rw [hv]
-    have := ih (fun x hx => hm x (by simp [hx]))
-    rw [this]
-
-theorem parseCams_export (a : Int) (cams : List Cam) (h : ∀ c ∈ cams, CamOK c = true) :
-    parseCams (kInt "activecamera" a :: cams.map exportCam) = .ok cams := by
-  have h0 : named "activecamera" (kInt "activecamera" a) = true := by kv_simp
-  simp only [parseCams, h0, if_true]
-  induction cams with
-  | nil => rfl
-  | cons c r ih =>
-    have hn : named "activecamera" (exportCam c) = false := by
-      simp [exportCam, kBlock, named, KV.fname, KV.name, lower]
-    simp only [List.map_cons, parseCams, hn, Bool.false_eq_true, if_false,
-      parseCam_export c (h c (by simp)), ih (fun x hx => h x (by simp [hx]))]
-
-theorem parseCordons_export (b : Bool) (cs : List Cordon) (h : ∀ c ∈ cs, CordonOK c = true) :
-    parseCordons (kBool "active" b :: cs.map exportCordon) = .ok cs := by
-  have h0 : named "cordon" (kBool "active" b) = false := by kv_simp
-  simp only [parseCordons, h0, Bool.false_eq_true, if_false]
-  induction cs with
-  | nil => rfl
-  | cons c r ih =>
-    have hn : named "cordon" (exportCordon c) = true := by
-      simp [exportCordon, kBlock, named, KV.fname, KV.name, lower]
-    simp only [List.map_cons, parseCordons, hn, if_true,
-      parseCordon_export c (h c (by simp)), ih (fun x hx => h x (by simp [hx]))]
-
-/-- v1 well-formedness of the entity list element (not worldspawn) -/
-theorem exportEnt_shape (mb : Bool) (es : List Ent) : EntsShape (es.map (exportEnt mb false [])) := by
-  intro x hx
-  simp only [List.mem_map] at hx
-  obtain ⟨e, _, rfl⟩ := hx
-  cases hh : e.hidden <;>
-    simp [exportEnt, maybeHidden, hh, entBlock, kBlock, KV.isBlock, KV.fname, KV.name, lower, lit]
-
-theorem parseRootEnts_export (mb : Bool) (es : List Ent) (h : ∀ e ∈ es, EntOK1 e) :
-    parseRootEnts (es.map (exportEnt mb false [])) = .ok (es.map (fun e => entRT false e.hidden e)) := by
-  induction es with
-  | nil => rfl
-  | cons e r ih =>
-    have he := h e (by simp)
-    have ihr := ih (fun x hx => h x (by simp [hx]))
-    cases hh : e.hidden with
-    | false =>
-      have e1 : exportEnt mb false [] e = entBlock mb false [] e := by simp [exportEnt, maybeHidden, hh]
-      have hn : named "entity" (entBlock mb false [] e) = true := by
-        simp [entBlock, kBlock, named, KV.fname, KV.name, lower]
-      have hp := parseEnt_block mb false false [] e he (by simp)
-      simp only [List.map_cons, e1, parseRootEnts, hn, if_true, hp, ihr]
-      simp [hh]
-    | true =>
-      have e1 : exportEnt mb false [] e = kBlock "hidden" [entBlock mb false [] e] := by
-        simp [exportEnt, maybeHidden, hh]
-      have hn1 : named "entity" (kBlock "hidden" [entBlock mb false [] e]) = false := by
-        simp [kBlock, named, KV.fname, KV.name, lower]
-      have hn2 : named "hidden" (kBlock "hidden" [entBlock mb false [] e]) = true := by
-        simp [kBlock, named, KV.fname, KV.name, lower]
-      have hp := parseEnt_block mb false true [] e he (by simp)
-      simp only [List.map_cons, e1, parseRootEnts, hn1, hn2, Bool.false_eq_true, if_false, if_true]
-      simp only [kBlock, blockKids, parseHiddenEnts, hp, ihr]
-      simp [hh]
-
-
-
-
-def ViewsOK : Option (List View) → Prop
-  | none => True
-  | some vs => ∃ a b c d, vs = [a, b, c, d] ∧ ViewOK a = true ∧ ViewOK b = true ∧ ViewOK c = true ∧ ViewOK d = true
-
-def InstVisOK : Option Int → Prop
-  | none => True
-  | some v => v = 0 ∨ v = 1 ∨ v = 2
-
-/-- v1 well-formedness of a map: what the tree-level round trip needs (faces without
-displacement / Strata point data; see `EntOK1`). -/
-structure MapOK1 (m : VMap) : Prop where
-  format : m.formatVer = 100
-  instVis : InstVisOK m.instVis
-  views : ViewsOK m.views
-  vis : VisListOK m.vis = true
-  spawn : EntOK1 m.spawn
-  spawnVisible : m.spawn.hidden = false
-  groups : ∀ g ∈ m.groups, GroupOK g = true
-  ents : ∀ e ∈ m.ents, EntOK1 e
-  cams : ∀ c ∈ m.cams, CamOK c = true
-  cordons : ∀ c ∈ m.cordons, CordonOK c = true
-
-/-- the view-settings part of a re-parsed map -/
-structure ViewPart where
-  snap : Bool
-  grid : Bool
-  logic : Bool
-  spacing : Int
-  grid3d : Bool
-  instVis : Option Int
-  views : Option (List View)
-
-theorem viewKids_parse (m : VMap) (hi : InstVisOK m.instVis) (hv : ViewsOK m.views) :
-    getBool "bSnapToGrid" true (viewKids m) = m.snap ∧
-    getBool "bShowGrid" true (viewKids m) = m.grid ∧
-    getBool "bShowLogicalGrid" false (viewKids m) = m.logic ∧
-    getInt "nGridSpacing" 64 (viewKids m) = m.spacing ∧
-    getBool "bShow3DGrid" false (viewKids m) = m.grid3d ∧
-    parseInstVis (viewKids m) = m.instVis ∧
-    parseViews (viewKids m) = .ok m.views := by
-  unfold viewKids
-  cases hiv : m.instVis with
-  | none =>
-    cases hvv : m.views with
-    | none =>
-      refine ⟨?_, ?_, ?_, ?_, ?_, ?_, ?_⟩ <;>
-        simp [getBool, getInt, getLeaf, findLast, findKey, parseInstVis, parseViews, named, KV.fname, KV.name, kLeaf, kBool,
-          kInt, KV.isBlock, lower, boolLookup_boolStr, parseInt_showInt]
-    | some vs =>
-      rw [hvv] at hv
-      obtain ⟨a, b, c, d, rfl, ha, hb, hc, hd⟩ := hv
-      refine ⟨?_, ?_, ?_, ?_, ?_, ?_, ?_⟩
-      · simp [getBool, getLeaf, findLast, named, KV.fname, KV.name, kLeaf, kBool, kInt, kBlock, KV.isBlock, lower, boolLookup_boolStr]
-      · simp [getBool, getLeaf, findLast, named, KV.fname, KV.name, kLeaf, kBool, kInt, kBlock, KV.isBlock, lower, boolLookup_boolStr]
-      · simp [getBool, getLeaf, findLast, named, KV.fname, KV.name, kLeaf, kBool, kInt, kBlock, KV.isBlock, lower, boolLookup_boolStr]
-      · simp [getInt, getLeaf, findLast, named, KV.fname, KV.name, kLeaf, kBool, kInt, kBlock, KV.isBlock, lower, parseInt_showInt]
-      · simp [getBool, getLeaf, findLast, named, KV.fname, KV.name, kLeaf, kBool, kInt, kBlock, KV.isBlock, lower, boolLookup_boolStr]
-      · simp [parseInstVis, getLeaf, findLast, named, KV.fname, KV.name, kLeaf, kBool, kInt, kBlock, KV.isBlock, lower]
-      · simp only [List.nil_append]
-        exact parseViews_export _ a b c d ha hb hc hd
-  | some iv =>
-    rw [hiv] at hi
-    have hpi : parseInstVis ([kBool "bSnapToGrid" m.snap, kBool "bShowGrid" m.grid, kBool "bShowLogicalGrid" m.logic,
-        kInt "nGridSpacing" m.spacing, kBool "bShow3DGrid" m.grid3d] ++ [kInt "nInstanceVisibility" iv]) = some iv := by
-      simp only [parseInstVis]
-      have : getLeaf "nInstanceVisibility" ([kBool "bSnapToGrid" m.snap, kBool "bShowGrid" m.grid, kBool "bShowLogicalGrid" m.logic,
-        kInt "nGridSpacing" m.spacing, kBool "bShow3DGrid" m.grid3d] ++ [kInt "nInstanceVisibility" iv]) = some (showInt iv) := by
-        simp [getLeaf, findLast, named, KV.fname, KV.name, kLeaf, kBool, kInt, KV.isBlock, lower]
-      rw [this]
-      simp only [parseInt_showInt]
-      rcases hi with rfl | rfl | rfl <;> rfl
-    cases hvv : m.views with
-    | none =>
-      refine ⟨?_, ?_, ?_, ?_, ?_, ?_, ?_⟩
-      · simp [getBool, getLeaf, findLast, named, KV.fname, KV.name, kLeaf, kBool, kInt, kBlock, KV.isBlock, lower, boolLookup_boolStr]
-      · simp [getBool, getLeaf, findLast, named, KV.fname, KV.name, kLeaf, kBool, kInt, kBlock, KV.isBlock, lower, boolLookup_boolStr]
-      · simp [getBool, getLeaf, findLast, named, KV.fname, KV.name, kLeaf, kBool, kInt, kBlock, KV.isBlock, lower, boolLookup_boolStr]
-      · simp [getInt, getLeaf, findLast, named, KV.fname, KV.name, kLeaf, kBool, kInt, kBlock, KV.isBlock, lower, parseInt_showInt]
-      · simp [getBool, getLeaf, findLast, named, KV.fname, KV.name, kLeaf, kBool, kInt, kBlock, KV.isBlock, lower, boolLookup_boolStr]
-      · simpa using hpi
-      · simp [parseViews, findKey, findLast, named, KV.fname, KV.name, kLeaf, kBool, kInt, lower]
-    | some vs =>
-      rw [hvv] at hv
-      obtain ⟨a, b, c, d, rfl, ha, hb, hc, hd⟩ := hv
-      refine ⟨?_, ?_, ?_, ?_, ?_, ?_, ?_⟩
-      · simp [getBool, getLeaf, findLast, named, KV.fname, KV.name, kLeaf, kBool, kInt, kBlock, KV.isBlock, lower, boolLookup_boolStr]
-      · simp [getBool, getLeaf, findLast, named, KV.fname, KV.name, kLeaf, kBool, kInt, kBlock, KV.isBlock, lower, boolLookup_boolStr]
-      · simp [getBool, getLeaf, findLast, named, KV.fname, KV.name, kLeaf, kBool, kInt, kBlock, KV.isBlock, lower, boolLookup_boolStr]
-      · simp [getInt, getLeaf, findLast, named, KV.fname, KV.name, kLeaf, kBool, kInt, kBlock, KV.isBlock, lower, parseInt_showInt]
-      · simp [getBool, getLeaf, findLast, named, KV.fname, KV.name, kLeaf, kBool, kInt, kBlock, KV.isBlock, lower, boolLookup_boolStr]
-      · have : getLeaf "nInstanceVisibility" ([kBool "bSnapToGrid" m.snap, kBool "bShowGrid" m.grid, kBool "bShowLogicalGrid" m.logic,
-            kInt "nGridSpacing" m.spacing, kBool "bShow3DGrid" m.grid3d] ++
-            ([kInt "nInstanceVisibility" iv] ++ [kBlock "views" (exportViews viewTitles [a, b, c, d])])) = some (showInt iv) := by
-          simp [getLeaf, findLast, named, KV.fname, KV.name, kLeaf, kBool, kInt, kBlock, KV.isBlock, lower]
-        simp only [parseInstVis, this, parseInt_showInt]
-        rcases hi with rfl | rfl | rfl <;> rfl
-      · rw [← List.append_assoc]
-        exact parseViews_export _ a b c d ha hb hc hd
-
-
-
-
-/-- the map `parseRaw` reads from `exportTree o m` (ids as written, before `assignIds`). -/
-def rawRT (o : ExportOpts) (m : VMap) : VMap :=
-  { hammerVer := m.hammerVer, hammerBuild := m.hammerBuild, mapVer := exportedVer o m, formatVer := 100,
-    prefab := m.prefab, vis := m.vis,
-    snap := if o.minimal then true else m.snap, grid := if o.minimal then true else m.grid,
-    logic := if o.minimal then false else m.logic, spacing := if o.minimal then 64 else m.spacing,
-    grid3d := if o.minimal then false else m.grid3d,
-    instVis := if o.minimal then none else m.instVis, views := if o.minimal then none else m.views,
-    spawn := entRT true false (spawnForExport o m), groups := m.groups,
-    ents := m.ents.map (fun e => entRT false e.hidden e),
-    activeCam := if o.minimal then -1 else (if m.cams.isEmpty then -1 else m.activeCam),
-    cams := if o.minimal then [] else m.cams,
-    cordonOn := if o.minimal then false else (if m.cordons.isEmpty then false else m.cordonOn),
-    cordons := if o.minimal then [] else m.cordons,
-    quickhide := if m.quickhide > 0 then m.quickhide else 0 }
-
-theorem keyNameOK_mapversion : KeyNameOK (lit "mapversion") = true := by decide
-theorem keyNameOK_classname : KeyNameOK (lit "classname") = true := by decide
-
-theorem entOK1_spawnForExport (o : ExportOpts) (m : VMap) (h : EntOK1 m.spawn) : EntOK1 (spawnForExport o m) := by
-  refine { h with keyNames := ?_, keysDistinct := ?_ }
-  · intro kv hkv
-    simp only [spawnForExport] at hkv
-    rcases entSetKey_mem _ _ _ kv hkv with h1 | ⟨h1, _⟩
-    · rcases entSetKey_mem _ _ _ kv h1 with h2 | ⟨h2, _⟩
-      · exact h.keyNames kv h2
-      · simp only [KeyNameOK, h2]; decide
-    · simp only [KeyNameOK, h1]; decide
-  · simp only [spawnForExport]
-    exact keysDistinct_entSetKey _ _ _ (keysDistinct_entSetKey _ _ _ h.keysDistinct)
-
-theorem spawn_classname_idem (o : ExportOpts) (m : VMap) (h : EntOK1 m.spawn) :
-    entSetKey (isort keyLe (spawnForExport o m).keys) (lit "classname") (lit "worldspawn")
-      = isort keyLe (spawnForExport o m).keys := by
-  apply entSetKey_idem
-  · exact keysDistinct_isort (entOK1_spawnForExport o m h).keysDistinct
-  · obtain ⟨kv, hm, hk⟩ := entSetKey_has
-      (entSetKey m.spawn.keys (lit "mapversion") (showInt (exportedVer o m))) (lit "classname") (lit "worldspawn")
-    exact ⟨kv, (mem_isort _ _ _).mpr (by simpa [spawnForExport] using hm), hk⟩
-
-theorem parseRaw_export (o : ExportOpts) (m : VMap) (h : MapOK1 m) :
-    parseRaw (exportTree o m) = .ok (rawRT o m) := by
-  have hshape := exportEnt_shape o.multiblend m.ents
-  have hsp := entOK1_spawnForExport o m h.spawn
-  have hworld : exportEnt o.multiblend true m.groups (spawnForExport o m)
-      = kBlock "world" (entKids o.multiblend true m.groups (spawnForExport o m)) := by
-    have : (spawnForExport o m).hidden = false := h.spawnVisible
-    simp [exportEnt, maybeHidden, this, entBlock]
-  obtain ⟨v1, v2, v3, v4, v5, v6, v7⟩ := viewKids_parse m h.instVis h.views
-  unfold parseRaw exportTree
-  rw [hworld]
-  simp only [root_versioninfo _ _ _ _ _ _ _ _ _ _ hshape, root_viewsettings _ _ _ _ _ _ _ _ _ _ hshape,
-    root_cameras _ _ _ _ _ _ _ _ _ _ hshape, root_cordons _ _ _ _ _ _ _ _ _ _ hshape,
-    root_quickhide _ _ _ _ _ _ _ _ _ _ hshape, root_world _ _ _ _ _ _ _ _ _ _ hshape,
-    root_visgroups _ _ _ _ _ _ _ _ _ _ hshape, root_ents]
-  have hfv : getLeaf "formatversion" (verKids o m) = some (lit "100") := by
-    unfold verKids
-    rw [h.format]
-    kv_simp
-    decide
-  rw [hfv]
-  simp only [Option.getD_some, bne_self_eq_false, Bool.false_eq_true, if_false]
-  rw [parseVisAll_export m.vis h.vis]
-  have hw := parseEnt_block o.multiblend true false m.groups (spawnForExport o m) hsp h.groups
-  simp only [entBlock, if_true] at hw
-  have hents := parseRootEnts_export o.multiblend m.ents h.ents
-  have hv : getInt "editorversion" 400 (verKids o m) = m.hammerVer ∧
-      getInt "editorbuild" 5304 (verKids o m) = m.hammerBuild ∧
-      getInt "mapversion" 0 (verKids o m) = exportedVer o m ∧
-      getBool "prefab" false (verKids o m) = m.prefab := by
-    unfold verKids
-    refine ⟨?_, ?_, ?_, ?_⟩ <;>
-      simp [getInt, getBool, getLeaf, findLast, named, KV.fname, KV.name, kLeaf, kBool, kInt, KV.isBlock, lower,
-        boolLookup_boolStr, parseInt_showInt]
-  obtain ⟨hv1, hv2, hv3, hv4⟩ := hv
-  have hq : getInt "count" 0 (if decide (m.quickhide > 0) = true then [kInt "count" m.quickhide] else [])
-      = (if m.quickhide > 0 then m.quickhide else 0) := by
-    by_cases hq : m.quickhide > 0
-    · simp [hq, getInt, getLeaf, findLast, named, KV.fname, KV.name, kLeaf, kInt, KV.isBlock, lower, parseInt_showInt]
-    · simp [hq, getInt, getLeaf, findLast]
-  cases hmin : o.minimal with
-  | true =>
-    simp only [if_true]
-    have hpv : parseViews [] = .ok none := by simp [parseViews, findKey, findLast]
-    rw [hpv]
-    simp only [parseCams, parseCordons, hw, hents, hv1, hv2, hv3, hv4, hq]
-    simp [rawRT, hmin, getBool, getInt, getLeaf, findLast, parseInstVis, spawn_classname_idem o m h.spawn, entRT]
-  | false =>
-    simp only [Bool.false_eq_true, if_false]
-    rw [v7]
-    simp only []
-    have hcam : parseCams (camKids m) = .ok m.cams := parseCams_export _ _ h.cams
-    have hcord : parseCordons (cordonKids m) = .ok m.cordons := by
-      unfold cordonKids
-      cases hc : m.cordons with
-      | nil => simp [parseCordons, named, KV.fname, KV.name, kLeaf, lower]
-      | cons c r =>
-        simp only [List.isEmpty_cons, Bool.false_eq_true, if_false]
-        exact parseCordons_export _ _ (by rw [← hc]; exact h.cordons)
-    rw [hcam, hcord]
-    simp only [hw, hents, hv1, hv2, hv3, hv4, hq, v1, v2, v3, v4, v5, v6]
-    have hac : getInt "activecamera" (-1) (camKids m) = (if m.cams.isEmpty then -1 else m.activeCam) := by
-      unfold camKids getInt
-      have := getLeaf_append_blocks "activecamera" [kInt "activecamera" (if m.cams.isEmpty then -1 else m.activeCam)]
-        (m.cams.map exportCam) (by
-          intro k hk
-          simp only [List.mem_map] at hk
-          obtain ⟨c, _, rfl⟩ := hk
-          simp [exportCam, kBlock, KV.isBlock])
-      simp only [List.singleton_append] at this
-      rw [this]
-      kv_simp
-      simp [parseInt_showInt]
-    have hco : getBool "active" false (cordonKids m) = (if m.cordons.isEmpty then false else m.cordonOn) := by
-      unfold cordonKids getBool
-      cases hc : m.cordons with
-      | nil => simp [getLeaf, findLast, named, KV.fname, KV.name, kLeaf, KV.isBlock, lower]; decide
-      | cons c r =>
-        simp only [List.isEmpty_cons, Bool.false_eq_true, if_false]
-        have := getLeaf_append_blocks "active" [kBool "active" m.cordonOn] ((c :: r).map exportCordon) (by
-          intro k hk
-          simp only [List.mem_map] at hk
-          obtain ⟨c, _, rfl⟩ := hk
-          simp [exportCordon, kBlock, KV.isBlock])
-        simp only [List.singleton_append] at this
-        rw [this]
-        kv_simp
-        simp [boolLookup_boolStr]
-    rw [hac, hco]
-    simp [rawRT, hmin, spawn_classname_idem o m h.spawn, entRT]
-
-
-
-
-/-! ### id allocation with `preserve_ids = True` -/
-
-theorem get_preserve (m : IdMan) (d : Int) (h : d ≠ -1) : (m.get true d).1 = d := by
-  have : (d == -1) = false := by simpa using h
-  simp [IdMan.get, this]
-
-mutual
-def VisIdsOK : Vis → Bool
-  | .mk _ id _ children => decide (id ≠ -1) && VisListIdsOK children
-def VisListIdsOK : List Vis → Bool
-  | [] => true
-  | v :: vs => VisIdsOK v && VisListIdsOK vs
-end
-
-mutual
-theorem assignVis_preserve : (v : Vis) → (m : IdMan) → VisIdsOK v = true → (assignVisAux true v m).1 = v
-  | .mk name id color children, m, h => by
-    simp only [VisIdsOK, Bool.and_eq_true, decide_eq_true_eq] at h
-    simp only [assignVisAux]
-    rw [assignVisList_preserve children m h.2, get_preserve _ _ h.1]
-theorem assignVisList_preserve : (vs : List Vis) → (m : IdMan) → VisListIdsOK vs = true →
-    (assignVisAux.assignVisList true vs m).1 = vs
-  | [], _, _ => rfl
-  | v :: vs, m, h => by
-    simp only [VisListIdsOK, Bool.and_eq_true] at h
-    simp only [assignVisAux.assignVisList]
-    rw [assignVis_preserve v m h.1, assignVisList_preserve vs _ h.2]
-end
-
-theorem assignSides_preserve (ss : List Side) (m : IdMan) (h : ∀ s ∈ ss, s.id ≠ -1) :
-    (assignSides true ss m).1 = ss := by
-  induction ss generalizing m with
-  | nil => rfl
-  | cons s r ih =>
-    simp only [assignSides]
-    rw [get_preserve _ _ (h s (by simp)), ih _ (fun x hx => h x (by simp [hx]))]
-
-abbrev SolidIdsOK (s : Solid) : Prop := s.id ≠ -1 ∧ ∀ sd ∈ s.sides, sd.id ≠ -1
-
-theorem assignSolids_preserve (ss : List Solid) (st : Ids) (h : ∀ s ∈ ss, SolidIdsOK s) :
-    (assignSolids true ss st).1 = ss := by
-  induction ss generalizing st with
-  | nil => rfl
-  | cons s r ih =>
-    have hs := h s (by simp)
-    simp only [assignSolids]
-    rw [assignSides_preserve _ _ hs.2, get_preserve _ _ hs.1, ih _ (fun x hx => h x (by simp [hx]))]
-
-def fixLogical (e : Ent) : Ent :=
-  { e with logicalPos := if e.logicalPos.isEmpty then defaultLogical e.id else e.logicalPos }
-
-abbrev EntIdsOK (e : Ent) : Prop := e.id ≠ -1 ∧ ∀ s ∈ e.solids, SolidIdsOK s
-
-theorem assignEnt_preserve (e : Ent) (st : Ids) (h : EntIdsOK e) : (assignEnt true e st).1 = fixLogical e := by
-  simp only [assignEnt, fixLogical]
-  rw [assignSolids_preserve _ _ h.2, get_preserve _ _ h.1]
-
-theorem assignEnts_preserve (es : List Ent) (st : Ids) (h : ∀ e ∈ es, EntIdsOK e) :
-    (assignEnts true es st).1 = es.map fixLogical := by
-  induction es generalizing st with
-  | nil => rfl
-  | cons e r ih =>
-    simp only [assignEnts, List.map_cons]
-    rw [assignEnt_preserve _ _ (h e (by simp)), ih _ (fun x hx => h x (by simp [hx]))]
-
-theorem assignGroups_preserve (gs : List Group) (m : IdMan) (acc : List Group)
-    (h1 : ∀ g ∈ gs, g.id ≠ -1) (h2 : ((acc ++ gs).map (·.id)).Nodup) :
-    (assignGroups true gs m acc).1 = acc ++ gs := by
-  induction gs generalizing m acc with
-  | nil => simp [assignGroups]
-  | cons g r ih =>
-    simp only [assignGroups]
-    rw [get_preserve _ _ (h1 g (by simp))]
-    have hnot : acc.any (fun x => x.id == g.id) = false := by
-      simp only [List.any_eq_false, beq_iff_eq]
-      intro x hx e
-      simp only [List.map_append, List.map_cons, List.nodup_append] at h2
-      exact h2.2.2 x.id (by simp only [List.mem_map]; exact ⟨x, hx, rfl⟩) g.id (by simp) e
-    have hg : ({ g with id := g.id } : Group) = g := by cases g; rfl
-    simp only [hnot, Bool.false_eq_true, if_false, hg]
-    rw [ih _ _ (fun x hx => h1 x (by simp [hx])) (by simpa using h2)]
-    simp
-
-/-- ids that `preserve_ids=True` keeps: none is the "allocate" marker `-1`; group ids distinct
-(they key the `groups` dict). -/
-structure IdsOK (m : VMap) : Prop where
-  vis : VisListIdsOK m.vis = true
-  groups : ∀ g ∈ m.groups, g.id ≠ -1
-  groupsDistinct : (m.groups.map (·.id)).Nodup
-  spawn : EntIdsOK m.spawn
-  ents : ∀ e ∈ m.ents, EntIdsOK e
-
-theorem assignIds_preserve (m : VMap) (h : IdsOK m) :
-    assignIds true m = { m with spawn := fixLogical m.spawn, ents := m.ents.map fixLogical } := by
-  simp only [assignIds]
-  rw [assignVisList_preserve _ _ h.vis, assignGroups_preserve _ _ [] h.groups (by simpa using h.groupsDistinct),
-    assignEnt_preserve _ _ h.spawn, assignEnts_preserve _ _ h.ents]
-  simp
-
-
-
-
-theorem projSide_of_ok1 (mb : Bool) (s : Side) (h : SideOK1 s = true) : projSide mb s = s := by
-  simp only [SideOK1, Bool.and_eq_true, Option.isNone_iff_eq_none] at h
-  cases s
-  simp_all [projSide]
-
-theorem projSolid_eq (mb w : Bool) (s : Solid) (h : SolidOK1 s = true) :
-    projSolid mb w s = solidRT w s.hidden s := by
-  simp only [SolidOK1, Bool.and_eq_true, List.all_eq_true] at h
-  have : s.sides.map (projSide mb) = s.sides := by
-    have := List.map_congr_left (l := s.sides) (f := projSide mb) (g := id)
-      (fun x hx => projSide_of_ok1 mb x (h.1 x hx))
-    simpa using this
-  cases s
-  simp_all [projSolid, solidRT]
-
-theorem projEnt_eq (mb w : Bool) (e : Ent) (h : EntOK1 e) :
-    fixLogical (entRT w (if w then false else e.hidden) e) = projEnt mb w e := by
-  have hs : e.solids.map (projSolid mb w) = e.solids.map (fun s => solidRT w s.hidden s) :=
-    List.map_congr_left (fun s hs => projSolid_eq mb w s (h.solids s hs))
-  cases w <;> cases hl : e.logicalPos <;>
-    simp [fixLogical, entRT, projEnt, hs, hl]
-
-theorem idsOK_rawRT (o : ExportOpts) (m : VMap) (h : IdsOK m) : IdsOK (rawRT o m) := by
-  have solidsOK : ∀ (w : Bool) (ss : List Solid), (∀ s ∈ ss, SolidIdsOK s) →
-      ∀ s ∈ ss.map (fun s => solidRT w s.hidden s), SolidIdsOK s := by
-    intro w ss hss s hs
-    simp only [List.mem_map] at hs
-    obtain ⟨t, ht, rfl⟩ := hs
-    exact hss t ht
-  refine ⟨h.vis, h.groups, h.groupsDistinct, ⟨h.spawn.1, ?_⟩, ?_⟩
-  · exact solidsOK true _ h.spawn.2
-  · intro e he
-    simp only [rawRT, List.mem_map] at he
-    obtain ⟨t, ht, rfl⟩ := he
-    exact ⟨(h.ents t ht).1, solidsOK false _ (h.ents t ht).2⟩
-
-theorem fix_rawRT_eq_project (o : ExportOpts) (m : VMap) (h : MapOK1 m) :
-    ({ rawRT o m with spawn := fixLogical (rawRT o m).spawn, ents := (rawRT o m).ents.map fixLogical } : VMap)
-      = project o m := by
-  have hsp := entOK1_spawnForExport o m h.spawn
-  have e1 : fixLogical (rawRT o m).spawn = projEnt o.multiblend true (spawnForExport o m) := by
-    have := projEnt_eq o.multiblend true (spawnForExport o m) hsp
-    simpa [rawRT] using this
-  have e2 : (rawRT o m).ents.map fixLogical = m.ents.map (projEnt o.multiblend false) := by
-    simp only [rawRT, List.map_map]
-    apply List.map_congr_left
-    intro e he
-    have := projEnt_eq o.multiblend false e (h.ents e he)
-    simpa using this
-  rw [e1, e2]
-  cases hmin : o.minimal <;> simp [rawRT, project, hmin]
-
-
-
-
-/-! ### sortedness -/
-
-structure LeOK {α} (le : α → α → Bool) : Prop where
-  total : ∀ a b, le a b = true ∨ le b a = true
-  trans : ∀ a b c, le a b = true → le b c = true → le a c = true
-
-theorem insertBy_sorted {α} {le : α → α → Bool} (ok : LeOK le) (x : α) (l : List α)
-    (h : l.Pairwise (fun a b => le a b = true)) : (insertBy le x l).Pairwise (fun a b => le a b = true) := by
-  induction l with
-  | nil => simp [insertBy]
-  | cons y ys ih =>
-    simp only [insertBy]
-    have hy := List.pairwise_cons.mp h
-    split
-    · rename_i hxy
-      refine List.pairwise_cons.mpr ⟨?_, h⟩
-      intro z hz
-      simp only [List.mem_cons] at hz
-      rcases hz with rfl | hz
-      · exact hxy
-      · exact ok.trans _ _ _ hxy (hy.1 z hz)
-    · rename_i hxy
-      have hyx : le y x = true := by
-        rcases ok.total x y with h1 | h1
-        · exact absurd h1 hxy
-        · exact h1
-      refine List.pairwise_cons.mpr ⟨?_, ih hy.2⟩
-      intro z hz
-      have := (insertBy_perm le x ys).mem_iff.mp hz
-      simp only [List.mem_cons] at this
-      rcases this with rfl | hz'
-      · exact hyx
-      · exact hy.1 z hz'
-
-theorem isort_sorted {α} {le : α → α → Bool} (ok : LeOK le) (l : List α) :
-    (isort le l).Pairwise (fun a b => le a b = true) := by
-  induction l with
-  | nil => simp [isort]
-  | cons x xs ih => exact insertBy_sorted ok x _ ih
-
-theorem isort_of_sorted {α} (le : α → α → Bool) (l : List α) (h : l.Pairwise (fun a b => le a b = true)) :
-    isort le l = l := by
-  induction l with
-  | nil => rfl
-  | cons x xs ih =>
-    have hx := List.pairwise_cons.mp h
-    simp only [isort, ih hx.2]
-    cases xs with
-    | nil => rfl
-    | cons y ys => simp [insertBy, hx.1 y (by simp)]
-
-theorem isort_idem {α} {le : α → α → Bool} (ok : LeOK le) (l : List α) : isort le (isort le l) = isort le l :=
-  isort_of_sorted le _ (isort_sorted ok l)
-
-theorem strLe_total : ∀ a b : Str, strLe a b = true ∨ strLe b a = true
-  | [], _ => by simp [strLe]
-  | _ :: _, [] => by simp [strLe]
-  | a :: as, b :: bs => by
-    simp only [strLe]
-    by_cases h1 : a.toNat < b.toNat
-    · simp [h1]
-    · by_cases h2 : b.toNat < a.toNat
-      · simp [h2]
-      · simp only [h1, h2, if_false]
-        exact strLe_total as bs
-
-theorem strLe_trans : ∀ a b c : Str, strLe a b = true → strLe b c = true → strLe a c = true
-  | [], _, _, _, _ => by simp [strLe]
-  | _ :: _, [], _, h, _ => by simp [strLe] at h
-  | _ :: _, _ :: _, [], _, h => by simp [strLe] at h
-  | a :: as, b :: bs, c :: cs, h1, h2 => by
-    simp only [strLe] at h1 h2 ⊢
-    by_cases hab : a.toNat < b.toNat
-    · by_cases hbc : b.toNat < c.toNat
-      · have : a.toNat < c.toNat := by omega
-        simp [this]
-      · by_cases hcb : c.toNat < b.toNat
-        · simp [hbc, hcb] at h2
-        · have : a.toNat < c.toNat := by omega
-          simp [this]
-    · by_cases hba : b.toNat < a.toNat
-      · simp [hab, hba] at h1
-      · simp only [hab, hba, if_false] at h1
-        have hEq : a.toNat = b.toNat := by omega
-        by_cases hbc : b.toNat < c.toNat
-        · have : a.toNat < c.toNat := by omega
-          simp [this]
-        · by_cases hcb : c.toNat < b.toNat
-          · simp [hbc, hcb] at h2
-          · simp only [hbc, hcb, if_false] at h2
-            have h3 : ¬ a.toNat < c.toNat := by omega
-            have h4 : ¬ c.toNat < a.toNat := by omega
-            simp only [h3, h4, if_false]
-            exact strLe_trans as bs cs h1 h2
-
-theorem keyLe_ok : LeOK keyLe :=
-  ⟨fun a b => strLe_total a.1 b.1, fun a b c => strLe_trans a.1 b.1 c.1⟩
-
-theorem intLe_ok : LeOK intLe :=
-  ⟨fun a b => by simp only [intLe, decide_eq_true_eq]; omega,
-   fun a b c => by simp only [intLe, decide_eq_true_eq]; omega⟩
-
-theorem fixLe_ok : LeOK fixLe :=
-  ⟨fun a b => by simp only [fixLe, decide_eq_true_eq]; omega,
-   fun a b c => by simp only [fixLe, decide_eq_true_eq]; omega⟩
-
-
-
-
-/-! ### the second export -/
-
-theorem expName_normInst (i : Option Str) (n : Str) : expName (normInst i) n = expName i n := by
-  cases i with
-  | none => rfl
-  | some s => by_cases h : s.isEmpty = true <;> simp [normInst, expName, h]
-
-theorem exportOut_projOut (x : Out) : exportOut (projOut x) = exportOut x := by
-  rw [projOut_eq]
-  simp [exportOut, expName_normInst]
-
-theorem exportSolid_projSolid (mb w : Bool) (s : Solid) (h : SolidOK1 s = true) :
-    exportSolid mb w (projSolid mb w s) = exportSolid mb w s := by
-  rw [projSolid_eq mb w s h]
-  cases w <;> simp [exportSolid, solidRT, solidBlock, solidEditor, isort_idem intLe_ok]
-
-theorem go_keeps (k v : Str) (ks : List (Str × Str)) (kv : Str × Str) (hm : kv ∈ ks)
-    (hne : lower kv.1 ≠ lower k) : kv ∈ entSetKey.go k v ks := by
-  induction ks with
-  | nil => simp at hm
-  | cons a r ih =>
-    simp only [entSetKey.go]
-    simp only [List.mem_cons] at hm
-    split
-    · rename_i heq
-      rcases hm with rfl | hm
-      · exact absurd (by simpa using heq) hne
-      · simp [hm]
-    · rcases hm with rfl | hm
-      · simp
-      · simp [ih hm]
-
-theorem entSetKey_keeps (ks : List (Str × Str)) (k v : Str) (kv : Str × Str) (hm : kv ∈ ks)
-    (hne : lower kv.1 ≠ lower k) : kv ∈ entSetKey ks k v := by
-  unfold entSetKey
-  split
-  · exact go_keeps k v ks kv hm hne
-  · exact List.mem_append_left _ hm
-
-/-- the editor fields of an entity that a second export writes again unchanged -/
-def EntFP (w : Bool) (e : Ent) : Prop := if w then e.hidden = false else e.logicalPos ≠ []
-
-theorem exportEnt_projEnt (mb w : Bool) (groups : List Group) (e : Ent) (h : EntOK1 e) (hf : EntFP w e) :
-    exportEnt mb w groups (projEnt mb w e) = exportEnt mb w groups e := by
-  have hs : (e.solids.map (projSolid mb w)).map (exportSolid mb w) = e.solids.map (exportSolid mb w) := by
-    rw [List.map_map]
-    exact List.map_congr_left (fun s hs => exportSolid_projSolid mb w s (h.solids s hs))
-  have ho : (e.outputs.map projOut).map exportOut = e.outputs.map exportOut := by
-    rw [List.map_map]
-    exact List.map_congr_left (fun s _ => exportOut_projOut s)
-  have hoe : (e.outputs.map projOut).isEmpty = e.outputs.isEmpty := by cases e.outputs <;> rfl
-  cases w with
-  | true =>
-    simp only [EntFP, if_true] at hf
-    simp [exportEnt, projEnt, entBlock, entKids, entEditor, hs, ho, hoe, hf, isort_idem keyLe_ok, isort_idem fixLe_ok]
-  | false =>
-    simp only [EntFP, Bool.false_eq_true, if_false] at hf
-    have hl : e.logicalPos.isEmpty = false := by cases hlp : e.logicalPos <;> simp_all
-    simp [exportEnt, projEnt, entBlock, entKids, entEditor, hs, ho, hoe, hl, isort_idem keyLe_ok, isort_idem fixLe_ok,
-      isort_idem intLe_ok]
-
-theorem spawnForExport_project (o : ExportOpts) (m : VMap) (h : MapOK1 m) :
-    spawnForExport { o with incVersion := false } (project o m) = projEnt o.multiblend true (spawnForExport o m) := by
-  have hsp := entOK1_spawnForExport o m h.spawn
-  have hd := keysDistinct_isort hsp.keysDistinct
-  have hps : (project o m).spawn = projEnt o.multiblend true (spawnForExport o m) := by
-    cases hmin : o.minimal <;> simp [project, hmin]
-  have hver : exportedVer { o with incVersion := false } (project o m) = exportedVer o m := by
-    cases hmin : o.minimal <;> simp [exportedVer, project, hmin]
-  have hkeys : (projEnt o.multiblend true (spawnForExport o m)).keys = isort keyLe (spawnForExport o m).keys := rfl
-  -- the mapversion and classname entries are already there
-  obtain ⟨kv1, hm1, hk1, hv1⟩ := entSetKey_has m.spawn.keys (lit "mapversion") (showInt (exportedVer o m))
-  have hm1' : kv1 ∈ (spawnForExport o m).keys := by
-    simp only [spawnForExport]
-    exact entSetKey_keeps _ _ _ kv1 hm1 (by rw [hk1]; decide)
-  obtain ⟨kv2, hm2, hk2, hv2⟩ := entSetKey_has
-    (entSetKey m.spawn.keys (lit "mapversion") (showInt (exportedVer o m))) (lit "classname") (lit "worldspawn")
-  have e1 : entSetKey (isort keyLe (spawnForExport o m).keys) (lit "mapversion") (showInt (exportedVer o m))
-      = isort keyLe (spawnForExport o m).keys :=
-    entSetKey_idem _ _ _ hd ⟨kv1, (mem_isort _ _ _).mpr hm1', hk1, hv1⟩
-  have e2 := spawn_classname_idem o m h.spawn
-  have step : ∀ (P : Ent) (ks : List (Str × Str)), ks = P.keys → ({ P with keys := ks } : Ent) = P := by
-    intro P ks h1
-    rw [h1]
-  have lhs : spawnForExport { o with incVersion := false } (project o m)
-      = { (project o m).spawn with keys := (spawnForExport { o with incVersion := false } (project o m)).keys } := rfl
-  have hk : (spawnForExport { o with incVersion := false } (project o m)).keys
-      = (projEnt o.multiblend true (spawnForExport o m)).keys := by
-    show entSetKey (entSetKey (project o m).spawn.keys (lit "mapversion")
-      (showInt (exportedVer { o with incVersion := false } (project o m)))) (lit "classname") (lit "worldspawn") = _
-    rw [hver, hps, hkeys, e1, e2]
-  rw [lhs, hk, hps]
-
-theorem exportTree_project (o : ExportOpts) (m : VMap) (h : MapOK1 m)
-    (hl : ∀ e ∈ m.ents, e.logicalPos ≠ []) :
-    exportTree { o with incVersion := false } (project o m) = exportTree o m := by
-  have hsp := entOK1_spawnForExport o m h.spawn
-  have hw : exportEnt o.multiblend true m.groups (spawnForExport { o with incVersion := false } (project o m))
-      = exportEnt o.multiblend true m.groups (spawnForExport o m) := by
-    rw [spawnForExport_project o m h]
-    exact exportEnt_projEnt _ _ _ _ hsp (by simp only [EntFP, if_true]; exact h.spawnVisible)
-  have he : (m.ents.map (projEnt o.multiblend false)).map (exportEnt o.multiblend false [])
-      = m.ents.map (exportEnt o.multiblend false []) := by
-    rw [List.map_map]
-    exact List.map_congr_left (fun e he => exportEnt_projEnt _ _ _ e (h.ents e he)
-      (by simp only [EntFP, Bool.false_eq_true, if_false]; exact hl e he))
-  have hver : exportedVer { o with incVersion := false } (project o m) = exportedVer o m := by
-    cases hmin : o.minimal <;> simp [exportedVer, project, hmin]
-  have hgroups : (project o m).groups = m.groups := by cases hmin : o.minimal <;> simp [project, hmin]
-  have hents : (project o m).ents = m.ents.map (projEnt o.multiblend false) := by
-    cases hmin : o.minimal <;> simp [project, hmin]
-  have hvis : (project o m).vis = m.vis := by cases hmin : o.minimal <;> simp [project, hmin]
-  have hq : (project o m).quickhide = if m.quickhide > 0 then m.quickhide else 0 := by
-    cases hmin : o.minimal <;> simp [project, hmin]
-  have hverK : verKids { o with incVersion := false } (project o m) = verKids o m := by
-    simp only [verKids, hver]
-    cases hmin : o.minimal <;> simp [project, hmin, h.format]
-  unfold exportTree
-  simp only [hgroups, hents, hvis, hverK]
-  rw [hw, he]
-  have hqd : decide ((project o m).quickhide > 0) = decide (m.quickhide > 0) := by
-    rw [hq]; by_cases hq0 : m.quickhide > 0 <;> simp [hq0]
-  rw [hqd]
-  cases hmin : o.minimal with
-  | true =>
-    by_cases hq0 : m.quickhide > 0
-    · simp [rootOf, hq0, hq]
-    · simp [rootOf, hq0]
-  | false =>
-    have hvk : viewKids (project o m) = viewKids m := by simp [viewKids, project, hmin]
-    have hck : camKids (project o m) = camKids m := by
-      cases hc : m.cams <;> simp [camKids, project, hmin, hc]
-    have hok : cordonKids (project o m) = cordonKids m := by
-      cases hc : m.cordons <;> simp [cordonKids, project, hmin, hc]
-    rw [hvk, hck, hok]
-    by_cases hq0 : m.quickhide > 0
-    · simp [rootOf, hq0, hq]
-    · simp [rootOf, hq0]
-
-
-
-
-/-! ### id allocation with `preserve_ids = False` -/
-
-theorem findFree_ge (used : List Int) (fuel : Nat) (pos : Int) : pos ≤ findFree used fuel pos := by
-  induction fuel generalizing pos with
-  | zero => simp [findFree]
-  | succ n ih =>
-    simp only [findFree]
-    split
-    · have := ih (pos + 1); omega
-    · exact Int.le_refl _
-
-theorem filter_len_le (used : List Int) (p q : Int → Bool) (h : ∀ x, q x = true → p x = true) :
-    (used.filter q).length ≤ (used.filter p).length := by
-  induction used with
-  | nil => simp
-  | cons a r ih =>
-    simp only [List.filter]
-    cases hq : q a with
-    | true => simp only [h a hq, List.length_cons]; omega
-    | false =>
-      cases hp : p a with
-      | true => simp only [List.length_cons]; omega
-      | false => exact ih
-
-theorem filter_len_lt (used : List Int) (p q : Int → Bool) (h : ∀ x, q x = true → p x = true)
-    (a : Int) (ha : a ∈ used) (hpa : p a = true) (hqa : q a = false) :
-    (used.filter q).length < (used.filter p).length := by
-  induction used with
-  | nil => simp at ha
-  | cons b r ih =>
-    simp only [List.mem_cons] at ha
-    simp only [List.filter]
-    rcases ha with rfl | ha
-    · simp only [hpa, hqa, List.length_cons]
-      have := filter_len_le r p q h
-      omega
-    · have := ih ha
-      cases hq : q b with
-      | true => simp only [h b hq, List.length_cons]; omega
-      | false =>
-        cases hp : p b with
-        | true => simp only [List.length_cons]; omega
-        | false => exact this
-
-theorem findFree_fresh (used : List Int) (fuel : Nat) (pos : Int)
-    (h : (used.filter (fun x => decide (pos ≤ x))).length < fuel) : findFree used fuel pos ∉ used := by
-  induction fuel generalizing pos with
-  | zero => omega
-  | succ n ih =>
-    simp only [findFree]
-    split
-    · rename_i hc
-      have hmem : pos ∈ used := by simpa using hc
-      apply ih
-      have := filter_len_lt used (fun x => decide (pos ≤ x)) (fun x => decide (pos + 1 ≤ x))
-        (by intro x hx; simp only [decide_eq_true_eq] at hx ⊢; omega) pos hmem (by simp) (by simp only [decide_eq_false_iff_not]; omega)
-      omega
-    · rename_i hc
-      simpa using hc
-
-/-- the manager hands out positive numbers: the search position never drops below 1 -/
-def IdMan.Inv (m : IdMan) : Prop := 1 ≤ m.searchPos
-
-theorem alloc_spec (m : IdMan) (h : m.Inv) :
-    (m.alloc).1 ∉ m.used ∧ 0 < (m.alloc).1 ∧ (m.alloc).2.Inv ∧ (m.alloc).2.used = (m.alloc).1 :: m.used := by
-  have hge := findFree_ge m.used (m.used.length + 1) m.searchPos
-  have hfr : findFree m.used (m.used.length + 1) m.searchPos ∉ m.used := by
-    apply findFree_fresh
-    have := List.length_filter_le (fun x => decide (m.searchPos ≤ x)) m.used
-    omega
-  unfold IdMan.Inv at h
-  refine ⟨hfr, ?_, ?_, rfl⟩
-  · show 0 < findFree m.used (m.used.length + 1) m.searchPos
-    omega
-  · show 1 ≤ findFree m.used (m.used.length + 1) m.searchPos + 1
-    omega
-
-theorem get_false_spec (m : IdMan) (d : Int) (h : m.Inv) :
-    (m.get false d).1 ∉ m.used ∧ 0 < (m.get false d).1 ∧ (m.get false d).2.Inv ∧
-    (m.get false d).2.used = (m.get false d).1 :: m.used := by
-  unfold IdMan.get
-  simp only [Bool.false_eq_true, if_false]
-  split
-  · rename_i hc
-    simp only [Bool.and_eq_true, decide_eq_true_eq, Bool.not_eq_true', List.contains_eq_mem,
-      decide_eq_false_iff_not] at hc
-    exact ⟨hc.2, hc.1, h, rfl⟩
-  · exact alloc_spec m h
-
-/-- `ids` were handed out by the manager on the way from `m` to `m'` -/
-structure Fresh (m m' : IdMan) (ids : List Int) : Prop where
-  nodup : ids.Nodup
-  pos : ∀ i ∈ ids, 0 < i
-  new : ∀ i ∈ ids, i ∉ m.used
-  used : ∀ x, x ∈ m'.used ↔ (x ∈ ids ∨ x ∈ m.used)
-  inv : m'.Inv
-
-theorem Fresh.nil (m : IdMan) (h : m.Inv) : Fresh m m [] :=
-  ⟨List.nodup_nil, by simp, by simp, by simp, h⟩
-
-theorem Fresh.trans {m m' m'' : IdMan} {a b : List Int} (h1 : Fresh m m' a) (h2 : Fresh m' m'' b) :
-    Fresh m m'' (a ++ b) := by
-  refine ⟨?_, ?_, ?_, ?_, h2.inv⟩
-  · rw [List.nodup_append]
-    refine ⟨h1.nodup, h2.nodup, ?_⟩
-    intro x hx y hy e
-    subst e
-    exact h2.new x hy ((h1.used x).mpr (Or.inl hx))
-  · intro i hi
-    simp only [List.mem_append] at hi
-    rcases hi with hi | hi
-    · exact h1.pos i hi
-    · exact h2.pos i hi
-  · intro i hi
-    simp only [List.mem_append] at hi
-    rcases hi with hi | hi
-    · exact h1.new i hi
-    · intro hm; exact h2.new i hi ((h1.used i).mpr (Or.inr hm))
-  · intro x
-    rw [h2.used, h1.used]
-    simp only [List.mem_append]
-    constructor
-    · rintro (h | h | h)
-      · exact Or.inl (Or.inr h)
-      · exact Or.inl (Or.inl h)
-      · exact Or.inr h
-    · rintro ((h | h) | h)
-      · exact Or.inr (Or.inl h)
-      · exact Or.inl h
-      · exact Or.inr (Or.inr h)
-
-theorem Fresh.get (m : IdMan) (d : Int) (h : m.Inv) : Fresh m (m.get false d).2 [(m.get false d).1] := by
-  obtain ⟨h1, h2, h3, h4⟩ := get_false_spec m d h
-  refine ⟨by simp, by simpa using h2, by simpa using h1, ?_, h3⟩
-  intro x
-  rw [h4]
-  simp
-
-
-
-
-mutual
-def visIdsA : Vis → List Int
-  | .mk _ id _ ch => visIdsLA ch ++ [id]
-def visIdsLA : List Vis → List Int
-  | [] => []
-  | v :: vs => visIdsA v ++ visIdsLA vs
-end
-
-mutual
-theorem assignVis_fresh : (v : Vis) → (m : IdMan) → m.Inv →
-    Fresh m (assignVisAux false v m).2 (visIdsA (assignVisAux false v m).1)
-  | .mk name id color children, m, h => by
-    simp only [assignVisAux, visIdsA]
-    have h1 := assignVisList_fresh children m h
-    exact h1.trans (Fresh.get _ id h1.inv)
-theorem assignVisList_fresh : (vs : List Vis) → (m : IdMan) → m.Inv →
-    Fresh m (assignVisAux.assignVisList false vs m).2 (visIdsLA (assignVisAux.assignVisList false vs m).1)
-  | [], m, h => by simpa [assignVisAux.assignVisList, visIdsLA] using Fresh.nil m h
-  | v :: vs, m, h => by
-    simp only [assignVisAux.assignVisList, visIdsLA]
-    have h1 := assignVis_fresh v m h
-    exact h1.trans (assignVisList_fresh vs _ h1.inv)
-end
-
-def faceIds (ss : List Side) : List Int := ss.map (·.id)
-
-theorem assignSides_fresh (ss : List Side) (m : IdMan) (h : m.Inv) :
-    Fresh m (assignSides false ss m).2 (faceIds (assignSides false ss m).1) := by
-  induction ss generalizing m with
-  | nil => simpa [assignSides, faceIds] using Fresh.nil m h
-  | cons s r ih =>
-    simp only [assignSides, faceIds, List.map_cons]
-    have h1 := Fresh.get m s.id h
-    have := h1.trans (ih _ h1.inv)
-    simpa [faceIds] using this
-
-def solidIds (ss : List Solid) : List Int := ss.map (·.id)
-def solidFaceIds (ss : List Solid) : List Int := ss.flatMap (fun s => faceIds s.sides)
-
-theorem assignSolids_fresh (ss : List Solid) (st : Ids) (hf : st.face.Inv) (hs : st.solid.Inv) :
-    Fresh st.face (assignSolids false ss st).2.face (solidFaceIds (assignSolids false ss st).1) ∧
-    Fresh st.solid (assignSolids false ss st).2.solid (solidIds (assignSolids false ss st).1) ∧
-    (assignSolids false ss st).2.ent = st.ent ∧ (assignSolids false ss st).2.group = st.group ∧
-    (assignSolids false ss st).2.vis = st.vis := by
-  induction ss generalizing st with
-  | nil =>
-    simp only [assignSolids, solidFaceIds, solidIds, List.flatMap_nil, List.map_nil]
-    exact ⟨Fresh.nil _ hf, Fresh.nil _ hs, trivial, trivial, trivial⟩
-  | cons s r ih =>
-    simp only [assignSolids, solidFaceIds, solidIds, List.flatMap_cons, List.map_cons]
-    have h1 := assignSides_fresh s.sides st.face hf
-    have h2 := Fresh.get st.solid s.id hs
-    obtain ⟨i1, i2, i3, i4, i5⟩ := ih { st with face := (assignSides false s.sides st.face).2,
-                                                  solid := (st.solid.get false s.id).2 } h1.inv h2.inv
-    refine ⟨?_, ?_, i3, i4, i5⟩
-    · simpa [solidFaceIds] using h1.trans i1
-    · simpa [solidIds] using h2.trans i2
-
-
-
-
-theorem assignEnt_fresh (e : Ent) (st : Ids) (hf : st.face.Inv) (hs : st.solid.Inv) (he : st.ent.Inv) :
-    Fresh st.face (assignEnt false e st).2.face (solidFaceIds (assignEnt false e st).1.solids) ∧
-    Fresh st.solid (assignEnt false e st).2.solid (solidIds (assignEnt false e st).1.solids) ∧
-    Fresh st.ent (assignEnt false e st).2.ent [(assignEnt false e st).1.id] ∧
-    (assignEnt false e st).2.group = st.group ∧ (assignEnt false e st).2.vis = st.vis := by
-  obtain ⟨i1, i2, i3, i4, i5⟩ := assignSolids_fresh e.solids st hf hs
-  simp only [assignEnt]
-  refine ⟨i1, i2, ?_, i4, i5⟩
-  rw [i3]
-  exact Fresh.get st.ent e.id he
-
-def entSolids (es : List Ent) : List Solid := es.flatMap (·.solids)
-
-theorem solidFaceIds_append (a b : List Solid) : solidFaceIds (a ++ b) = solidFaceIds a ++ solidFaceIds b := by
-  simp [solidFaceIds]
-
-theorem solidIds_append (a b : List Solid) : solidIds (a ++ b) = solidIds a ++ solidIds b := by
-  simp [solidIds]
-
-theorem assignEnts_fresh (es : List Ent) (st : Ids) (hf : st.face.Inv) (hs : st.solid.Inv) (he : st.ent.Inv) :
-    Fresh st.face (assignEnts false es st).2.face (solidFaceIds (entSolids (assignEnts false es st).1)) ∧
-    Fresh st.solid (assignEnts false es st).2.solid (solidIds (entSolids (assignEnts false es st).1)) ∧
-    Fresh st.ent (assignEnts false es st).2.ent ((assignEnts false es st).1.map (·.id)) := by
-  induction es generalizing st with
-  | nil =>
-    simp only [assignEnts, entSolids, List.flatMap_nil, List.map_nil, solidFaceIds, solidIds]
-    exact ⟨Fresh.nil _ hf, Fresh.nil _ hs, Fresh.nil _ he⟩
-  | cons e r ih =>
-    obtain ⟨a1, a2, a3, _, _⟩ := assignEnt_fresh e st hf hs he
-    obtain ⟨b1, b2, b3⟩ := ih (assignEnt false e st).2 a1.inv a2.inv a3.inv
-    simp only [assignEnts, entSolids, List.flatMap_cons, List.map_cons, solidFaceIds_append, solidIds_append]
-    exact ⟨a1.trans b1, a2.trans b2, by simpa using a3.trans b3⟩
-
-theorem assignGroups_fresh (gs : List Group) (m : IdMan) (acc : List Group) (h : m.Inv)
-    (hacc : ∀ g ∈ acc, g.id ∈ m.used) :
-    ∃ gs', (assignGroups false gs m acc).1 = acc ++ gs' ∧
-      Fresh m (assignGroups false gs m acc).2 (gs'.map (·.id)) := by
-  induction gs generalizing m acc with
-  | nil => exact ⟨[], by simp [assignGroups], by simpa [assignGroups] using Fresh.nil m h⟩
-  | cons g r ih =>
-    obtain ⟨h1, h2, h3, h4⟩ := get_false_spec m g.id h
-    have hf := Fresh.get m g.id h
-    have hnot : acc.any (fun x => x.id == (m.get false g.id).1) = false := by
-      simp only [List.any_eq_false, beq_iff_eq]
-      intro x hx e
-      exact h1 (e ▸ hacc x hx)
-    simp only [assignGroups, hnot, Bool.false_eq_true, if_false]
-    obtain ⟨gs', e1, e2⟩ := ih (m.get false g.id).2 (acc ++ [{ g with id := (m.get false g.id).1 }]) h3 (by
-      intro x hx
-      rw [h4]
-      simp only [List.mem_append, List.mem_singleton] at hx
-      rcases hx with hx | rfl
-      · exact List.mem_cons_of_mem _ (hacc x hx)
-      · simp)
-    refine ⟨{ g with id := (m.get false g.id).1 } :: gs', by simp [e1], ?_⟩
-    simpa using hf.trans e2
-
-/-- after `preserve_ids=False`, every kind of id is pairwise distinct and positive -/
-structure IdsInjective (m : VMap) : Prop where
-  vis : (visIdsLA m.vis).Nodup ∧ ∀ i ∈ visIdsLA m.vis, 0 < i
-  groups : (m.groups.map (·.id)).Nodup ∧ ∀ i ∈ m.groups.map (·.id), 0 < i
-  ents : ((m.spawn :: m.ents).map (·.id)).Nodup ∧ ∀ i ∈ (m.spawn :: m.ents).map (·.id), 0 < i
-  solids : (solidIds (entSolids (m.spawn :: m.ents))).Nodup ∧ ∀ i ∈ solidIds (entSolids (m.spawn :: m.ents)), 0 < i
-  faces : (solidFaceIds (entSolids (m.spawn :: m.ents))).Nodup ∧
-    ∀ i ∈ solidFaceIds (entSolids (m.spawn :: m.ents)), 0 < i
-
-theorem inv_default : ({} : IdMan).Inv := by simp [IdMan.Inv]
-
-theorem assignIds_injective (m : VMap) : IdsInjective (assignIds false m) := by
-  have hph := Fresh.get ({} : IdMan) (-1) inv_default
-  have hvis := assignVisList_fresh m.vis {} inv_default
-  obtain ⟨gs', hg1, hg2⟩ := assignGroups_fresh m.groups {} [] inv_default (by simp)
-  -- worldspawn, with the entity manager that already handed out the placeholder's id
-  obtain ⟨a1, a2, a3, _, _⟩ := assignEnt_fresh m.spawn
-    { solid := {}, face := {}, ent := (({} : IdMan).get false (-1)).2,
-      group := (assignGroups false m.groups {} []).2,
-      vis := (assignVisAux.assignVisList false m.vis {}).2 } inv_default inv_default hph.inv
-  obtain ⟨b1, b2, b3⟩ := assignEnts_fresh m.ents _ a1.inv a2.inv a3.inv
-  have hf := a1.trans b1
-  have hs := a2.trans b2
-  have he := a3.trans b3
-  refine ⟨⟨hvis.nodup, hvis.pos⟩, ?_, ?_, ?_, ?_⟩
-  · simp only [assignIds, hg1, List.nil_append]
-    exact ⟨hg2.nodup, hg2.pos⟩
-  · simp only [assignIds, List.map_cons]
-    exact ⟨by simpa using he.nodup, by simpa using he.pos⟩
-  · simp only [assignIds, entSolids, List.flatMap_cons, solidIds_append]
-    exact ⟨hs.nodup, hs.pos⟩
-  · simp only [assignIds, entSolids, List.flatMap_cons, solidFaceIds_append]
-    exact ⟨hf.nodup, hf.pos⟩
-
-
 
 
 
@@ -3883,6 +1823,2158 @@ theorem parseDisp_export (mb : Bool) (d : Disp) (h : DispOK d = true) :
     have hj : j < dispSize d.power * dispSize d.power := by rw [← hlen]; exact lt_of_getElem? ha
     simp only [Nat.zero_add]
     exact (projVert_base _ j a hj).symm
+
+
+
+/-- the face fields other than point data and displacement -/
+def SideCoreOK (s : Side) : Bool :=
+  V3OK s.p0 && V3OK s.p1 && V3OK s.p2 && UVOK s.uaxis && UVOK s.vaxis && isNum s.rot
+
+theorem parseSide_core (nm : Str) (s : Side) (extra : List KV) (hb : ∀ k ∈ extra, k.isBlock = true)
+    (disp : Option Disp) (points : Option (List V3))
+    (hd : parseSideDisp (sideLeaves s ++ extra) = .ok disp)
+    (hp : parseSidePoints (sideLeaves s ++ extra) = .ok points)
+    (h : SideCoreOK s = true) :
+    parseSide (KV.block nm (sideLeaves s ++ extra)) = .ok { s with points := points, disp := disp } := by
+  simp only [SideCoreOK, Bool.and_eq_true] at h
+  obtain ⟨⟨⟨⟨⟨h0, h1⟩, h2⟩, hu⟩, hv⟩, hr⟩ := h
+  have gl : ∀ key, getLeaf key (sideLeaves s ++ extra) = getLeaf key (sideLeaves s) :=
+    fun key => getLeaf_append_blocks key _ _ hb
+  have hpl : parsePlanes (sideLeaves s ++ extra) = .ok (s.p0, s.p1, s.p2) := by
+    have := parsePlanes_leaves s h0 h1 h2
+    unfold parsePlanes at this ⊢
+    rw [gl]; exact this
+  simp only [parseSide]
+  rw [hpl]
+  simp only []
+  have eu : getLeaf "uaxis" (sideLeaves s) = some s.uaxis.str := by unfold sideLeaves; kv_simp
+  have ev : getLeaf "vaxis" (sideLeaves s) = some s.vaxis.str := by unfold sideLeaves; kv_simp
+  rw [gl, gl, eu, ev]
+  simp only [Option.getD_some]
+  rw [parseUV_str _ hu, parseUV_str _ hv]
+  simp only []
+  rw [hd, hp]
+  simp only []
+  have e1 : getInt "id" (-1) (sideLeaves s ++ extra) = s.id := by
+    unfold getInt; rw [gl]; unfold sideLeaves; kv_simp; simp [parseInt_showInt]
+  have e2 : getLeaf "material" (sideLeaves s) = some s.mat := by unfold sideLeaves; kv_simp
+  have e3 : getFloat "rotation" ['0'] (sideLeaves s ++ extra) = s.rot := by
+    unfold getFloat; rw [gl]; unfold sideLeaves; kv_simp; simp [hr]
+  have e4 : getInt "lightmapscale" 16 (sideLeaves s ++ extra) = s.lightmap := by
+    unfold getInt; rw [gl]; unfold sideLeaves; kv_simp; simp [parseInt_showInt]
+  have e5 : getInt "smoothing_groups" 0 (sideLeaves s ++ extra) = s.smooth := by
+    unfold getInt; rw [gl]; unfold sideLeaves; kv_simp; simp [parseInt_showInt]
+  rw [e1, gl, e2, e3, e4, e5]
+  cases s
+  simp_all
+
+/-- a well-formed face: core fields, Strata point data and displacement data (if any) -/
+def SideOK1 (s : Side) : Bool :=
+  SideCoreOK s && (match s.points with
+    | some pts => pts.all V3OK
+    | none => true) && (match s.disp with
+    | some d => DispOK d
+    | none => true)
+
+def pointsPart (s : Side) : List KV :=
+  match s.points with
+  | some pts => [exportPoints pts]
+  | none => []
+
+def dispPart (mb : Bool) (s : Side) : List KV :=
+  match s.disp with
+  | some d => if d.power > 0 then [exportDisp mb d] else []
+  | none => []
+
+theorem exportSide_eq (mb : Bool) (s : Side) :
+    exportSide mb s = KV.block "side".toList (sideLeaves s ++ (pointsPart s ++ dispPart mb s)) := by
+  cases hp : s.points <;> cases hd : s.disp <;>
+    simp [exportSide, sideLeaves, kBlock, pointsPart, dispPart, hp, hd]
+
+theorem sideLeaves_noBlock (s : Side) : ∀ k ∈ sideLeaves s, k.isBlock = false := by
+  intro k hk
+  simp only [sideLeaves, List.mem_cons, List.mem_nil_iff, or_false] at hk
+  rcases hk with rfl | rfl | rfl | rfl | rfl | rfl | rfl | rfl <;> rfl
+
+theorem pointsPart_props (s : Side) :
+    (∀ k ∈ pointsPart s, k.isBlock = true) ∧ (∀ k ∈ pointsPart s, named "dispinfo" k = false) := by
+  unfold pointsPart
+  cases s.points with
+  | none => simp
+  | some pts => simp [exportPoints, kBlock, KV.isBlock, named, KV.fname, KV.name, lower]
+
+theorem dispPart_props (mb : Bool) (s : Side) :
+    (∀ k ∈ dispPart mb s, k.isBlock = true) ∧ (∀ k ∈ dispPart mb s, named "point_data" k = false) := by
+  unfold dispPart
+  cases s.disp with
+  | none => simp
+  | some d =>
+    by_cases hp : d.power > 0 <;>
+      simp [hp, exportDisp, kBlock, KV.isBlock, named, KV.fname, KV.name, lower]
+
+theorem parseSidePoints_export (mb : Bool) (s : Side)
+    (hp : match s.points with
+      | some pts => ∀ p ∈ pts, V3OK p = true
+      | none => True) :
+    parseSidePoints (sideLeaves s ++ (pointsPart s ++ dispPart mb s)) = .ok s.points := by
+  have hleaf : ∀ k ∈ sideLeaves s, (named "point_data" k && k.isBlock) = false := by
+    intro k hk; simp [sideLeaves_noBlock s k hk]
+  have hdisp : ∀ k ∈ dispPart mb s, (named "point_data" k && k.isBlock) = false := by
+    intro k hk; simp [(dispPart_props mb s).2 k hk]
+  have hfind : findLast (fun k => named "point_data" k && k.isBlock) (sideLeaves s ++ (pointsPart s ++ dispPart mb s))
+      = findLast (fun k => named "point_data" k && k.isBlock) (pointsPart s) := by
+    rw [findLast_append_left_none _ _ _ hleaf, findLast_append_right_none _ _ _ hdisp]
+  unfold parseSidePoints hasBlock getBlock
+  rw [hfind]
+  cases hpts : s.points with
+  | none => simp [pointsPart, hpts, findLast]
+  | some pts =>
+    rw [hpts] at hp
+    simp only [pointsPart, hpts, findLast, exportPoints, kBlock, named, KV.fname, KV.name, KV.isBlock, KV.kids]
+    simp only [show (lower "point_data".toList == lower "point_data".toList) = true by decide, Bool.and_self, if_true,
+      Option.isSome_some]
+    rw [parsePoints_export pts hp]
+
+theorem parseSideDisp_export (mb : Bool) (s : Side)
+    (hd : match s.disp with
+      | some d => DispOK d = true
+      | none => True) :
+    parseSideDisp (sideLeaves s ++ (pointsPart s ++ dispPart mb s)) = .ok (projSide mb s).disp := by
+  have hleaf : ∀ k ∈ sideLeaves s, named "dispinfo" k = false := by
+    intro k hk
+    simp only [sideLeaves, List.mem_cons, List.mem_nil_iff, or_false] at hk
+    rcases hk with rfl | rfl | rfl | rfl | rfl | rfl | rfl | rfl <;> kv_simp
+  have hfind : findLast (named "dispinfo") (sideLeaves s ++ (pointsPart s ++ dispPart mb s))
+      = findLast (named "dispinfo") (dispPart mb s) := by
+    rw [findLast_append_left_none _ _ _ hleaf, findLast_append_left_none _ _ _ (pointsPart_props s).2]
+  unfold parseSideDisp findKey
+  rw [hfind]
+  unfold dispPart projSide
+  cases hds : s.disp with
+  | none => simp [findLast]
+  | some d =>
+    rw [hds] at hd
+    have hpw : d.power > 0 := by
+      simp only [DispOK, Bool.and_eq_true, decide_eq_true_eq] at hd
+      omega
+    have hn : named "dispinfo" (exportDisp mb d) = true := by
+      simp [exportDisp, kBlock, named, KV.fname, KV.name, lower]
+    have hk : blockKids (exportDisp mb d) = .ok (exportDisp mb d).kids := by
+      simp [exportDisp, kBlock, blockKids, KV.kids]
+    simp only [hpw, if_true, findLast, hn, hk, parseDisp_export mb d hd]
+
+theorem parseSide_export1 (mb : Bool) (s : Side) (h : SideOK1 s = true) :
+    parseSide (exportSide mb s) = .ok (projSide mb s) := by
+  simp only [SideOK1, Bool.and_eq_true] at h
+  obtain ⟨⟨hc, hp⟩, hd⟩ := h
+  have hp' : match s.points with
+      | some pts => ∀ p ∈ pts, V3OK p = true
+      | none => True := by
+    cases hpts : s.points with
+    | none => trivial
+    | some pts => rw [hpts] at hp; simpa using hp
+  have hd' : match s.disp with
+      | some d => DispOK d = true
+      | none => True := by
+    cases hds : s.disp with
+    | none => trivial
+    | some d => rw [hds] at hd; simpa using hd
+  rw [exportSide_eq, parseSide_core _ s _ (by
+      intro k hk
+      simp only [List.mem_append] at hk
+      rcases hk with hk | hk
+      · exact (pointsPart_props s).1 k hk
+      · exact (dispPart_props mb s).1 k hk) _ _ (parseSideDisp_export mb s hd') (parseSidePoints_export mb s hp') hc]
+  cases s
+  simp [projSide]
+
+theorem foldE_append {σ} (step : σ → KV → Except Err σ) (st : σ) (a b : List KV) :
+    foldE step st (a ++ b) = match foldE step st a with
+      | .error e => .error e
+      | .ok st' => foldE step st' b := by
+  induction a generalizing st with
+  | nil => rfl
+  | cons k ks ih =>
+    simp only [List.cons_append, foldE]
+    cases step st k with
+    | error e => rfl
+    | ok st' => exact ih st'
+
+theorem convBool_boolStr (b d : Bool) : convBool (boolStr b) d = b := by
+  simp [convBool, boolLookup_boolStr]
+
+/-! ### solids -/
+
+theorem named_side_export (mb : Bool) (s : Side) : named "side" (exportSide mb s) = true := by
+  simp [exportSide, kBlock, named, KV.fname, KV.name, lower]
+
+theorem named_editor_export_side (mb : Bool) (s : Side) : named "editor" (exportSide mb s) = false := by
+  simp [exportSide, kBlock, named, KV.fname, KV.name, lower]
+
+theorem isBlock_export_side (mb : Bool) (s : Side) : (exportSide mb s).isBlock = true := by
+  simp [exportSide, kBlock, KV.isBlock]
+
+def SolidOK1 (s : Solid) : Bool := s.sides.all SideOK1 && V3OK s.color
+
+theorem parseSides_export (mb : Bool) (sides : List Side) (rest : List KV)
+    (h : ∀ s ∈ sides, SideOK1 s = true) (hr : parseSides rest = .ok []) :
+    parseSides (sides.map (exportSide mb) ++ rest) = .ok (sides.map (projSide mb)) := by
+  induction sides with
+  | nil => simpa using hr
+  | cons s ss ih =>
+    simp only [List.map_cons, List.cons_append, parseSides, named_side_export, if_true]
+    rw [parseSide_export1 mb s (h s (by simp)), ih (fun t ht => h t (by simp [ht]))]
+
+theorem editorKids_skip (l rest : List KV) (h : ∀ k ∈ l, named "editor" k = false) :
+    editorKids (l ++ rest) = editorKids rest := by
+  induction l with
+  | nil => rfl
+  | cons k ks ih =>
+    simp only [List.cons_append, editorKids, h k (by simp), Bool.false_eq_true, if_false]
+    exact ih (fun j hj => h j (by simp [hj]))
+
+theorem solidEd_color (st : SolidEd) (v : Str) :
+    solidEdStep st (kLeaf "color" v) = .ok { st with color := parseV3 v3white v } := by
+  simp [solidEdStep, kLeaf, named, KV.fname, KV.name, lower, KV.isBlock]
+
+theorem solidEd_groupid (st : SolidEd) (g : Int) :
+    solidEdStep st (kInt "groupid" g) = .ok { st with group := some g } := by
+  simp [solidEdStep, kInt, kLeaf, named, KV.fname, KV.name, lower, KV.isBlock, parseInt_showInt]
+
+theorem solidEd_visgroupid (st : SolidEd) (g : Int) :
+    solidEdStep st (kInt "visgroupid" g) = .ok { st with visIds := st.visIds ++ [g] } := by
+  simp [solidEdStep, kInt, kLeaf, named, KV.fname, KV.name, lower, KV.isBlock, parseInt_showInt]
+
+theorem solidEd_shown (st : SolidEd) (b : Bool) :
+    solidEdStep st (kBool "visgroupshown" b) = .ok { st with visShown := b } := by
+  simp [solidEdStep, kBool, kLeaf, named, KV.fname, KV.name, lower, KV.isBlock, convBool_boolStr]
+
+theorem solidEd_auto (st : SolidEd) (b : Bool) :
+    solidEdStep st (kBool "visgroupautoshown" b) = .ok { st with visAuto := b } := by
+  simp [solidEdStep, kBool, kLeaf, named, KV.fname, KV.name, lower, KV.isBlock, convBool_boolStr]
+
+theorem solidEd_cordon (st : SolidEd) :
+    solidEdStep st (kLeaf "cordonsolid" ['1']) = .ok { st with cordon := true } := by
+  simp [solidEdStep, kLeaf, named, KV.fname, KV.name, lower, KV.isBlock]
+
+theorem foldE_solid_visids (st : SolidEd) (ids : List Int) :
+    foldE solidEdStep st (ids.map (kInt "visgroupid")) = .ok { st with visIds := st.visIds ++ ids } := by
+  induction ids generalizing st with
+  | nil => simp [foldE]
+  | cons i is ih =>
+    simp only [List.map_cons, foldE, solidEd_visgroupid]
+    rw [ih]
+    simp
+
+/-- what a re-parse makes of a solid (v1: faces without displacement are unchanged). -/
+def solidRT (mb ig hidden : Bool) (s : Solid) : Solid :=
+  { s with sides := s.sides.map (projSide mb), hidden, visIds := if ig then isort intLe s.visIds else [], group := if ig then s.group else none }
+
+theorem foldE_solidEditor (ig : Bool) (s : Solid) (hc : V3OK s.color = true) :
+    foldE solidEdStep {} (solidEditor ig s) =
+      .ok { visIds := if ig then isort intLe s.visIds else [], group := if ig then s.group else none,
+            visShown := s.visShown, visAuto := s.visAuto, cordon := s.cordon, color := s.color } := by
+  unfold solidEditor
+  simp only [foldE_append, List.singleton_append, List.cons_append, List.nil_append, foldE, solidEd_color,
+    parseV3_str _ _ hc]
+  cases ig with
+  | false =>
+    simp only [Bool.false_eq_true, if_false, foldE, solidEd_shown, solidEd_auto]
+    cases hcd : s.cordon <;> simp [foldE, solidEd_cordon]
+  | true =>
+    simp only [if_true]
+    cases hg : s.group with
+    | none =>
+      simp only [List.nil_append, foldE_solid_visids, foldE, solidEd_shown, solidEd_auto]
+      cases hcd : s.cordon <;> simp [foldE, solidEd_cordon]
+    | some g =>
+      simp only [List.singleton_append, foldE, solidEd_groupid, foldE_solid_visids, solidEd_shown, solidEd_auto]
+      cases hcd : s.cordon <;> simp [foldE, solidEd_cordon]
+
+theorem parseSolid_block (mb ig hidden : Bool) (s : Solid) (h : SolidOK1 s = true) :
+    parseSolid hidden (solidBlock mb ig s) = .ok (solidRT mb ig hidden s) := by
+  simp only [SolidOK1, Bool.and_eq_true, List.all_eq_true] at h
+  obtain ⟨hs, hc⟩ := h
+  simp only [solidBlock, kBlock, parseSolid]
+  have e1 : parseSides (kInt "id" s.id :: (s.sides.map (exportSide mb) ++ [KV.block "editor".toList (solidEditor ig s)])) = .ok (s.sides.map (projSide mb)) := by
+    have hid : named "side" (kInt "id" s.id) = false := by kv_simp
+    simp only [parseSides, hid, Bool.false_eq_true, if_false]
+    exact parseSides_export mb s.sides _ hs (by
+      simp [parseSides, named, KV.fname, KV.name, lower])
+  have e2 : editorKids (kInt "id" s.id :: (s.sides.map (exportSide mb) ++ [KV.block "editor".toList (solidEditor ig s)])) = .ok (solidEditor ig s) := by
+    have hid : named "editor" (kInt "id" s.id) = false := by kv_simp
+    simp only [editorKids, hid, Bool.false_eq_true, if_false]
+    rw [editorKids_skip _ _ (by
+      intro k hk
+      simp only [List.mem_map] at hk
+      obtain ⟨t, _, rfl⟩ := hk
+      exact named_editor_export_side mb t)]
+    simp [editorKids, named, KV.fname, KV.name, lower, blockKids]
+  have e3 : getInt "id" (-1) (kInt "id" s.id :: (s.sides.map (exportSide mb) ++ [KV.block "editor".toList (solidEditor ig s)])) = s.id := by
+    unfold getInt
+    have := getLeaf_append_blocks "id" [kInt "id" s.id] (s.sides.map (exportSide mb) ++ [KV.block "editor".toList (solidEditor ig s)]) (by
+      intro k hk
+      simp only [List.mem_append, List.mem_map, List.mem_singleton] at hk
+      rcases hk with ⟨t, _, rfl⟩ | rfl
+      · exact isBlock_export_side mb t
+      · rfl)
+    simp only [List.singleton_append] at this
+    rw [this]
+    kv_simp
+    simp [parseInt_showInt]
+  rw [e1]
+  simp only []
+  rw [e2]
+  simp only []
+  rw [foldE_solidEditor ig s hc]
+  simp only []
+  rw [e3]
+  cases s
+  simp [solidOf, solidRT]
+
+
+
+
+/-! ### sorting -/
+
+theorem insertBy_perm {α} (le : α → α → Bool) (x : α) (l : List α) : (insertBy le x l).Perm (x :: l) := by
+  induction l with
+  | nil => exact List.Perm.refl _
+  | cons y ys ih =>
+    simp only [insertBy]
+    split
+    · exact List.Perm.refl _
+    · exact (List.Perm.cons y ih).trans (List.Perm.swap x y ys)
+
+theorem isort_perm {α} (le : α → α → Bool) (l : List α) : (isort le l).Perm l := by
+  induction l with
+  | nil => exact List.Perm.refl _
+  | cons x xs ih => exact (insertBy_perm le x _).trans (List.Perm.cons x ih)
+
+theorem mem_isort {α} (le : α → α → Bool) (l : List α) (x : α) : x ∈ isort le l ↔ x ∈ l :=
+  (isort_perm le l).mem_iff
+
+/-! ### dictionaries -/
+
+theorem dictSet_new (d : List (Str × Str)) (k v : Str) (h : ∀ kv ∈ d, kv.1 ≠ k) :
+    dictSet d k v = d ++ [(k, v)] := by
+  have : d.any (·.1 == k) = false := by
+    simp only [List.any_eq_false, beq_iff_eq]
+    intro kv hkv; exact h kv hkv
+  simp [dictSet, this]
+
+theorem entSetKey_new (d : List (Str × Str)) (k v : Str) (h : ∀ kv ∈ d, lower kv.1 ≠ lower k) :
+    entSetKey d k v = d ++ [(k, v)] := by
+  have : d.any (fun kv => lower kv.1 == lower k) = false := by
+    simp only [List.any_eq_false, beq_iff_eq]
+    intro kv hkv; exact h kv hkv
+  simp [entSetKey, this]
+
+/-- keys pairwise different ignoring case (the invariant `Entity.__setitem__` maintains) -/
+def KeysDistinct (l : List (Str × Str)) : Prop := l.Pairwise (fun a b => lower a.1 ≠ lower b.1)
+
+theorem foldl_entSetKey (acc l : List (Str × Str)) (h : KeysDistinct (acc ++ l)) :
+    l.foldl (fun ks kv => entSetKey ks kv.1 kv.2) acc = acc ++ l := by
+  induction l generalizing acc with
+  | nil => simp
+  | cons kv r ih =>
+    simp only [List.foldl_cons]
+    have h1 : ∀ a ∈ acc, lower a.1 ≠ lower kv.1 := by
+      intro a ha
+      have := List.pairwise_append.mp h
+      exact this.2.2 a ha kv (by simp)
+    rw [entSetKey_new acc kv.1 kv.2 h1]
+    have : KeysDistinct ((acc ++ [(kv.1, kv.2)]) ++ r) := by
+      simpa [KeysDistinct] using h
+    rw [ih _ this]
+    simp
+
+theorem lower_ne_of_ne {a b : Str} (h : lower a ≠ lower b) : a ≠ b := fun e => h (by rw [e])
+
+
+
+
+theorem fixSplit_nodup (seen : List Int) (l : List Fix)
+    (h1 : (l.map (·.id)).Nodup) (h2 : ∀ f ∈ l, f.id ∉ seen) : fixSplit seen l = (l, []) := by
+  induction l generalizing seen with
+  | nil => rfl
+  | cons f r ih =>
+    simp only [List.map_cons, List.nodup_cons] at h1
+    have := ih (f.id :: seen) h1.2 (by
+      intro g hg
+      simp only [List.mem_cons, not_or]
+      refine ⟨?_, h2 g (by simp [hg])⟩
+      intro e
+      exact h1.1 (by simp only [List.mem_map]; exact ⟨g, hg, e⟩))
+    have hf' : f.id ∉ seen := h2 f (by simp)
+    simp [fixSplit, hf', this]
+
+def VarsDistinct (l : List Fix) : Prop := l.Pairwise (fun a b => lower a.var ≠ lower b.var)
+
+theorem fixPut_new (d : List Fix) (f : Fix) (h : ∀ g ∈ d, lower g.var ≠ lower f.var) : fixPut d f = d ++ [f] := by
+  have : d.any (fun g => lower g.var == lower f.var) = false := by
+    simp only [List.any_eq_false, beq_iff_eq]
+    intro g hg; exact h g hg
+  simp [fixPut, this]
+
+theorem foldl_fixPut (acc l : List Fix) (h : VarsDistinct (acc ++ l)) : l.foldl fixPut acc = acc ++ l := by
+  induction l generalizing acc with
+  | nil => simp
+  | cons f r ih =>
+    simp only [List.foldl_cons]
+    have h1 : ∀ a ∈ acc, lower a.var ≠ lower f.var := by
+      intro a ha
+      exact (List.pairwise_append.mp h).2.2 a ha f (by simp)
+    rw [fixPut_new acc f h1]
+    have : VarsDistinct ((acc ++ [f]) ++ r) := by simpa [VarsDistinct] using h
+    rw [ih _ this]; simp
+
+theorem fixInit_id (l : List Fix) (h1 : (l.map (·.id)).Nodup) (h2 : VarsDistinct l) : fixInit l = l := by
+  unfold fixInit
+  rw [fixSplit_nodup [] l h1 (by simp)]
+  simp only [List.foldl_nil]
+  have := foldl_fixPut [] l (by simpa using h2)
+  simpa using this
+
+
+
+theorem isNumeric_showNat (n : Nat) : isNumeric (showNat n) = true := by
+  have h1 := showNat_all_digit n
+  have h2 : (showNat n).isEmpty = false := by
+    cases h : showNat n with
+    | nil => exact absurd h (showNat_ne_nil n)
+    | cons a b => rfl
+  simp [isNumeric, h1, h2]
+
+theorem entStep_id (w : Bool) (st : EntSt) (n : Nat) :
+    entStep w st (kInt "id" (Int.ofNat n)) = .ok { st with id := Int.ofNat n } := by
+  have hp := parseInt_showInt (Int.ofNat n)
+  simp only [showInt] at hp
+  show entStep w st (KV.leaf ['i', 'd'] (showNat n)) = _
+  have hn : named "id" (KV.leaf ['i', 'd'] (showNat n)) = true := by
+    simp [named, KV.fname, KV.name, lower]
+  unfold entStep
+  simp only [hn, isNumeric_showNat, Bool.and_self, if_true, hp, Option.getD_some]
+
+/-- an entity key that is neither the `id` line nor a `replaceNN` line -/
+def KeyNameOK (k : Str) : Bool := lower k != lit "id" && !(lit "replace").isPrefixOf (lower k)
+
+theorem entStep_key (w : Bool) (st : EntSt) (k v : Str) (h : KeyNameOK k = true) :
+    entStep w st (.leaf k v) = .ok { st with keys := dictSet st.keys k v } := by
+  simp only [KeyNameOK, Bool.and_eq_true, bne_iff_ne, ne_eq, Bool.not_eq_true'] at h
+  have h1 : named "id" (KV.leaf k v) = false := by
+    simp only [named, KV.fname, KV.name]
+    have : lower "id".toList = lit "id" := by decide
+    rw [this]
+    simpa using h.1
+  have h2 : (lit "replace").isPrefixOf (KV.leaf k v).fname = false := by
+    simpa [KV.fname, KV.name] using h.2
+  simp [entStep, h1, h2]
+
+def FixOK (f : Fix) : Bool := !f.var.contains ' ' && f.var.head? != some '$'
+
+theorem entStep_fix (w : Bool) (st : EntSt) (f : Fix) (h : FixOK f = true) :
+    entStep w st (exportFix f) = .ok { st with fixup := st.fixup ++ [f] } := by
+  cases f with
+  | mk var value id =>
+  simp only [FixOK, Bool.and_eq_true, Bool.not_eq_true', bne_iff_ne, ne_eq] at h
+  obtain ⟨hsp, hd⟩ := h
+  have hexp : exportFix ⟨var, value, id⟩
+      = KV.leaf (lit "replace" ++ pad2 (showInt id)) ('$' :: (var ++ ' ' :: value)) := rfl
+  rw [hexp]
+  have hlow : lower (lit "replace" ++ pad2 (showInt id)) = lit "replace" ++ pad2 (showInt id) := by
+    rw [lower_append, lower_pad2_showInt]
+    have : lower (lit "replace") = lit "replace" := by decide
+    rw [this]
+  have hname : named "id" (KV.leaf (lit "replace" ++ pad2 (showInt id)) ('$' :: (var ++ ' ' :: value))) = false := by
+    simp only [named, KV.fname, KV.name, hlow]
+    have : lower "id".toList = lit "id" := by decide
+    rw [this]
+    simp [lit]
+  have hsplit : splitFirst ' ' ('$' :: (var ++ ' ' :: value)) [] = ('$' :: var, some value) := by
+    have hns : ' ' ∉ ('$' :: var) := by
+      simp only [List.mem_cons, not_or]
+      exact ⟨by decide, by simpa using hsp⟩
+    have := splitFirst_pre ' ' ('$' :: var) value [] hns
+    simpa using this
+  have hstrip : lstripC '$' ('$' :: var) = var := by
+    cases hv : var with
+    | nil => simp [lstripC, List.dropWhile]
+    | cons c r =>
+      have hc : (c == '$') = false := by
+        simp only [beq_eq_false_iff_ne, ne_eq]
+        intro e; apply hd; simp [hv, e]
+      simp [lstripC, List.dropWhile, hc]
+  unfold entStep
+  simp only [hname, Bool.false_and, Bool.false_eq_true, if_false]
+  have hf : (KV.leaf (lit "replace" ++ pad2 (showInt id)) ('$' :: (var ++ ' ' :: value))).fname
+      = lit "replace" ++ pad2 (showInt id) := hlow
+  rw [hf]
+  have hpre : (lit "replace").isPrefixOf (lit "replace" ++ pad2 (showInt id)) = true := by
+    simp [List.isPrefixOf_iff_prefix]
+  have hdrop : (lit "replace" ++ pad2 (showInt id)).drop 7 = pad2 (showInt id) := by
+    simp [lit]
+  rw [hpre, hdrop, parseInt_pad2]
+  simp only [if_true, fixOfLeaf, hsplit, hstrip, Option.getD_some]
+
+theorem entStep_solid (mb w : Bool) (st : EntSt) (s : Solid) (h : SolidOK1 s = true) :
+    entStep w st (exportSolid mb w s) = .ok { st with solids := st.solids ++ [solidRT mb w s.hidden s] } := by
+  cases hh : s.hidden with
+  | false =>
+    have e : exportSolid mb w s = solidBlock mb w s := by simp [exportSolid, maybeHidden, hh]
+    rw [e]
+    have hp := parseSolid_block mb w false s h
+    have hn : named "solid" (solidBlock mb w s) = true := by
+      simp [solidBlock, kBlock, named, KV.fname, KV.name, lower]
+    simp only [solidBlock, kBlock] at hp hn ⊢
+    simp only [entStep, hn, if_true, hp]
+  | true =>
+    have e : exportSolid mb w s = kBlock "hidden" [solidBlock mb w s] := by simp [exportSolid, maybeHidden, hh]
+    rw [e]
+    have hp := parseSolid_block mb w true s h
+    have hn : named "solid" (solidBlock mb w s) = true := by
+      simp [solidBlock, kBlock, named, KV.fname, KV.name, lower]
+    have h1 : named "solid" (kBlock "hidden" [solidBlock mb w s]) = false := by
+      simp [kBlock, named, KV.fname, KV.name, lower]
+    have h2 : named "connections" (kBlock "hidden" [solidBlock mb w s]) = false := by
+      simp [kBlock, named, KV.fname, KV.name, lower]
+    have h3 : named "editor" (kBlock "hidden" [solidBlock mb w s]) = false := by
+      simp [kBlock, named, KV.fname, KV.name, lower]
+    have h4 : named "hidden" (kBlock "hidden" [solidBlock mb w s]) = true := by
+      simp [kBlock, named, KV.fname, KV.name, lower]
+    simp only [kBlock] at h1 h2 h3 h4 ⊢
+    simp only [entStep, h1, h2, h3, h4, Bool.false_eq_true, if_false, if_true, foldE, hiddenStep, hn, hp]
+
+theorem parseOuts_export (outs : List Out) (h : ∀ o ∈ outs, OutOK o = true) :
+    parseOuts (outs.map exportOut) = .ok (outs.map projOut) := by
+  induction outs with
+  | nil => rfl
+  | cons o os ih =>
+    simp only [List.map_cons, parseOuts, parseOut_export o (h o (by simp)), ih (fun p hp => h p (by simp [hp]))]
+
+theorem entStep_connections (w : Bool) (st : EntSt) (outs : List Out) (h : ∀ o ∈ outs, OutOK o = true) :
+    entStep w st (kBlock "connections" (outs.map exportOut)) =
+      .ok { st with outputs := st.outputs ++ outs.map projOut } := by
+  have h1 : named "solid" (kBlock "connections" (outs.map exportOut)) = false := by
+    simp [kBlock, named, KV.fname, KV.name, lower]
+  have h2 : named "connections" (kBlock "connections" (outs.map exportOut)) = true := by
+    simp [kBlock, named, KV.fname, KV.name, lower]
+  simp only [kBlock] at h1 h2 ⊢
+  simp only [entStep, h1, h2, Bool.false_eq_true, if_false, if_true, parseOuts_export outs h]
+
+theorem entStep_group (st : EntSt) (g : Group) (h : GroupOK g = true) :
+    entStep true st (exportGroup g) = .ok { st with groups := st.groups ++ [g] } := by
+  have hp := parseGroup_export g h
+  have h1 : named "solid" (exportGroup g) = false := by simp [exportGroup, kBlock, named, KV.fname, KV.name, lower]
+  have h2 : named "connections" (exportGroup g) = false := by simp [exportGroup, kBlock, named, KV.fname, KV.name, lower]
+  have h3 : named "editor" (exportGroup g) = false := by simp [exportGroup, kBlock, named, KV.fname, KV.name, lower]
+  have h4 : named "hidden" (exportGroup g) = false := by simp [exportGroup, kBlock, named, KV.fname, KV.name, lower]
+  have h5 : named "group" (exportGroup g) = true := by simp [exportGroup, kBlock, named, KV.fname, KV.name, lower]
+  simp only [exportGroup, kBlock] at hp h1 h2 h3 h4 h5 ⊢
+  simp only [entStep, h1, h2, h3, h4, h5, Bool.false_eq_true, if_false, if_true, Bool.not_true, hp]
+
+theorem foldE_groups (st : EntSt) (gs : List Group) (h : ∀ g ∈ gs, GroupOK g = true) :
+    foldE (entStep true) st (gs.map exportGroup) = .ok { st with groups := st.groups ++ gs } := by
+  induction gs generalizing st with
+  | nil => simp [foldE]
+  | cons g r ih =>
+    simp only [List.map_cons, foldE, entStep_group st g (h g (by simp))]
+    rw [ih _ (fun x hx => h x (by simp [hx]))]
+    simp
+
+theorem foldE_solids (mb w : Bool) (st : EntSt) (ss : List Solid) (h : ∀ s ∈ ss, SolidOK1 s = true) :
+    foldE (entStep w) st (ss.map (exportSolid mb w)) =
+      .ok { st with solids := st.solids ++ ss.map (fun s => solidRT mb w s.hidden s) } := by
+  induction ss generalizing st with
+  | nil => simp [foldE]
+  | cons s r ih =>
+    simp only [List.map_cons, foldE, entStep_solid mb w st s (h s (by simp))]
+    rw [ih _ (fun x hx => h x (by simp [hx]))]
+    simp
+
+theorem foldE_fixes (w : Bool) (st : EntSt) (fs : List Fix) (h : ∀ f ∈ fs, FixOK f = true) :
+    foldE (entStep w) st (fs.map exportFix) = .ok { st with fixup := st.fixup ++ fs } := by
+  induction fs generalizing st with
+  | nil => simp [foldE]
+  | cons f r ih =>
+    simp only [List.map_cons, foldE, entStep_fix w st f (h f (by simp))]
+    rw [ih _ (fun x hx => h x (by simp [hx]))]
+    simp
+
+theorem foldE_keys (w : Bool) (st : EntSt) (ks : List (Str × Str))
+    (h : ∀ kv ∈ ks, KeyNameOK kv.1 = true)
+    (hd : (st.keys ++ ks).Pairwise (fun a b => a.1 ≠ b.1)) :
+    foldE (entStep w) st (ks.map (fun kv => KV.leaf kv.1 kv.2)) = .ok { st with keys := st.keys ++ ks } := by
+  induction ks generalizing st with
+  | nil => simp [foldE]
+  | cons kv r ih =>
+    simp only [List.map_cons, foldE, entStep_key w st kv.1 kv.2 (h kv (by simp))]
+    have hnew : ∀ a ∈ st.keys, a.1 ≠ kv.1 := by
+      intro a ha
+      exact (List.pairwise_append.mp hd).2.2 a ha kv (by simp)
+    rw [dictSet_new st.keys kv.1 kv.2 hnew]
+    rw [ih _ (fun x hx => h x (by simp [hx])) (by simpa using hd)]
+    simp
+
+
+
+
+theorem entEd_color (st : EntSt) (v : Str) :
+    entEdStep st (kLeaf "color" v) = .ok { st with color := parseV3 v3white v } := by
+  simp [entEdStep, kLeaf, named, KV.fname, KV.name, lower, KV.isBlock]
+
+theorem entEd_groupid (st : EntSt) (g : Int) :
+    entEdStep st (kInt "groupid" g) = .ok { st with groupIds := st.groupIds ++ [g] } := by
+  simp [entEdStep, kInt, kLeaf, named, KV.fname, KV.name, lower, KV.isBlock, parseInt_showInt]
+
+theorem entEd_visgroupid (st : EntSt) (g : Int) :
+    entEdStep st (kInt "visgroupid" g) = .ok { st with visIds := st.visIds ++ [g] } := by
+  simp [entEdStep, kInt, kLeaf, named, KV.fname, KV.name, lower, KV.isBlock, parseInt_showInt]
+
+theorem entEd_shown (st : EntSt) (b : Bool) :
+    entEdStep st (kBool "visgroupshown" b) = .ok { st with visShown := b } := by
+  simp [entEdStep, kBool, kLeaf, named, KV.fname, KV.name, lower, KV.isBlock, convBool_boolStr]
+
+theorem entEd_auto (st : EntSt) (b : Bool) :
+    entEdStep st (kBool "visgroupautoshown" b) = .ok { st with visAuto := b } := by
+  simp [entEdStep, kBool, kLeaf, named, KV.fname, KV.name, lower, KV.isBlock, convBool_boolStr]
+
+theorem entEd_logical (st : EntSt) (v : Str) :
+    entEdStep st (kLeaf "logicalpos" v) = .ok { st with logicalPos := v } := by
+  simp [entEdStep, kLeaf, named, KV.fname, KV.name, lower, KV.isBlock]
+
+theorem entEd_comments (st : EntSt) (v : Str) :
+    entEdStep st (kLeaf "comments" v) = .ok { st with comments := v } := by
+  simp [entEdStep, kLeaf, named, KV.fname, KV.name, lower, KV.isBlock]
+
+theorem foldE_ent_groupids (st : EntSt) (ids : List Int) :
+    foldE entEdStep st (ids.map (kInt "groupid")) = .ok { st with groupIds := st.groupIds ++ ids } := by
+  induction ids generalizing st with
+  | nil => simp [foldE]
+  | cons i is ih =>
+    simp only [List.map_cons, foldE, entEd_groupid]
+    rw [ih]; simp
+
+theorem foldE_ent_visids (st : EntSt) (ids : List Int) :
+    foldE entEdStep st (ids.map (kInt "visgroupid")) = .ok { st with visIds := st.visIds ++ ids } := by
+  induction ids generalizing st with
+  | nil => simp [foldE]
+  | cons i is ih =>
+    simp only [List.map_cons, foldE, entEd_visgroupid]
+    rw [ih]; simp
+
+theorem foldE_entEditor (w : Bool) (st : EntSt) (e : Ent) (hc : V3OK e.color = true)
+    (h0 : st.groupIds = []) (h1 : st.visIds = []) (h2 : st.visShown = true) (h3 : st.visAuto = true)
+    (h4 : st.logicalPos = []) (h5 : st.comments = []) :
+    foldE entEdStep st (entEditor w e) =
+      .ok { st with color := e.color,
+                    groupIds := if w then [] else isort intLe e.groups,
+                    visIds := if w then [] else isort intLe e.visIds,
+                    visShown := if w then true else e.visShown,
+                    visAuto := if w then true else e.visAuto,
+                    logicalPos := if w then [] else e.logicalPos,
+                    comments := e.comments } := by
+  unfold entEditor
+  simp only [foldE_append, List.cons_append, List.nil_append, foldE, entEd_color, parseV3_str _ _ hc]
+  cases w with
+  | true =>
+    simp only [if_true, foldE]
+    cases hcm : e.comments with
+    | nil => simp [foldE, h0, h1, h2, h3, h4, h5]
+    | cons c r => simp [foldE, entEd_comments, h0, h1, h2, h3, h4]
+  | false =>
+    simp only [Bool.false_eq_true, if_false, foldE_append, foldE_ent_groupids, foldE_ent_visids, foldE,
+      entEd_shown, entEd_auto, entEd_logical]
+    cases hcm : e.comments with
+    | nil => simp [foldE, h0, h1, h5]
+    | cons c r => simp [foldE, entEd_comments, h0, h1]
+
+
+
+
+/-- v1 well-formedness of an entity (faces without displacement / Strata point data). -/
+structure EntOK1 (e : Ent) : Prop where
+  idNonneg : 0 ≤ e.id
+  keyNames : ∀ kv ∈ e.keys, KeyNameOK kv.1 = true
+  keysDistinct : KeysDistinct e.keys
+  fixes : ∀ f ∈ e.fixup, FixOK f = true
+  fixIds : (e.fixup.map (·.id)).Nodup
+  fixVars : VarsDistinct e.fixup
+  outs : ∀ o ∈ e.outputs, OutOK o = true
+  solids : ∀ s ∈ e.solids, SolidOK1 s = true
+  color : V3OK e.color = true
+
+/-- what `Entity.parse` (before id allocation) makes of an exported entity. -/
+def entRT (mb w hidden : Bool) (e : Ent) : Ent :=
+  { id := e.id, keys := isort keyLe e.keys, fixup := isort fixLe e.fixup,
+    outputs := e.outputs.map projOut, solids := e.solids.map (fun s => solidRT mb w s.hidden s),
+    hidden, groups := if w then [] else isort intLe e.groups,
+    visIds := if w then [] else isort intLe e.visIds,
+    visShown := if w then true else e.visShown, visAuto := if w then true else e.visAuto,
+    color := e.color, logicalPos := if w then [] else e.logicalPos, comments := e.comments }
+
+theorem keysDistinct_isort {l : List (Str × Str)} (h : KeysDistinct l) : KeysDistinct (isort keyLe l) :=
+  ((isort_perm keyLe l).pairwise_iff (fun hab => Ne.symm hab)).mpr h
+
+theorem varsDistinct_isort {l : List Fix} (h : VarsDistinct l) : VarsDistinct (isort fixLe l) :=
+  ((isort_perm fixLe l).pairwise_iff (fun hab => Ne.symm hab)).mpr h
+
+theorem entStep_editor (w : Bool) (st : EntSt) (kids : List KV) :
+    entStep w st (kBlock "editor" kids) = foldE entEdStep st kids := by
+  have h1 : named "solid" (kBlock "editor" kids) = false := by simp [kBlock, named, KV.fname, KV.name, lower]
+  have h2 : named "connections" (kBlock "editor" kids) = false := by simp [kBlock, named, KV.fname, KV.name, lower]
+  have h3 : named "editor" (kBlock "editor" kids) = true := by simp [kBlock, named, KV.fname, KV.name, lower]
+  simp only [kBlock] at h1 h2 h3 ⊢
+  simp only [entStep, h1, h2, h3, Bool.false_eq_true, if_false, if_true]
+
+theorem parseEnt_block (mb w hidden : Bool) (groups : List Group) (e : Ent) (h : EntOK1 e)
+    (hg : ∀ g ∈ groups, GroupOK g = true) :
+    parseEnt w hidden (entBlock mb w groups e) = .ok (entRT mb w hidden e, if w then groups else []) := by
+  obtain ⟨n, hn⟩ : ∃ n : Nat, e.id = Int.ofNat n := ⟨e.id.toNat, by have := h.idNonneg; simp; omega⟩
+  have hk : ∀ kv ∈ isort keyLe e.keys, KeyNameOK kv.1 = true :=
+    fun kv hkv => h.keyNames kv ((mem_isort _ _ _).mp hkv)
+  have hkd : KeysDistinct (isort keyLe e.keys) := keysDistinct_isort h.keysDistinct
+  have hkd' : (([] : List (Str × Str)) ++ isort keyLe e.keys).Pairwise (fun (a b : Str × Str) => a.1 ≠ b.1) := by
+    simp only [List.nil_append]
+    exact hkd.imp (fun hab => lower_ne_of_ne hab)
+  have hf : ∀ f ∈ isort fixLe e.fixup, FixOK f = true :=
+    fun f hf => h.fixes f ((mem_isort _ _ _).mp hf)
+  have hfid : ((isort fixLe e.fixup).map (·.id)).Nodup :=
+    ((isort_perm fixLe e.fixup).map (·.id)).nodup_iff.mpr h.fixIds
+  have hfv := varsDistinct_isort h.fixVars
+  have hfold : foldE (entStep w) {} (entKids mb w groups e) =
+      .ok { id := e.id, solids := e.solids.map (fun s => solidRT mb w s.hidden s),
+            keys := isort keyLe e.keys, outputs := e.outputs.map projOut,
+            fixup := isort fixLe e.fixup,
+            groupIds := if w then [] else isort intLe e.groups,
+            visIds := if w then [] else isort intLe e.visIds,
+            visShown := if w then true else e.visShown, visAuto := if w then true else e.visAuto,
+            logicalPos := if w then [] else e.logicalPos, comments := e.comments, color := e.color,
+            groups := if w then groups else [] } := by
+    unfold entKids
+    rw [hn]
+    simp only [foldE, entStep_id]
+    rw [foldE_append, foldE_keys w _ _ hk hkd']
+    simp only []
+    rw [foldE_append, foldE_fixes w _ _ hf]
+    simp only []
+    rw [foldE_append, foldE_solids mb w _ _ h.solids]
+    simp only []
+    rw [foldE_append]
+    have hconn : foldE (entStep w)
+        { id := Int.ofNat n, keys := [] ++ isort keyLe e.keys, fixup := [] ++ isort fixLe e.fixup,
+          solids := [] ++ e.solids.map (fun s => solidRT mb w s.hidden s) }
+        (if e.outputs.isEmpty then [] else [kBlock "connections" (e.outputs.map exportOut)]) =
+        .ok { id := Int.ofNat n, keys := [] ++ isort keyLe e.keys, fixup := [] ++ isort fixLe e.fixup,
+              solids := [] ++ e.solids.map (fun s => solidRT mb w s.hidden s),
+              outputs := e.outputs.map projOut } := by
+      cases ho : e.outputs with
+      | nil => simp [foldE]
+      | cons o os =>
+        simp only [List.isEmpty_cons, Bool.false_eq_true, if_false, foldE]
+        rw [entStep_connections w _ (o :: os) (by rw [← ho]; exact h.outs)]
+        simp
+    rw [hconn]
+    simp only []
+    rw [foldE_append]
+    cases w with
+    | true =>
+      simp only [if_true]
+      rw [foldE_groups _ _ hg]
+      simp only [foldE, entStep_editor]
+      rw [foldE_entEditor true _ e h.color rfl rfl rfl rfl rfl rfl]
+      simp
+    | false =>
+      simp only [Bool.false_eq_true, if_false, foldE, entStep_editor]
+      rw [foldE_entEditor false _ e h.color rfl rfl rfl rfl rfl rfl]
+      simp
+  simp only [entBlock, kBlock, parseEnt]
+  rw [hfold]
+  simp only [entOfSt, entRT]
+  have e1 := foldl_entSetKey [] (isort keyLe e.keys) (by simpa using hkd)
+  simp only [List.nil_append] at e1
+  rw [e1, fixInit_id _ hfid hfv]
+
+
+
+
+/-! ### `Entity.__setitem__` on the key list -/
+
+theorem go_map_keys (k v : Str) (l : List (Str × Str)) :
+    (entSetKey.go k v l).map (fun kv => lower kv.1) = l.map (fun kv => lower kv.1) := by
+  induction l with
+  | nil => rfl
+  | cons a r ih =>
+    simp only [entSetKey.go]
+    split
+    · simp
+    · simp [ih]
+
+theorem keysDistinct_iff (l : List (Str × Str)) :
+    KeysDistinct l ↔ (l.map (fun kv => lower kv.1)).Pairwise (· ≠ ·) := by
+  simp [KeysDistinct, List.pairwise_map]
+
+theorem keysDistinct_entSetKey (ks : List (Str × Str)) (k v : Str) (h : KeysDistinct ks) :
+    KeysDistinct (entSetKey ks k v) := by
+  unfold entSetKey
+  split
+  · rw [keysDistinct_iff, go_map_keys, ← keysDistinct_iff]; exact h
+  · rename_i hno
+    simp only [List.any_eq_true, beq_iff_eq, not_exists, not_and] at hno
+    simp only [KeysDistinct, List.pairwise_append, List.pairwise_cons, List.mem_singleton]
+    refine ⟨h, by simp, ?_⟩
+    intro a ha b hb
+    subst hb
+    exact hno a ha
+
+theorem go_mem (k v : Str) (l : List (Str × Str)) :
+    ∀ kv ∈ entSetKey.go k v l, kv ∈ l ∨ (lower kv.1 = lower k ∧ kv.2 = v) := by
+  induction l with
+  | nil => intro kv h; simp [entSetKey.go] at h
+  | cons a r ih =>
+    intro kv h
+    simp only [entSetKey.go] at h
+    split at h
+    · rename_i heq
+      simp only [List.mem_cons] at h
+      rcases h with rfl | h
+      · right; exact ⟨by simpa using heq, rfl⟩
+      · left; simp [h]
+    · simp only [List.mem_cons] at h
+      rcases h with rfl | h
+      · left; simp
+      · rcases ih kv h with h' | h'
+        · left; simp [h']
+        · right; exact h'
+
+theorem entSetKey_mem (ks : List (Str × Str)) (k v : Str) :
+    ∀ kv ∈ entSetKey ks k v, kv ∈ ks ∨ (lower kv.1 = lower k ∧ kv.2 = v) := by
+  intro kv h
+  unfold entSetKey at h
+  split at h
+  · exact go_mem k v ks kv h
+  · simp only [List.mem_append, List.mem_singleton] at h
+    rcases h with h | rfl
+    · left; exact h
+    · right; exact ⟨rfl, rfl⟩
+
+theorem go_has (k v : Str) (l : List (Str × Str)) (h : l.any (fun kv => lower kv.1 == lower k) = true) :
+    ∃ kv ∈ entSetKey.go k v l, lower kv.1 = lower k ∧ kv.2 = v := by
+  induction l with
+  | nil => simp at h
+  | cons a r ih =>
+    simp only [entSetKey.go]
+    split
+    · rename_i heq
+      exact ⟨(a.1, v), by simp, by simpa using heq, rfl⟩
+    · rename_i hne
+      simp only [List.any_cons, Bool.or_eq_true] at h
+      rcases h with h | h
+      · exact absurd h hne
+      · obtain ⟨kv, hm, hp⟩ := ih h
+        exact ⟨kv, by simp [hm], hp⟩
+
+theorem entSetKey_has (ks : List (Str × Str)) (k v : Str) :
+    ∃ kv ∈ entSetKey ks k v, lower kv.1 = lower k ∧ kv.2 = v := by
+  unfold entSetKey
+  split
+  · rename_i h; exact go_has k v ks h
+  · exact ⟨(k, v), by simp, rfl, rfl⟩
+
+theorem go_idem (k v : Str) (l : List (Str × Str)) (hd : KeysDistinct l)
+    (hm : ∃ kv ∈ l, lower kv.1 = lower k ∧ kv.2 = v) : entSetKey.go k v l = l := by
+  induction l with
+  | nil => rfl
+  | cons a r ih =>
+    simp only [KeysDistinct, List.pairwise_cons] at hd
+    obtain ⟨kv, hmem, hk, hv⟩ := hm
+    simp only [entSetKey.go]
+    split
+    · rename_i heq
+      have heq' : lower a.1 = lower k := by simpa using heq
+      simp only [List.mem_cons] at hmem
+      rcases hmem with rfl | hmem
+      · cases kv; simp_all
+      · exact absurd (heq'.trans hk.symm) (hd.1 kv hmem)
+    · rename_i hne
+      have hne' : lower a.1 ≠ lower k := by simpa using hne
+      simp only [List.mem_cons] at hmem
+      rcases hmem with rfl | hmem
+      · exact absurd hk hne'
+      · rw [ih hd.2 ⟨kv, hmem, hk, hv⟩]
+
+theorem entSetKey_idem (l : List (Str × Str)) (k v : Str) (hd : KeysDistinct l)
+    (hm : ∃ kv ∈ l, lower kv.1 = lower k ∧ kv.2 = v) : entSetKey l k v = l := by
+  unfold entSetKey
+  have : l.any (fun kv => lower kv.1 == lower k) = true := by
+    obtain ⟨kv, hmem, hk, _⟩ := hm
+    simp only [List.any_eq_true, beq_iff_eq]
+    exact ⟨kv, hmem, hk⟩
+  rw [this]
+  simp only [if_true]
+  exact go_idem k v l hd hm
+
+
+
+
+/-! ### Strata viewports -/
+
+def ViewOK : View → Bool
+  | .v2 a u v z => decide (a < 3) && TokOK u && TokOK v && TokOK z && !isBig u && !isBig v
+  | .v3 p a => V3OK p && V3OK a
+
+theorem tokOK_big1 : TokOK (lit "65536") = true := by decide
+theorem tokOK_big2 : TokOK (lit "-65536") = true := by decide
+
+theorem parseViewKids_export (title : String) (is0 : Bool) (d : Nat) (v : View) (h : ViewOK v = true) :
+    parseViewKids is0 d (exportView title v).kids = .ok v := by
+  cases v with
+  | v3 p a =>
+    simp only [ViewOK, Bool.and_eq_true] at h
+    simp only [exportView, kBlock, KV.kids]
+    have e1 : getBool "3d" is0 [kLeaf "3d" ['1'], kLeaf "position" (wrap '(' ')' p.str), kLeaf "angle" (wrap '[' ']' a.str)] = true := by
+      kv_simp; simp [show boolLookup ['1'] = some true by decide]
+    have e2 : getV3 "position" v3zero [kLeaf "3d" ['1'], kLeaf "position" (wrap '(' ')' p.str), kLeaf "angle" (wrap '[' ']' a.str)] = p := by
+      kv_simp; exact parseV3_wrap _ _ _ _ h.1 (by decide) (by decide) (by decide) (by decide)
+    have e3 : getLeaf "angle" [kLeaf "3d" ['1'], kLeaf "position" (wrap '(' ')' p.str), kLeaf "angle" (wrap '[' ']' a.str)] = some (wrap '[' ']' a.str) := by
+      kv_simp
+    simp only [parseViewKids, e1, e2, e3, if_true, Option.getD_some]
+    rw [parseV3_wrap _ _ _ _ h.2 (by decide) (by decide) (by decide) (by decide)]
+  | v2 ax u w z =>
+    simp only [ViewOK, Bool.and_eq_true, decide_eq_true_eq, Bool.not_eq_true'] at h
+    obtain ⟨⟨⟨⟨⟨hax, hu⟩, hw⟩, hz⟩, hbu⟩, hbw⟩ := h
+    have hzu : isZeroTok (lit "65536") = false := by decide
+    have hzn : isZeroTok (lit "-65536") = false := by decide
+    have hb1 : isBig (lit "65536") = true := by decide
+    have hb2 : isBig (lit "-65536") = true := by decide
+    have key : ∀ (pos : V3) (hp : V3OK pos = true),
+        parseViewKids is0 d [kLeaf "3d" ['0'], kLeaf "position" (wrap '(' ')' pos.str), kLeaf "zoom" z]
+          = (if pos.toks.all isZeroTok then .ok (.v2 d ['0'] ['0'] z) else viewFromVector pos z) := by
+      intro pos hp
+      have e1 : getBool "3d" is0 [kLeaf "3d" ['0'], kLeaf "position" (wrap '(' ')' pos.str), kLeaf "zoom" z] = false := by
+        kv_simp; simp [show boolLookup ['0'] = some false by decide]
+      have e2 : getV3 "position" v3zero [kLeaf "3d" ['0'], kLeaf "position" (wrap '(' ')' pos.str), kLeaf "zoom" z] = pos := by
+        kv_simp; exact parseV3_wrap _ _ _ _ hp (by decide) (by decide) (by decide) (by decide)
+      have e3 : getFloat "zoom" ['1'] [kLeaf "3d" ['0'], kLeaf "position" (wrap '(' ')' pos.str), kLeaf "zoom" z] = z := by
+        kv_simp; simp [tok_isNum hz]
+      simp only [parseViewKids, e1, e2, e3, Bool.false_eq_true, if_false]
+    have ax3 : ax = 0 ∨ ax = 1 ∨ ax = 2 := by omega
+    rcases ax3 with rfl | rfl | rfl
+    · have hp : V3OK ⟨lit "65536", u, w⟩ = true := by simp [V3OK, tokOK_big1, hu, hw]
+      have := key ⟨lit "65536", u, w⟩ hp
+      simp only [V3.str, V3.toks] at this
+      simp only [exportView, kBlock, KV.kids, beq_self_eq_true, if_true, List.cons_append, List.nil_append]
+      rw [this]
+      simp [hzu, viewFromVector, pickAxis, hb1, hbu, hbw, mkView2]
+    · have hp : V3OK ⟨u, lit "-65536", w⟩ = true := by simp [V3OK, tokOK_big2, hu, hw]
+      have := key ⟨u, lit "-65536", w⟩ hp
+      simp only [V3.str, V3.toks] at this
+      simp only [exportView, kBlock, KV.kids, Nat.reduceBEq, Bool.false_eq_true, if_false, beq_self_eq_true, if_true,
+        List.cons_append, List.nil_append]
+      rw [this]
+      simp [hzn, viewFromVector, pickAxis, hb2, hbu, hbw, mkView2]
+    · have hp : V3OK ⟨u, w, lit "65536"⟩ = true := by simp [V3OK, tokOK_big1, hu, hw]
+      have := key ⟨u, w, lit "65536"⟩ hp
+      simp only [V3.str, V3.toks] at this
+      simp only [exportView, kBlock, KV.kids, Nat.reduceBEq, Bool.false_eq_true, if_false, beq_self_eq_true, if_true,
+        List.cons_append, List.nil_append]
+      rw [this]
+      simp [hzu, viewFromVector, pickAxis, hb1, hbu, hbw, mkView2]
+
+theorem exportView_block (title : String) (v : View) :
+    exportView title v = KV.block title.toList (exportView title v).kids := by
+  cases v <;> simp [exportView, kBlock, KV.kids]
+
+theorem parseViews_export (pre : List KV) (a b c d : View)
+    (ha : ViewOK a = true) (hb : ViewOK b = true) (hc : ViewOK c = true) (hd : ViewOK d = true) :
+    parseViews (pre ++ [kBlock "views" (exportViews viewTitles [a, b, c, d])]) = .ok (some [a, b, c, d]) := by
+  have hfk : findKey "views" (pre ++ [kBlock "views" (exportViews viewTitles [a, b, c, d])])
+      = some (kBlock "views" (exportViews viewTitles [a, b, c, d])) := by
+    unfold findKey
+    rw [findLast_append]
+    simp [findLast, kBlock, named, KV.fname, KV.name, lower]
+  unfold parseViews
+  rw [hfk]
+  simp only [kBlock, blockKids, exportViews, viewTitles]
+  have s0 : viewSub "v0" [exportView "v0" a, exportView "v1" b, exportView "v2" c, exportView "v3" d] = .ok (exportView "v0" a).kids := by
+    rw [exportView_block "v0" a, exportView_block "v1" b, exportView_block "v2" c, exportView_block "v3" d]
+    simp [viewSub, findKey, findLast, named, KV.fname, KV.name, lower, blockKids, KV.kids]
+  have s1 : viewSub "v1" [exportView "v0" a, exportView "v1" b, exportView "v2" c, exportView "v3" d] = .ok (exportView "v1" b).kids := by
+    rw [exportView_block "v0" a, exportView_block "v1" b, exportView_block "v2" c, exportView_block "v3" d]
+    simp [viewSub, findKey, findLast, named, KV.fname, KV.name, lower, blockKids, KV.kids]
+  have s2 : viewSub "v2" [exportView "v0" a, exportView "v1" b, exportView "v2" c, exportView "v3" d] = .ok (exportView "v2" c).kids := by
+    rw [exportView_block "v0" a, exportView_block "v1" b, exportView_block "v2" c, exportView_block "v3" d]
+    simp [viewSub, findKey, findLast, named, KV.fname, KV.name, lower, blockKids, KV.kids]
+  have s3 : viewSub "v3" [exportView "v0" a, exportView "v1" b, exportView "v2" c, exportView "v3" d] = .ok (exportView "v3" d).kids := by
+    rw [exportView_block "v0" a, exportView_block "v1" b, exportView_block "v2" c, exportView_block "v3" d]
+    simp [viewSub, findKey, findLast, named, KV.fname, KV.name, lower, blockKids, KV.kids]
+  simp only [parseView, s0, s1, s2, s3, parseViewKids_export _ _ _ _ ha, parseViewKids_export _ _ _ _ hb,
+    parseViewKids_export _ _ _ _ hc, parseViewKids_export _ _ _ _ hd]
+
+
+
+
+/-! ### the root level -/
+
+/-- the exported entity blocks: blocks named `entity` or `hidden` -/
+def EntsShape (ents : List KV) : Prop :=
+  ∀ x ∈ ents, x.isBlock = true ∧ (x.fname = lit "entity" ∨ x.fname = lit "hidden")
+
+theorem ents_not_named (key : String) (ents : List KV) (h : EntsShape ents)
+    (h1 : lower key.toList ≠ lit "entity") (h2 : lower key.toList ≠ lit "hidden") :
+    ∀ x ∈ ents, named key x = false := by
+  intro x hx
+  simp only [named, beq_eq_false_iff_ne, ne_eq]
+  rcases (h x hx).2 with e | e <;> rw [e] <;> intro c
+  · exact h1 c.symm
+  · exact h2 c.symm
+
+theorem findLast_mid {α} (p : α → Bool) (pre ents post : List α) (he : ∀ x ∈ ents, p x = false) :
+    findLast p (pre ++ (ents ++ post)) = match findLast p post with
+      | some r => some r
+      | none => findLast p pre := by
+  rw [findLast_append, findLast_append_left_none p ents post he]
+  all_goals (cases findLast p post <;> rfl)
+
+section
+variable (minimal hasQuick : Bool) (verK visK viewK wk : List KV) (ents camK cordK quickK : List KV)
+
+theorem rootOf_assoc :
+    rootOf minimal hasQuick verK visK viewK (kBlock "world" wk) ents camK cordK quickK =
+      ([kBlock "versioninfo" verK, kBlock "visgroups" visK] ++
+        ((if minimal then [] else [kBlock "viewsettings" viewK]) ++ [kBlock "world" wk])) ++
+      (ents ++ ((if minimal then [] else [kBlock "cameras" camK, kBlock "cordons" cordK]) ++
+        (if hasQuick then [kBlock "quickhide" quickK] else []))) := by
+  simp [rootOf]
+
+macro "root_block" k:term:max hs:term:max : tactic => `(tactic| (
+  unfold getBlock
+  rw [rootOf_assoc, findLast_mid _ _ _ _ (by
+    intro x hx
+    have := ents_not_named $k _ $hs (by decide) (by decide) x hx
+    simp [this])]
+  cases minimal <;> cases hasQuick <;>
+    simp [findLast, kBlock, named, KV.fname, KV.name, KV.isBlock, KV.kids, lower]))
+
+theorem root_versioninfo (hs : EntsShape ents) :
+    getBlock "versioninfo" (rootOf minimal hasQuick verK visK viewK (kBlock "world" wk) ents camK cordK quickK) = verK := by
+  root_block "versioninfo" hs
+
+theorem root_viewsettings (hs : EntsShape ents) :
+    getBlock "viewsettings" (rootOf minimal hasQuick verK visK viewK (kBlock "world" wk) ents camK cordK quickK)
+      = if minimal then [] else viewK := by
+  root_block "viewsettings" hs
+
+theorem root_cameras (hs : EntsShape ents) :
+    getBlock "cameras" (rootOf minimal hasQuick verK visK viewK (kBlock "world" wk) ents camK cordK quickK)
+      = if minimal then [] else camK := by
+  root_block "cameras" hs
+
+theorem root_cordons (hs : EntsShape ents) :
+    getBlock "cordons" (rootOf minimal hasQuick verK visK viewK (kBlock "world" wk) ents camK cordK quickK)
+      = if minimal then [] else cordK := by
+  root_block "cordons" hs
+
+theorem root_quickhide (hs : EntsShape ents) :
+    getBlock "quickhide" (rootOf minimal hasQuick verK visK viewK (kBlock "world" wk) ents camK cordK quickK)
+      = if hasQuick then quickK else [] := by
+  root_block "quickhide" hs
+
+theorem root_world (hs : EntsShape ents) :
+    worldKv (rootOf minimal hasQuick verK visK viewK (kBlock "world" wk) ents camK cordK quickK) = kBlock "world" wk := by
+  unfold worldKv
+  rw [rootOf_assoc, findLast_mid _ _ _ _ (by
+    intro x hx
+    have := ents_not_named "world" _ hs (by decide) (by decide) x hx
+    simp [this])]
+  cases minimal <;> cases hasQuick <;>
+    simp [findLast, kBlock, named, KV.fname, KV.name, KV.isBlock, lower]
+
+theorem filter_none {α} (p : α → Bool) (l : List α) (h : ∀ x ∈ l, p x = false) : l.filter p = [] := by
+  induction l with
+  | nil => rfl
+  | cons a r ih => simp [h a (by simp), ih (fun x hx => h x (by simp [hx]))]
+
+theorem root_visgroups (hs : EntsShape ents) :
+    allVisgroups (rootOf minimal hasQuick verK visK viewK (kBlock "world" wk) ents camK cordK quickK)
+      = visK.filter (named "visgroup") := by
+  unfold allVisgroups
+  rw [rootOf_assoc]
+  simp only [List.filter_append]
+  rw [filter_none _ ents (ents_not_named "visgroups" _ hs (by decide) (by decide))]
+  cases minimal <;> cases hasQuick <;>
+    simp [kBlock, named, KV.fname, KV.name, KV.kids, lower]
+
+theorem parseRootEnts_skip (pre rest : List KV)
+    (h : ∀ x ∈ pre, named "entity" x = false ∧ named "hidden" x = false) :
+    parseRootEnts (pre ++ rest) = parseRootEnts rest := by
+  induction pre with
+  | nil => rfl
+  | cons k ks ih =>
+    have hk := h k (by simp)
+    simp only [List.cons_append, parseRootEnts, hk.1, hk.2, Bool.false_eq_true, if_false]
+    exact ih (fun x hx => h x (by simp [hx]))
+
+theorem parseRootEnts_append_nil (l post : List KV)
+    (h : ∀ x ∈ post, named "entity" x = false ∧ named "hidden" x = false) :
+    parseRootEnts (l ++ post) = parseRootEnts l := by
+  induction l with
+  | nil =>
+    have := parseRootEnts_skip post [] h
+    simpa [parseRootEnts] using this
+  | cons k ks ih =>
+    simp only [List.cons_append, parseRootEnts, ih]
+
+theorem root_ents :
+    parseRootEnts (rootOf minimal hasQuick verK visK viewK (kBlock "world" wk) ents camK cordK quickK)
+      = parseRootEnts ents := by
+  rw [rootOf_assoc, parseRootEnts_skip _ _ (by
+    cases minimal <;> simp [kBlock, named, KV.fname, KV.name, lower])]
+  exact parseRootEnts_append_nil _ _ (by
+    cases minimal <;> cases hasQuick <;> simp [kBlock, named, KV.fname, KV.name, lower])
+
+end
+
+
+
+
+theorem named_visgroup_exportVis (v : Vis) : named "visgroup" (exportVis v) = true := by
+  cases v with
+  | mk n i c ch => simp [exportVis, exportVisAux, named, KV.fname, KV.name, lit, lower]
+
+theorem visListOK_mem {vs : List Vis} (h : VisListOK vs = true) : ∀ v ∈ vs, VisOK v = true := by
+  induction vs with
+  | nil => intro v hv; simp at hv
+  | cons a r ih =>
+    simp only [VisListOK, Bool.and_eq_true] at h
+    intro v hv
+    simp only [List.mem_cons] at hv
+    rcases hv with rfl | hv
+    · exact h.1
+    · exact ih h.2 v hv
+
+theorem parseVisAll_export (vs : List Vis) (h : VisListOK vs = true) :
+    parseVisAll ((vs.map exportVis).filter (named "visgroup")) = .ok vs := by
+  rw [filter_map_all _ _ _ (fun v _ => named_visgroup_exportVis v)]
+  have hm := visListOK_mem h
+  clear h
+  induction vs with
+  | nil => rfl
+  | cons v r ih =>
+    simp only [List.map_cons, parseVisAll]
+    have hv : parseVis (exportVis v) = .ok v := parseVis_export v (hm v (by simp))
+    rw [hv]
+    have := ih (fun x hx => hm x (by simp [hx]))
+    rw [this]
+
+theorem parseCams_export (a : Int) (cams : List Cam) (h : ∀ c ∈ cams, CamOK c = true) :
+    parseCams (kInt "activecamera" a :: cams.map exportCam) = .ok cams := by
+  have h0 : named "activecamera" (kInt "activecamera" a) = true := by kv_simp
+  simp only [parseCams, h0, if_true]
+  induction cams with
+  | nil => rfl
+  | cons c r ih =>
+    have hn : named "activecamera" (exportCam c) = false := by
+      simp [exportCam, kBlock, named, KV.fname, KV.name, lower]
+    simp only [List.map_cons, parseCams, hn, Bool.false_eq_true, if_false,
+      parseCam_export c (h c (by simp)), ih (fun x hx => h x (by simp [hx]))]
+
+theorem parseCordons_export (b : Bool) (cs : List Cordon) (h : ∀ c ∈ cs, CordonOK c = true) :
+    parseCordons (kBool "active" b :: cs.map exportCordon) = .ok cs := by
+  have h0 : named "cordon" (kBool "active" b) = false := by kv_simp
+  simp only [parseCordons, h0, Bool.false_eq_true, if_false]
+  induction cs with
+  | nil => rfl
+  | cons c r ih =>
+    have hn : named "cordon" (exportCordon c) = true := by
+      simp [exportCordon, kBlock, named, KV.fname, KV.name, lower]
+    simp only [List.map_cons, parseCordons, hn, if_true,
+      parseCordon_export c (h c (by simp)), ih (fun x hx => h x (by simp [hx]))]
+
+/-- v1 well-formedness of the entity list element (not worldspawn) -/
+theorem exportEnt_shape (mb : Bool) (es : List Ent) : EntsShape (es.map (exportEnt mb false [])) := by
+  intro x hx
+  simp only [List.mem_map] at hx
+  obtain ⟨e, _, rfl⟩ := hx
+  cases hh : e.hidden <;>
+    simp [exportEnt, maybeHidden, hh, entBlock, kBlock, KV.isBlock, KV.fname, KV.name, lower, lit]
+
+theorem parseRootEnts_export (mb : Bool) (es : List Ent) (h : ∀ e ∈ es, EntOK1 e) :
+    parseRootEnts (es.map (exportEnt mb false [])) = .ok (es.map (fun e => entRT mb false e.hidden e)) := by
+  induction es with
+  | nil => rfl
+  | cons e r ih =>
+    have he := h e (by simp)
+    have ihr := ih (fun x hx => h x (by simp [hx]))
+    cases hh : e.hidden with
+    | false =>
+      have e1 : exportEnt mb false [] e = entBlock mb false [] e := by simp [exportEnt, maybeHidden, hh]
+      have hn : named "entity" (entBlock mb false [] e) = true := by
+        simp [entBlock, kBlock, named, KV.fname, KV.name, lower]
+      have hp := parseEnt_block mb false false [] e he (by simp)
+      simp only [List.map_cons, e1, parseRootEnts, hn, if_true, hp, ihr]
+      simp [hh]
+    | true =>
+      have e1 : exportEnt mb false [] e = kBlock "hidden" [entBlock mb false [] e] := by
+        simp [exportEnt, maybeHidden, hh]
+      have hn1 : named "entity" (kBlock "hidden" [entBlock mb false [] e]) = false := by
+        simp [kBlock, named, KV.fname, KV.name, lower]
+      have hn2 : named "hidden" (kBlock "hidden" [entBlock mb false [] e]) = true := by
+        simp [kBlock, named, KV.fname, KV.name, lower]
+      have hp := parseEnt_block mb false true [] e he (by simp)
+      simp only [List.map_cons, e1, parseRootEnts, hn1, hn2, Bool.false_eq_true, if_false, if_true]
+      simp only [kBlock, blockKids, parseHiddenEnts, hp, ihr]
+      simp [hh]
+
+
+
+
+def ViewsOK : Option (List View) → Prop
+  | none => True
+  | some vs => ∃ a b c d, vs = [a, b, c, d] ∧ ViewOK a = true ∧ ViewOK b = true ∧ ViewOK c = true ∧ ViewOK d = true
+
+def InstVisOK : Option Int → Prop
+  | none => True
+  | some v => v = 0 ∨ v = 1 ∨ v = 2
+
+/-- v1 well-formedness of a map: what the tree-level round trip needs (faces without
+displacement / Strata point data; see `EntOK1`). -/
+structure MapOK1 (m : VMap) : Prop where
+  format : m.formatVer = 100
+  instVis : InstVisOK m.instVis
+  views : ViewsOK m.views
+  vis : VisListOK m.vis = true
+  spawn : EntOK1 m.spawn
+  spawnVisible : m.spawn.hidden = false
+  groups : ∀ g ∈ m.groups, GroupOK g = true
+  ents : ∀ e ∈ m.ents, EntOK1 e
+  cams : ∀ c ∈ m.cams, CamOK c = true
+  cordons : ∀ c ∈ m.cordons, CordonOK c = true
+
+/-- the view-settings part of a re-parsed map -/
+structure ViewPart where
+  snap : Bool
+  grid : Bool
+  logic : Bool
+  spacing : Int
+  grid3d : Bool
+  instVis : Option Int
+  views : Option (List View)
+
+theorem viewKids_parse (m : VMap) (hi : InstVisOK m.instVis) (hv : ViewsOK m.views) :
+    getBool "bSnapToGrid" true (viewKids m) = m.snap ∧
+    getBool "bShowGrid" true (viewKids m) = m.grid ∧
+    getBool "bShowLogicalGrid" false (viewKids m) = m.logic ∧
+    getInt "nGridSpacing" 64 (viewKids m) = m.spacing ∧
+    getBool "bShow3DGrid" false (viewKids m) = m.grid3d ∧
+    parseInstVis (viewKids m) = m.instVis ∧
+    parseViews (viewKids m) = .ok m.views := by
+  unfold viewKids
+  cases hiv : m.instVis with
+  | none =>
+    cases hvv : m.views with
+    | none =>
+      refine ⟨?_, ?_, ?_, ?_, ?_, ?_, ?_⟩ <;>
+        simp [getBool, getInt, getLeaf, findLast, findKey, parseInstVis, parseViews, named, KV.fname, KV.name, kLeaf, kBool,
+          kInt, KV.isBlock, lower, boolLookup_boolStr, parseInt_showInt]
+    | some vs =>
+      rw [hvv] at hv
+      obtain ⟨a, b, c, d, rfl, ha, hb, hc, hd⟩ := hv
+      refine ⟨?_, ?_, ?_, ?_, ?_, ?_, ?_⟩
+      · simp [getBool, getLeaf, findLast, named, KV.fname, KV.name, kLeaf, kBool, kInt, kBlock, KV.isBlock, lower, boolLookup_boolStr]
+      · simp [getBool, getLeaf, findLast, named, KV.fname, KV.name, kLeaf, kBool, kInt, kBlock, KV.isBlock, lower, boolLookup_boolStr]
+      · simp [getBool, getLeaf, findLast, named, KV.fname, KV.name, kLeaf, kBool, kInt, kBlock, KV.isBlock, lower, boolLookup_boolStr]
+      · simp [getInt, getLeaf, findLast, named, KV.fname, KV.name, kLeaf, kBool, kInt, kBlock, KV.isBlock, lower, parseInt_showInt]
+      · simp [getBool, getLeaf, findLast, named, KV.fname, KV.name, kLeaf, kBool, kInt, kBlock, KV.isBlock, lower, boolLookup_boolStr]
+      · simp [parseInstVis, getLeaf, findLast, named, KV.fname, KV.name, kLeaf, kBool, kInt, kBlock, KV.isBlock, lower]
+      · simp only [List.nil_append]
+        exact parseViews_export _ a b c d ha hb hc hd
+  | some iv =>
+    rw [hiv] at hi
+    have hpi : parseInstVis ([kBool "bSnapToGrid" m.snap, kBool "bShowGrid" m.grid, kBool "bShowLogicalGrid" m.logic,
+        kInt "nGridSpacing" m.spacing, kBool "bShow3DGrid" m.grid3d] ++ [kInt "nInstanceVisibility" iv]) = some iv := by
+      simp only [parseInstVis]
+      have : getLeaf "nInstanceVisibility" ([kBool "bSnapToGrid" m.snap, kBool "bShowGrid" m.grid, kBool "bShowLogicalGrid" m.logic,
+        kInt "nGridSpacing" m.spacing, kBool "bShow3DGrid" m.grid3d] ++ [kInt "nInstanceVisibility" iv]) = some (showInt iv) := by
+        simp [getLeaf, findLast, named, KV.fname, KV.name, kLeaf, kBool, kInt, KV.isBlock, lower]
+      rw [this]
+      simp only [parseInt_showInt]
+      rcases hi with rfl | rfl | rfl <;> rfl
+    cases hvv : m.views with
+    | none =>
+      refine ⟨?_, ?_, ?_, ?_, ?_, ?_, ?_⟩
+      · simp [getBool, getLeaf, findLast, named, KV.fname, KV.name, kLeaf, kBool, kInt, kBlock, KV.isBlock, lower, boolLookup_boolStr]
+      · simp [getBool, getLeaf, findLast, named, KV.fname, KV.name, kLeaf, kBool, kInt, kBlock, KV.isBlock, lower, boolLookup_boolStr]
+      · simp [getBool, getLeaf, findLast, named, KV.fname, KV.name, kLeaf, kBool, kInt, kBlock, KV.isBlock, lower, boolLookup_boolStr]
+      · simp [getInt, getLeaf, findLast, named, KV.fname, KV.name, kLeaf, kBool, kInt, kBlock, KV.isBlock, lower, parseInt_showInt]
+      · simp [getBool, getLeaf, findLast, named, KV.fname, KV.name, kLeaf, kBool, kInt, kBlock, KV.isBlock, lower, boolLookup_boolStr]
+      · simpa using hpi
+      · simp [parseViews, findKey, findLast, named, KV.fname, KV.name, kLeaf, kBool, kInt, lower]
+    | some vs =>
+      rw [hvv] at hv
+      obtain ⟨a, b, c, d, rfl, ha, hb, hc, hd⟩ := hv
+      refine ⟨?_, ?_, ?_, ?_, ?_, ?_, ?_⟩
+      · simp [getBool, getLeaf, findLast, named, KV.fname, KV.name, kLeaf, kBool, kInt, kBlock, KV.isBlock, lower, boolLookup_boolStr]
+      · simp [getBool, getLeaf, findLast, named, KV.fname, KV.name, kLeaf, kBool, kInt, kBlock, KV.isBlock, lower, boolLookup_boolStr]
+      · simp [getBool, getLeaf, findLast, named, KV.fname, KV.name, kLeaf, kBool, kInt, kBlock, KV.isBlock, lower, boolLookup_boolStr]
+      · simp [getInt, getLeaf, findLast, named, KV.fname, KV.name, kLeaf, kBool, kInt, kBlock, KV.isBlock, lower, parseInt_showInt]
+      · simp [getBool, getLeaf, findLast, named, KV.fname, KV.name, kLeaf, kBool, kInt, kBlock, KV.isBlock, lower, boolLookup_boolStr]
+      · have : getLeaf "nInstanceVisibility" ([kBool "bSnapToGrid" m.snap, kBool "bShowGrid" m.grid, kBool "bShowLogicalGrid" m.logic,
+            kInt "nGridSpacing" m.spacing, kBool "bShow3DGrid" m.grid3d] ++
+            ([kInt "nInstanceVisibility" iv] ++ [kBlock "views" (exportViews viewTitles [a, b, c, d])])) = some (showInt iv) := by
+          simp [getLeaf, findLast, named, KV.fname, KV.name, kLeaf, kBool, kInt, kBlock, KV.isBlock, lower]
+        simp only [parseInstVis, this, parseInt_showInt]
+        rcases hi with rfl | rfl | rfl <;> rfl
+      · rw [← List.append_assoc]
+        exact parseViews_export _ a b c d ha hb hc hd
+
+
+
+
+/-- the map `parseRaw` reads from `exportTree o m` (ids as written, before `assignIds`). -/
+def rawRT (o : ExportOpts) (m : VMap) : VMap :=
+  { hammerVer := m.hammerVer, hammerBuild := m.hammerBuild, mapVer := exportedVer o m, formatVer := 100,
+    prefab := m.prefab, vis := m.vis,
+    snap := if o.minimal then true else m.snap, grid := if o.minimal then true else m.grid,
+    logic := if o.minimal then false else m.logic, spacing := if o.minimal then 64 else m.spacing,
+    grid3d := if o.minimal then false else m.grid3d,
+    instVis := if o.minimal then none else m.instVis, views := if o.minimal then none else m.views,
+    spawn := entRT o.multiblend true false (spawnForExport o m), groups := m.groups,
+    ents := m.ents.map (fun e => entRT o.multiblend false e.hidden e),
+    activeCam := if o.minimal then -1 else (if m.cams.isEmpty then -1 else m.activeCam),
+    cams := if o.minimal then [] else m.cams,
+    cordonOn := if o.minimal then false else (if m.cordons.isEmpty then false else m.cordonOn),
+    cordons := if o.minimal then [] else m.cordons,
+    quickhide := if m.quickhide > 0 then m.quickhide else 0 }
+
+theorem keyNameOK_mapversion : KeyNameOK (lit "mapversion") = true := by decide
+theorem keyNameOK_classname : KeyNameOK (lit "classname") = true := by decide
+
+theorem entOK1_spawnForExport (o : ExportOpts) (m : VMap) (h : EntOK1 m.spawn) : EntOK1 (spawnForExport o m) := by
+  refine { h with keyNames := ?_, keysDistinct := ?_ }
+  · intro kv hkv
+    simp only [spawnForExport] at hkv
+    rcases entSetKey_mem _ _ _ kv hkv with h1 | ⟨h1, _⟩
+    · rcases entSetKey_mem _ _ _ kv h1 with h2 | ⟨h2, _⟩
+      · exact h.keyNames kv h2
+      · simp only [KeyNameOK, h2]; decide
+    · simp only [KeyNameOK, h1]; decide
+  · simp only [spawnForExport]
+    exact keysDistinct_entSetKey _ _ _ (keysDistinct_entSetKey _ _ _ h.keysDistinct)
+
+theorem spawn_classname_idem (o : ExportOpts) (m : VMap) (h : EntOK1 m.spawn) :
+    entSetKey (isort keyLe (spawnForExport o m).keys) (lit "classname") (lit "worldspawn")
+      = isort keyLe (spawnForExport o m).keys := by
+  apply entSetKey_idem
+  · exact keysDistinct_isort (entOK1_spawnForExport o m h).keysDistinct
+  · obtain ⟨kv, hm, hk⟩ := entSetKey_has
+      (entSetKey m.spawn.keys (lit "mapversion") (showInt (exportedVer o m))) (lit "classname") (lit "worldspawn")
+    exact ⟨kv, (mem_isort _ _ _).mpr (by simpa [spawnForExport] using hm), hk⟩
+
+theorem parseRaw_export (o : ExportOpts) (m : VMap) (h : MapOK1 m) :
+    parseRaw (exportTree o m) = .ok (rawRT o m) := by
+  have hshape := exportEnt_shape o.multiblend m.ents
+  have hsp := entOK1_spawnForExport o m h.spawn
+  have hworld : exportEnt o.multiblend true m.groups (spawnForExport o m)
+      = kBlock "world" (entKids o.multiblend true m.groups (spawnForExport o m)) := by
+    have : (spawnForExport o m).hidden = false := h.spawnVisible
+    simp [exportEnt, maybeHidden, this, entBlock]
+  obtain ⟨v1, v2, v3, v4, v5, v6, v7⟩ := viewKids_parse m h.instVis h.views
+  unfold parseRaw exportTree
+  rw [hworld]
+  simp only [root_versioninfo _ _ _ _ _ _ _ _ _ _ hshape, root_viewsettings _ _ _ _ _ _ _ _ _ _ hshape,
+    root_cameras _ _ _ _ _ _ _ _ _ _ hshape, root_cordons _ _ _ _ _ _ _ _ _ _ hshape,
+    root_quickhide _ _ _ _ _ _ _ _ _ _ hshape, root_world _ _ _ _ _ _ _ _ _ _ hshape,
+    root_visgroups _ _ _ _ _ _ _ _ _ _ hshape, root_ents]
+  have hfv : getLeaf "formatversion" (verKids o m) = some (lit "100") := by
+    unfold verKids
+    rw [h.format]
+    kv_simp
+    decide
+  rw [hfv]
+  simp only [Option.getD_some, bne_self_eq_false, Bool.false_eq_true, if_false]
+  rw [parseVisAll_export m.vis h.vis]
+  have hw := parseEnt_block o.multiblend true false m.groups (spawnForExport o m) hsp h.groups
+  simp only [entBlock, if_true] at hw
+  have hents := parseRootEnts_export o.multiblend m.ents h.ents
+  have hv : getInt "editorversion" 400 (verKids o m) = m.hammerVer ∧
+      getInt "editorbuild" 5304 (verKids o m) = m.hammerBuild ∧
+      getInt "mapversion" 0 (verKids o m) = exportedVer o m ∧
+      getBool "prefab" false (verKids o m) = m.prefab := by
+    unfold verKids
+    refine ⟨?_, ?_, ?_, ?_⟩ <;>
+      simp [getInt, getBool, getLeaf, findLast, named, KV.fname, KV.name, kLeaf, kBool, kInt, KV.isBlock, lower,
+        boolLookup_boolStr, parseInt_showInt]
+  obtain ⟨hv1, hv2, hv3, hv4⟩ := hv
+  have hq : getInt "count" 0 (if decide (m.quickhide > 0) = true then [kInt "count" m.quickhide] else [])
+      = (if m.quickhide > 0 then m.quickhide else 0) := by
+    by_cases hq : m.quickhide > 0
+    · simp [hq, getInt, getLeaf, findLast, named, KV.fname, KV.name, kLeaf, kInt, KV.isBlock, lower, parseInt_showInt]
+    · simp [hq, getInt, getLeaf, findLast]
+  cases hmin : o.minimal with
+  | true =>
+    simp only [if_true]
+    have hpv : parseViews [] = .ok none := by simp [parseViews, findKey, findLast]
+    rw [hpv]
+    simp only [parseCams, parseCordons, hw, hents, hv1, hv2, hv3, hv4, hq]
+    simp [rawRT, hmin, getBool, getInt, getLeaf, findLast, parseInstVis, spawn_classname_idem o m h.spawn, entRT]
+  | false =>
+    simp only [Bool.false_eq_true, if_false]
+    rw [v7]
+    simp only []
+    have hcam : parseCams (camKids m) = .ok m.cams := parseCams_export _ _ h.cams
+    have hcord : parseCordons (cordonKids m) = .ok m.cordons := by
+      unfold cordonKids
+      cases hc : m.cordons with
+      | nil => simp [parseCordons, named, KV.fname, KV.name, kLeaf, lower]
+      | cons c r =>
+        simp only [List.isEmpty_cons, Bool.false_eq_true, if_false]
+        exact parseCordons_export _ _ (by rw [← hc]; exact h.cordons)
+    rw [hcam, hcord]
+    simp only [hw, hents, hv1, hv2, hv3, hv4, hq, v1, v2, v3, v4, v5, v6]
+    have hac : getInt "activecamera" (-1) (camKids m) = (if m.cams.isEmpty then -1 else m.activeCam) := by
+      unfold camKids getInt
+      have := getLeaf_append_blocks "activecamera" [kInt "activecamera" (if m.cams.isEmpty then -1 else m.activeCam)]
+        (m.cams.map exportCam) (by
+          intro k hk
+          simp only [List.mem_map] at hk
+          obtain ⟨c, _, rfl⟩ := hk
+          simp [exportCam, kBlock, KV.isBlock])
+      simp only [List.singleton_append] at this
+      rw [this]
+      kv_simp
+      simp [parseInt_showInt]
+    have hco : getBool "active" false (cordonKids m) = (if m.cordons.isEmpty then false else m.cordonOn) := by
+      unfold cordonKids getBool
+      cases hc : m.cordons with
+      | nil => simp [getLeaf, findLast, named, KV.fname, KV.name, kLeaf, KV.isBlock, lower]; decide
+      | cons c r =>
+        simp only [List.isEmpty_cons, Bool.false_eq_true, if_false]
+        have := getLeaf_append_blocks "active" [kBool "active" m.cordonOn] ((c :: r).map exportCordon) (by
+          intro k hk
+          simp only [List.mem_map] at hk
+          obtain ⟨c, _, rfl⟩ := hk
+          simp [exportCordon, kBlock, KV.isBlock])
+        simp only [List.singleton_append] at this
+        rw [this]
+        kv_simp
+        simp [boolLookup_boolStr]
+    rw [hac, hco]
+    simp [rawRT, hmin, spawn_classname_idem o m h.spawn, entRT]
+
+
+
+
+/-! ### id allocation with `preserve_ids = True` -/
+
+theorem get_preserve (m : IdMan) (d : Int) (h : d ≠ -1) : (m.get true d).1 = d := by
+  have : (d == -1) = false := by simpa using h
+  simp [IdMan.get, this]
+
+mutual
+def VisIdsOK : Vis → Bool
+  | .mk _ id _ children => decide (id ≠ -1) && VisListIdsOK children
+def VisListIdsOK : List Vis → Bool
+  | [] => true
+  | v :: vs => VisIdsOK v && VisListIdsOK vs
+end
+
+mutual
+theorem assignVis_preserve : (v : Vis) → (m : IdMan) → VisIdsOK v = true → (assignVisAux true v m).1 = v
+  | .mk name id color children, m, h => by
+    simp only [VisIdsOK, Bool.and_eq_true, decide_eq_true_eq] at h
+    simp only [assignVisAux]
+    rw [assignVisList_preserve children m h.2, get_preserve _ _ h.1]
+theorem assignVisList_preserve : (vs : List Vis) → (m : IdMan) → VisListIdsOK vs = true →
+    (assignVisAux.assignVisList true vs m).1 = vs
+  | [], _, _ => rfl
+  | v :: vs, m, h => by
+    simp only [VisListIdsOK, Bool.and_eq_true] at h
+    simp only [assignVisAux.assignVisList]
+    rw [assignVis_preserve v m h.1, assignVisList_preserve vs _ h.2]
+end
+
+theorem assignSides_preserve (ss : List Side) (m : IdMan) (h : ∀ s ∈ ss, s.id ≠ -1) :
+    (assignSides true ss m).1 = ss := by
+  induction ss generalizing m with
+  | nil => rfl
+  | cons s r ih =>
+    simp only [assignSides]
+    rw [get_preserve _ _ (h s (by simp)), ih _ (fun x hx => h x (by simp [hx]))]
+
+abbrev SolidIdsOK (s : Solid) : Prop := s.id ≠ -1 ∧ ∀ sd ∈ s.sides, sd.id ≠ -1
+
+theorem assignSolids_preserve (ss : List Solid) (st : Ids) (h : ∀ s ∈ ss, SolidIdsOK s) :
+    (assignSolids true ss st).1 = ss := by
+  induction ss generalizing st with
+  | nil => rfl
+  | cons s r ih =>
+    have hs := h s (by simp)
+    simp only [assignSolids]
+    rw [assignSides_preserve _ _ hs.2, get_preserve _ _ hs.1, ih _ (fun x hx => h x (by simp [hx]))]
+
+def fixLogical (e : Ent) : Ent :=
+  { e with logicalPos := if e.logicalPos.isEmpty then defaultLogical e.id else e.logicalPos }
+
+abbrev EntIdsOK (e : Ent) : Prop := e.id ≠ -1 ∧ ∀ s ∈ e.solids, SolidIdsOK s
+
+theorem assignEnt_preserve (e : Ent) (st : Ids) (h : EntIdsOK e) : (assignEnt true e st).1 = fixLogical e := by
+  simp only [assignEnt, fixLogical]
+  rw [assignSolids_preserve _ _ h.2, get_preserve _ _ h.1]
+
+theorem assignEnts_preserve (es : List Ent) (st : Ids) (h : ∀ e ∈ es, EntIdsOK e) :
+    (assignEnts true es st).1 = es.map fixLogical := by
+  induction es generalizing st with
+  | nil => rfl
+  | cons e r ih =>
+    simp only [assignEnts, List.map_cons]
+    rw [assignEnt_preserve _ _ (h e (by simp)), ih _ (fun x hx => h x (by simp [hx]))]
+
+theorem assignGroups_preserve (gs : List Group) (m : IdMan) (acc : List Group)
+    (h1 : ∀ g ∈ gs, g.id ≠ -1) (h2 : ((acc ++ gs).map (·.id)).Nodup) :
+    (assignGroups true gs m acc).1 = acc ++ gs := by
+  induction gs generalizing m acc with
+  | nil => simp [assignGroups]
+  | cons g r ih =>
+    simp only [assignGroups]
+    rw [get_preserve _ _ (h1 g (by simp))]
+    have hnot : acc.any (fun x => x.id == g.id) = false := by
+      simp only [List.any_eq_false, beq_iff_eq]
+      intro x hx e
+      simp only [List.map_append, List.map_cons, List.nodup_append] at h2
+      exact h2.2.2 x.id (by simp only [List.mem_map]; exact ⟨x, hx, rfl⟩) g.id (by simp) e
+    have hg : ({ g with id := g.id } : Group) = g := by cases g; rfl
+    simp only [hnot, Bool.false_eq_true, if_false, hg]
+    rw [ih _ _ (fun x hx => h1 x (by simp [hx])) (by simpa using h2)]
+    simp
+
+/-- ids that `preserve_ids=True` keeps: none is the "allocate" marker `-1`; group ids distinct
+(they key the `groups` dict). -/
+structure IdsOK (m : VMap) : Prop where
+  vis : VisListIdsOK m.vis = true
+  groups : ∀ g ∈ m.groups, g.id ≠ -1
+  groupsDistinct : (m.groups.map (·.id)).Nodup
+  spawn : EntIdsOK m.spawn
+  ents : ∀ e ∈ m.ents, EntIdsOK e
+
+theorem assignIds_preserve (m : VMap) (h : IdsOK m) :
+    assignIds true m = { m with spawn := fixLogical m.spawn, ents := m.ents.map fixLogical } := by
+  simp only [assignIds]
+  rw [assignVisList_preserve _ _ h.vis, assignGroups_preserve _ _ [] h.groups (by simpa using h.groupsDistinct),
+    assignEnt_preserve _ _ h.spawn, assignEnts_preserve _ _ h.ents]
+  simp
+
+
+
+
+theorem projSide_of_nodisp (mb : Bool) (s : Side) (h : s.disp = none) : projSide mb s = s := by
+  cases s
+  simp_all [projSide]
+
+theorem projSolid_eq (mb w : Bool) (s : Solid) : projSolid mb w s = solidRT mb w s.hidden s := by
+  cases s
+  simp [projSolid, solidRT]
+
+theorem projEnt_eq (mb w : Bool) (e : Ent) (h : EntOK1 e) :
+    fixLogical (entRT mb w (if w then false else e.hidden) e) = projEnt mb w e := by
+  have hs : e.solids.map (projSolid mb w) = e.solids.map (fun s => solidRT mb w s.hidden s) :=
+    List.map_congr_left (fun s _ => projSolid_eq mb w s)
+  cases w <;> cases hl : e.logicalPos <;>
+    simp [fixLogical, entRT, projEnt, hs, hl]
+
+theorem idsOK_rawRT (o : ExportOpts) (m : VMap) (h : IdsOK m) : IdsOK (rawRT o m) := by
+  have solidsOK : ∀ (mb w : Bool) (ss : List Solid), (∀ s ∈ ss, SolidIdsOK s) →
+      ∀ s ∈ ss.map (fun s => solidRT mb w s.hidden s), SolidIdsOK s := by
+    intro mb w ss hss s hs
+    simp only [List.mem_map] at hs
+    obtain ⟨t, ht, rfl⟩ := hs
+    refine ⟨(hss t ht).1, ?_⟩
+    intro sd hsd
+    simp only [solidRT, List.mem_map] at hsd
+    obtain ⟨sd0, hsd0, rfl⟩ := hsd
+    have := (hss t ht).2 sd0 hsd0
+    cases sd0
+    simpa [projSide] using this
+  refine ⟨h.vis, h.groups, h.groupsDistinct, ⟨h.spawn.1, ?_⟩, ?_⟩
+  · exact solidsOK _ true _ h.spawn.2
+  · intro e he
+    simp only [rawRT, List.mem_map] at he
+    obtain ⟨t, ht, rfl⟩ := he
+    exact ⟨(h.ents t ht).1, solidsOK _ false _ (h.ents t ht).2⟩
+
+theorem fix_rawRT_eq_project (o : ExportOpts) (m : VMap) (h : MapOK1 m) :
+    ({ rawRT o m with spawn := fixLogical (rawRT o m).spawn, ents := (rawRT o m).ents.map fixLogical } : VMap)
+      = project o m := by
+  have hsp := entOK1_spawnForExport o m h.spawn
+  have e1 : fixLogical (rawRT o m).spawn = projEnt o.multiblend true (spawnForExport o m) := by
+    have := projEnt_eq o.multiblend true (spawnForExport o m) hsp
+    simpa [rawRT] using this
+  have e2 : (rawRT o m).ents.map fixLogical = m.ents.map (projEnt o.multiblend false) := by
+    simp only [rawRT, List.map_map]
+    apply List.map_congr_left
+    intro e he
+    have := projEnt_eq o.multiblend false e (h.ents e he)
+    simpa using this
+  rw [e1, e2]
+  cases hmin : o.minimal <;> simp [rawRT, project, hmin]
+
+
+
+
+/-! ### sortedness -/
+
+structure LeOK {α} (le : α → α → Bool) : Prop where
+  total : ∀ a b, le a b = true ∨ le b a = true
+  trans : ∀ a b c, le a b = true → le b c = true → le a c = true
+
+theorem insertBy_sorted {α} {le : α → α → Bool} (ok : LeOK le) (x : α) (l : List α)
+    (h : l.Pairwise (fun a b => le a b = true)) : (insertBy le x l).Pairwise (fun a b => le a b = true) := by
+  induction l with
+  | nil => simp [insertBy]
+  | cons y ys ih =>
+    simp only [insertBy]
+    have hy := List.pairwise_cons.mp h
+    split
+    · rename_i hxy
+      refine List.pairwise_cons.mpr ⟨?_, h⟩
+      intro z hz
+      simp only [List.mem_cons] at hz
+      rcases hz with rfl | hz
+      · exact hxy
+      · exact ok.trans _ _ _ hxy (hy.1 z hz)
+    · rename_i hxy
+      have hyx : le y x = true := by
+        rcases ok.total x y with h1 | h1
+        · exact absurd h1 hxy
+        · exact h1
+      refine List.pairwise_cons.mpr ⟨?_, ih hy.2⟩
+      intro z hz
+      have := (insertBy_perm le x ys).mem_iff.mp hz
+      simp only [List.mem_cons] at this
+      rcases this with rfl | hz'
+      · exact hyx
+      · exact hy.1 z hz'
+
+theorem isort_sorted {α} {le : α → α → Bool} (ok : LeOK le) (l : List α) :
+    (isort le l).Pairwise (fun a b => le a b = true) := by
+  induction l with
+  | nil => simp [isort]
+  | cons x xs ih => exact insertBy_sorted ok x _ ih
+
+theorem isort_of_sorted {α} (le : α → α → Bool) (l : List α) (h : l.Pairwise (fun a b => le a b = true)) :
+    isort le l = l := by
+  induction l with
+  | nil => rfl
+  | cons x xs ih =>
+    have hx := List.pairwise_cons.mp h
+    simp only [isort, ih hx.2]
+    cases xs with
+    | nil => rfl
+    | cons y ys => simp [insertBy, hx.1 y (by simp)]
+
+theorem isort_idem {α} {le : α → α → Bool} (ok : LeOK le) (l : List α) : isort le (isort le l) = isort le l :=
+  isort_of_sorted le _ (isort_sorted ok l)
+
+theorem strLe_total : ∀ a b : Str, strLe a b = true ∨ strLe b a = true
+  | [], _ => by simp [strLe]
+  | _ :: _, [] => by simp [strLe]
+  | a :: as, b :: bs => by
+    simp only [strLe]
+    by_cases h1 : a.toNat < b.toNat
+    · simp [h1]
+    · by_cases h2 : b.toNat < a.toNat
+      · simp [h2]
+      · simp only [h1, h2, if_false]
+        exact strLe_total as bs
+
+theorem strLe_trans : ∀ a b c : Str, strLe a b = true → strLe b c = true → strLe a c = true
+  | [], _, _, _, _ => by simp [strLe]
+  | _ :: _, [], _, h, _ => by simp [strLe] at h
+  | _ :: _, _ :: _, [], _, h => by simp [strLe] at h
+  | a :: as, b :: bs, c :: cs, h1, h2 => by
+    simp only [strLe] at h1 h2 ⊢
+    by_cases hab : a.toNat < b.toNat
+    · by_cases hbc : b.toNat < c.toNat
+      · have : a.toNat < c.toNat := by omega
+        simp [this]
+      · by_cases hcb : c.toNat < b.toNat
+        · simp [hbc, hcb] at h2
+        · have : a.toNat < c.toNat := by omega
+          simp [this]
+    · by_cases hba : b.toNat < a.toNat
+      · simp [hab, hba] at h1
+      · simp only [hab, hba, if_false] at h1
+        have hEq : a.toNat = b.toNat := by omega
+        by_cases hbc : b.toNat < c.toNat
+        · have : a.toNat < c.toNat := by omega
+          simp [this]
+        · by_cases hcb : c.toNat < b.toNat
+          · simp [hbc, hcb] at h2
+          · simp only [hbc, hcb, if_false] at h2
+            have h3 : ¬ a.toNat < c.toNat := by omega
+            have h4 : ¬ c.toNat < a.toNat := by omega
+            simp only [h3, h4, if_false]
+            exact strLe_trans as bs cs h1 h2
+
+theorem keyLe_ok : LeOK keyLe :=
+  ⟨fun a b => strLe_total a.1 b.1, fun a b c => strLe_trans a.1 b.1 c.1⟩
+
+theorem intLe_ok : LeOK intLe :=
+  ⟨fun a b => by simp only [intLe, decide_eq_true_eq]; omega,
+   fun a b c => by simp only [intLe, decide_eq_true_eq]; omega⟩
+
+theorem fixLe_ok : LeOK fixLe :=
+  ⟨fun a b => by simp only [fixLe, decide_eq_true_eq]; omega,
+   fun a b c => by simp only [fixLe, decide_eq_true_eq]; omega⟩
+
+
+
+
+/-! ### the second export -/
+
+theorem expName_normInst (i : Option Str) (n : Str) : expName (normInst i) n = expName i n := by
+  cases i with
+  | none => rfl
+  | some s => by_cases h : s.isEmpty = true <;> simp [normInst, expName, h]
+
+theorem exportOut_projOut (x : Out) : exportOut (projOut x) = exportOut x := by
+  rw [projOut_eq]
+  simp [exportOut, expName_normInst]
+
+theorem exportSolid_projSolid (mb w : Bool) (s : Solid) (hnd : ∀ sd ∈ s.sides, sd.disp = none) :
+    exportSolid mb w (projSolid mb w s) = exportSolid mb w s := by
+  rw [projSolid_eq mb w s]
+  have hsides : s.sides.map (projSide mb) = s.sides := by
+    have := List.map_congr_left (l := s.sides) (f := projSide mb) (g := id)
+      (fun x hx => projSide_of_nodisp mb x (hnd x hx))
+    simpa using this
+  cases w <;> simp [exportSolid, solidRT, solidBlock, solidEditor, isort_idem intLe_ok, hsides]
+
+theorem go_keeps (k v : Str) (ks : List (Str × Str)) (kv : Str × Str) (hm : kv ∈ ks)
+    (hne : lower kv.1 ≠ lower k) : kv ∈ entSetKey.go k v ks := by
+  induction ks with
+  | nil => simp at hm
+  | cons a r ih =>
+    simp only [entSetKey.go]
+    simp only [List.mem_cons] at hm
+    split
+    · rename_i heq
+      rcases hm with rfl | hm
+      · exact absurd (by simpa using heq) hne
+      · simp [hm]
+    · rcases hm with rfl | hm
+      · simp
+      · simp [ih hm]
+
+theorem entSetKey_keeps (ks : List (Str × Str)) (k v : Str) (kv : Str × Str) (hm : kv ∈ ks)
+    (hne : lower kv.1 ≠ lower k) : kv ∈ entSetKey ks k v := by
+  unfold entSetKey
+  split
+  · exact go_keeps k v ks kv hm hne
+  · exact List.mem_append_left _ hm
+
+/-- the editor fields of an entity that a second export writes again unchanged -/
+def EntFP (w : Bool) (e : Ent) : Prop := if w then e.hidden = false else e.logicalPos ≠ []
+
+/-- no face of the entity carries displacement data (the second-export theorem does not cover it yet) -/
+abbrev EntNoDisp (e : Ent) : Prop := ∀ s ∈ e.solids, ∀ sd ∈ s.sides, sd.disp = none
+
+theorem exportEnt_projEnt (mb w : Bool) (groups : List Group) (e : Ent) (h : EntOK1 e) (hf : EntFP w e)
+    (hnd : EntNoDisp e) :
+    exportEnt mb w groups (projEnt mb w e) = exportEnt mb w groups e := by
+  have hs : (e.solids.map (projSolid mb w)).map (exportSolid mb w) = e.solids.map (exportSolid mb w) := by
+    rw [List.map_map]
+    exact List.map_congr_left (fun s hs => exportSolid_projSolid mb w s (hnd s hs))
+  have ho : (e.outputs.map projOut).map exportOut = e.outputs.map exportOut := by
+    rw [List.map_map]
+    exact List.map_congr_left (fun s _ => exportOut_projOut s)
+  have hoe : (e.outputs.map projOut).isEmpty = e.outputs.isEmpty := by cases e.outputs <;> rfl
+  cases w with
+  | true =>
+    simp only [EntFP, if_true] at hf
+    simp [exportEnt, projEnt, entBlock, entKids, entEditor, hs, ho, hoe, hf, isort_idem keyLe_ok, isort_idem fixLe_ok]
+  | false =>
+    simp only [EntFP, Bool.false_eq_true, if_false] at hf
+    have hl : e.logicalPos.isEmpty = false := by cases hlp : e.logicalPos <;> simp_all
+    simp [exportEnt, projEnt, entBlock, entKids, entEditor, hs, ho, hoe, hl, isort_idem keyLe_ok, isort_idem fixLe_ok,
+      isort_idem intLe_ok]
+
+theorem spawnForExport_project (o : ExportOpts) (m : VMap) (h : MapOK1 m) :
+    spawnForExport { o with incVersion := false } (project o m) = projEnt o.multiblend true (spawnForExport o m) := by
+  have hsp := entOK1_spawnForExport o m h.spawn
+  have hd := keysDistinct_isort hsp.keysDistinct
+  have hps : (project o m).spawn = projEnt o.multiblend true (spawnForExport o m) := by
+    cases hmin : o.minimal <;> simp [project, hmin]
+  have hver : exportedVer { o with incVersion := false } (project o m) = exportedVer o m := by
+    cases hmin : o.minimal <;> simp [exportedVer, project, hmin]
+  have hkeys : (projEnt o.multiblend true (spawnForExport o m)).keys = isort keyLe (spawnForExport o m).keys := rfl
+  -- the mapversion and classname entries are already there
+  obtain ⟨kv1, hm1, hk1, hv1⟩ := entSetKey_has m.spawn.keys (lit "mapversion") (showInt (exportedVer o m))
+  have hm1' : kv1 ∈ (spawnForExport o m).keys := by
+    simp only [spawnForExport]
+    exact entSetKey_keeps _ _ _ kv1 hm1 (by rw [hk1]; decide)
+  obtain ⟨kv2, hm2, hk2, hv2⟩ := entSetKey_has
+    (entSetKey m.spawn.keys (lit "mapversion") (showInt (exportedVer o m))) (lit "classname") (lit "worldspawn")
+  have e1 : entSetKey (isort keyLe (spawnForExport o m).keys) (lit "mapversion") (showInt (exportedVer o m))
+      = isort keyLe (spawnForExport o m).keys :=
+    entSetKey_idem _ _ _ hd ⟨kv1, (mem_isort _ _ _).mpr hm1', hk1, hv1⟩
+  have e2 := spawn_classname_idem o m h.spawn
+  have step : ∀ (P : Ent) (ks : List (Str × Str)), ks = P.keys → ({ P with keys := ks } : Ent) = P := by
+    intro P ks h1
+    rw [h1]
+  have lhs : spawnForExport { o with incVersion := false } (project o m)
+      = { (project o m).spawn with keys := (spawnForExport { o with incVersion := false } (project o m)).keys } := rfl
+  have hk : (spawnForExport { o with incVersion := false } (project o m)).keys
+      = (projEnt o.multiblend true (spawnForExport o m)).keys := by
+    show entSetKey (entSetKey (project o m).spawn.keys (lit "mapversion")
+      (showInt (exportedVer { o with incVersion := false } (project o m)))) (lit "classname") (lit "worldspawn") = _
+    rw [hver, hps, hkeys, e1, e2]
+  rw [lhs, hk, hps]
+
+theorem exportTree_project (o : ExportOpts) (m : VMap) (h : MapOK1 m)
+    (hl : ∀ e ∈ m.ents, e.logicalPos ≠ []) (hnd : EntNoDisp m.spawn ∧ ∀ e ∈ m.ents, EntNoDisp e) :
+    exportTree { o with incVersion := false } (project o m) = exportTree o m := by
+  have hsp := entOK1_spawnForExport o m h.spawn
+  have hw : exportEnt o.multiblend true m.groups (spawnForExport { o with incVersion := false } (project o m))
+      = exportEnt o.multiblend true m.groups (spawnForExport o m) := by
+    rw [spawnForExport_project o m h]
+    exact exportEnt_projEnt _ _ _ _ hsp (by simp only [EntFP, if_true]; exact h.spawnVisible) hnd.1
+  have he : (m.ents.map (projEnt o.multiblend false)).map (exportEnt o.multiblend false [])
+      = m.ents.map (exportEnt o.multiblend false []) := by
+    rw [List.map_map]
+    exact List.map_congr_left (fun e he => exportEnt_projEnt _ _ _ e (h.ents e he)
+      (by simp only [EntFP, Bool.false_eq_true, if_false]; exact hl e he) (hnd.2 e he))
+  have hver : exportedVer { o with incVersion := false } (project o m) = exportedVer o m := by
+    cases hmin : o.minimal <;> simp [exportedVer, project, hmin]
+  have hgroups : (project o m).groups = m.groups := by cases hmin : o.minimal <;> simp [project, hmin]
+  have hents : (project o m).ents = m.ents.map (projEnt o.multiblend false) := by
+    cases hmin : o.minimal <;> simp [project, hmin]
+  have hvis : (project o m).vis = m.vis := by cases hmin : o.minimal <;> simp [project, hmin]
+  have hq : (project o m).quickhide = if m.quickhide > 0 then m.quickhide else 0 := by
+    cases hmin : o.minimal <;> simp [project, hmin]
+  have hverK : verKids { o with incVersion := false } (project o m) = verKids o m := by
+    simp only [verKids, hver]
+    cases hmin : o.minimal <;> simp [project, hmin, h.format]
+  unfold exportTree
+  simp only [hgroups, hents, hvis, hverK]
+  rw [hw, he]
+  have hqd : decide ((project o m).quickhide > 0) = decide (m.quickhide > 0) := by
+    rw [hq]; by_cases hq0 : m.quickhide > 0 <;> simp [hq0]
+  rw [hqd]
+  cases hmin : o.minimal with
+  | true =>
+    by_cases hq0 : m.quickhide > 0
+    · simp [rootOf, hq0, hq]
+    · simp [rootOf, hq0]
+  | false =>
+    have hvk : viewKids (project o m) = viewKids m := by simp [viewKids, project, hmin]
+    have hck : camKids (project o m) = camKids m := by
+      cases hc : m.cams <;> simp [camKids, project, hmin, hc]
+    have hok : cordonKids (project o m) = cordonKids m := by
+      cases hc : m.cordons <;> simp [cordonKids, project, hmin, hc]
+    rw [hvk, hck, hok]
+    by_cases hq0 : m.quickhide > 0
+    · simp [rootOf, hq0, hq]
+    · simp [rootOf, hq0]
+
+
+
+
+/-! ### id allocation with `preserve_ids = False` -/
+
+theorem findFree_ge (used : List Int) (fuel : Nat) (pos : Int) : pos ≤ findFree used fuel pos := by
+  induction fuel generalizing pos with
+  | zero => simp [findFree]
+  | succ n ih =>
+    simp only [findFree]
+    split
+    · have := ih (pos + 1); omega
+    · exact Int.le_refl _
+
+theorem filter_len_le (used : List Int) (p q : Int → Bool) (h : ∀ x, q x = true → p x = true) :
+    (used.filter q).length ≤ (used.filter p).length := by
+  induction used with
+  | nil => simp
+  | cons a r ih =>
+    simp only [List.filter]
+    cases hq : q a with
+    | true => simp only [h a hq, List.length_cons]; omega
+    | false =>
+      cases hp : p a with
+      | true => simp only [List.length_cons]; omega
+      | false => exact ih
+
+theorem filter_len_lt (used : List Int) (p q : Int → Bool) (h : ∀ x, q x = true → p x = true)
+    (a : Int) (ha : a ∈ used) (hpa : p a = true) (hqa : q a = false) :
+    (used.filter q).length < (used.filter p).length := by
+  induction used with
+  | nil => simp at ha
+  | cons b r ih =>
+    simp only [List.mem_cons] at ha
+    simp only [List.filter]
+    rcases ha with rfl | ha
+    · simp only [hpa, hqa, List.length_cons]
+      have := filter_len_le r p q h
+      omega
+    · have := ih ha
+      cases hq : q b with
+      | true => simp only [h b hq, List.length_cons]; omega
+      | false =>
+        cases hp : p b with
+        | true => simp only [List.length_cons]; omega
+        | false => exact this
+
+theorem findFree_fresh (used : List Int) (fuel : Nat) (pos : Int)
+    (h : (used.filter (fun x => decide (pos ≤ x))).length < fuel) : findFree used fuel pos ∉ used := by
+  induction fuel generalizing pos with
+  | zero => omega
+  | succ n ih =>
+    simp only [findFree]
+    split
+    · rename_i hc
+      have hmem : pos ∈ used := by simpa using hc
+      apply ih
+      have := filter_len_lt used (fun x => decide (pos ≤ x)) (fun x => decide (pos + 1 ≤ x))
+        (by intro x hx; simp only [decide_eq_true_eq] at hx ⊢; omega) pos hmem (by simp) (by simp only [decide_eq_false_iff_not]; omega)
+      omega
+    · rename_i hc
+      simpa using hc
+
+/-- the manager hands out positive numbers: the search position never drops below 1 -/
+def IdMan.Inv (m : IdMan) : Prop := 1 ≤ m.searchPos
+
+theorem alloc_spec (m : IdMan) (h : m.Inv) :
+    (m.alloc).1 ∉ m.used ∧ 0 < (m.alloc).1 ∧ (m.alloc).2.Inv ∧ (m.alloc).2.used = (m.alloc).1 :: m.used := by
+  have hge := findFree_ge m.used (m.used.length + 1) m.searchPos
+  have hfr : findFree m.used (m.used.length + 1) m.searchPos ∉ m.used := by
+    apply findFree_fresh
+    have := List.length_filter_le (fun x => decide (m.searchPos ≤ x)) m.used
+    omega
+  unfold IdMan.Inv at h
+  refine ⟨hfr, ?_, ?_, rfl⟩
+  · show 0 < findFree m.used (m.used.length + 1) m.searchPos
+    omega
+  · show 1 ≤ findFree m.used (m.used.length + 1) m.searchPos + 1
+    omega
+
+theorem get_false_spec (m : IdMan) (d : Int) (h : m.Inv) :
+    (m.get false d).1 ∉ m.used ∧ 0 < (m.get false d).1 ∧ (m.get false d).2.Inv ∧
+    (m.get false d).2.used = (m.get false d).1 :: m.used := by
+  unfold IdMan.get
+  simp only [Bool.false_eq_true, if_false]
+  split
+  · rename_i hc
+    simp only [Bool.and_eq_true, decide_eq_true_eq, Bool.not_eq_true', List.contains_eq_mem,
+      decide_eq_false_iff_not] at hc
+    exact ⟨hc.2, hc.1, h, rfl⟩
+  · exact alloc_spec m h
+
+/-- `ids` were handed out by the manager on the way from `m` to `m'` -/
+structure Fresh (m m' : IdMan) (ids : List Int) : Prop where
+  nodup : ids.Nodup
+  pos : ∀ i ∈ ids, 0 < i
+  new : ∀ i ∈ ids, i ∉ m.used
+  used : ∀ x, x ∈ m'.used ↔ (x ∈ ids ∨ x ∈ m.used)
+  inv : m'.Inv
+
+theorem Fresh.nil (m : IdMan) (h : m.Inv) : Fresh m m [] :=
+  ⟨List.nodup_nil, by simp, by simp, by simp, h⟩
+
+theorem Fresh.trans {m m' m'' : IdMan} {a b : List Int} (h1 : Fresh m m' a) (h2 : Fresh m' m'' b) :
+    Fresh m m'' (a ++ b) := by
+  refine ⟨?_, ?_, ?_, ?_, h2.inv⟩
+  · rw [List.nodup_append]
+    refine ⟨h1.nodup, h2.nodup, ?_⟩
+    intro x hx y hy e
+    subst e
+    exact h2.new x hy ((h1.used x).mpr (Or.inl hx))
+  · intro i hi
+    simp only [List.mem_append] at hi
+    rcases hi with hi | hi
+    · exact h1.pos i hi
+    · exact h2.pos i hi
+  · intro i hi
+    simp only [List.mem_append] at hi
+    rcases hi with hi | hi
+    · exact h1.new i hi
+    · intro hm; exact h2.new i hi ((h1.used i).mpr (Or.inr hm))
+  · intro x
+    rw [h2.used, h1.used]
+    simp only [List.mem_append]
+    constructor
+    · rintro (h | h | h)
+      · exact Or.inl (Or.inr h)
+      · exact Or.inl (Or.inl h)
+      · exact Or.inr h
+    · rintro ((h | h) | h)
+      · exact Or.inr (Or.inl h)
+      · exact Or.inl h
+      · exact Or.inr (Or.inr h)
+
+theorem Fresh.get (m : IdMan) (d : Int) (h : m.Inv) : Fresh m (m.get false d).2 [(m.get false d).1] := by
+  obtain ⟨h1, h2, h3, h4⟩ := get_false_spec m d h
+  refine ⟨by simp, by simpa using h2, by simpa using h1, ?_, h3⟩
+  intro x
+  rw [h4]
+  simp
+
+
+
+
+mutual
+def visIdsA : Vis → List Int
+  | .mk _ id _ ch => visIdsLA ch ++ [id]
+def visIdsLA : List Vis → List Int
+  | [] => []
+  | v :: vs => visIdsA v ++ visIdsLA vs
+end
+
+mutual
+theorem assignVis_fresh : (v : Vis) → (m : IdMan) → m.Inv →
+    Fresh m (assignVisAux false v m).2 (visIdsA (assignVisAux false v m).1)
+  | .mk name id color children, m, h => by
+    simp only [assignVisAux, visIdsA]
+    have h1 := assignVisList_fresh children m h
+    exact h1.trans (Fresh.get _ id h1.inv)
+theorem assignVisList_fresh : (vs : List Vis) → (m : IdMan) → m.Inv →
+    Fresh m (assignVisAux.assignVisList false vs m).2 (visIdsLA (assignVisAux.assignVisList false vs m).1)
+  | [], m, h => by simpa [assignVisAux.assignVisList, visIdsLA] using Fresh.nil m h
+  | v :: vs, m, h => by
+    simp only [assignVisAux.assignVisList, visIdsLA]
+    have h1 := assignVis_fresh v m h
+    exact h1.trans (assignVisList_fresh vs _ h1.inv)
+end
+
+def faceIds (ss : List Side) : List Int := ss.map (·.id)
+
+theorem assignSides_fresh (ss : List Side) (m : IdMan) (h : m.Inv) :
+    Fresh m (assignSides false ss m).2 (faceIds (assignSides false ss m).1) := by
+  induction ss generalizing m with
+  | nil => simpa [assignSides, faceIds] using Fresh.nil m h
+  | cons s r ih =>
+    simp only [assignSides, faceIds, List.map_cons]
+    have h1 := Fresh.get m s.id h
+    have := h1.trans (ih _ h1.inv)
+    simpa [faceIds] using this
+
+def solidIds (ss : List Solid) : List Int := ss.map (·.id)
+def solidFaceIds (ss : List Solid) : List Int := ss.flatMap (fun s => faceIds s.sides)
+
+theorem assignSolids_fresh (ss : List Solid) (st : Ids) (hf : st.face.Inv) (hs : st.solid.Inv) :
+    Fresh st.face (assignSolids false ss st).2.face (solidFaceIds (assignSolids false ss st).1) ∧
+    Fresh st.solid (assignSolids false ss st).2.solid (solidIds (assignSolids false ss st).1) ∧
+    (assignSolids false ss st).2.ent = st.ent ∧ (assignSolids false ss st).2.group = st.group ∧
+    (assignSolids false ss st).2.vis = st.vis := by
+  induction ss generalizing st with
+  | nil =>
+    simp only [assignSolids, solidFaceIds, solidIds, List.flatMap_nil, List.map_nil]
+    exact ⟨Fresh.nil _ hf, Fresh.nil _ hs, trivial, trivial, trivial⟩
+  | cons s r ih =>
+    simp only [assignSolids, solidFaceIds, solidIds, List.flatMap_cons, List.map_cons]
+    have h1 := assignSides_fresh s.sides st.face hf
+    have h2 := Fresh.get st.solid s.id hs
+    obtain ⟨i1, i2, i3, i4, i5⟩ := ih { st with face := (assignSides false s.sides st.face).2,
+                                                  solid := (st.solid.get false s.id).2 } h1.inv h2.inv
+    refine ⟨?_, ?_, i3, i4, i5⟩
+    · simpa [solidFaceIds] using h1.trans i1
+    · simpa [solidIds] using h2.trans i2
+
+
+
+
+theorem assignEnt_fresh (e : Ent) (st : Ids) (hf : st.face.Inv) (hs : st.solid.Inv) (he : st.ent.Inv) :
+    Fresh st.face (assignEnt false e st).2.face (solidFaceIds (assignEnt false e st).1.solids) ∧
+    Fresh st.solid (assignEnt false e st).2.solid (solidIds (assignEnt false e st).1.solids) ∧
+    Fresh st.ent (assignEnt false e st).2.ent [(assignEnt false e st).1.id] ∧
+    (assignEnt false e st).2.group = st.group ∧ (assignEnt false e st).2.vis = st.vis := by
+  obtain ⟨i1, i2, i3, i4, i5⟩ := assignSolids_fresh e.solids st hf hs
+  simp only [assignEnt]
+  refine ⟨i1, i2, ?_, i4, i5⟩
+  rw [i3]
+  exact Fresh.get st.ent e.id he
+
+def entSolids (es : List Ent) : List Solid := es.flatMap (·.solids)
+
+theorem solidFaceIds_append (a b : List Solid) : solidFaceIds (a ++ b) = solidFaceIds a ++ solidFaceIds b := by
+  simp [solidFaceIds]
+
+theorem solidIds_append (a b : List Solid) : solidIds (a ++ b) = solidIds a ++ solidIds b := by
+  simp [solidIds]
+
+theorem assignEnts_fresh (es : List Ent) (st : Ids) (hf : st.face.Inv) (hs : st.solid.Inv) (he : st.ent.Inv) :
+    Fresh st.face (assignEnts false es st).2.face (solidFaceIds (entSolids (assignEnts false es st).1)) ∧
+    Fresh st.solid (assignEnts false es st).2.solid (solidIds (entSolids (assignEnts false es st).1)) ∧
+    Fresh st.ent (assignEnts false es st).2.ent ((assignEnts false es st).1.map (·.id)) := by
+  induction es generalizing st with
+  | nil =>
+    simp only [assignEnts, entSolids, List.flatMap_nil, List.map_nil, solidFaceIds, solidIds]
+    exact ⟨Fresh.nil _ hf, Fresh.nil _ hs, Fresh.nil _ he⟩
+  | cons e r ih =>
+    obtain ⟨a1, a2, a3, _, _⟩ := assignEnt_fresh e st hf hs he
+    obtain ⟨b1, b2, b3⟩ := ih (assignEnt false e st).2 a1.inv a2.inv a3.inv
+    simp only [assignEnts, entSolids, List.flatMap_cons, List.map_cons, solidFaceIds_append, solidIds_append]
+    exact ⟨a1.trans b1, a2.trans b2, by simpa using a3.trans b3⟩
+
+theorem assignGroups_fresh (gs : List Group) (m : IdMan) (acc : List Group) (h : m.Inv)
+    (hacc : ∀ g ∈ acc, g.id ∈ m.used) :
+    ∃ gs', (assignGroups false gs m acc).1 = acc ++ gs' ∧
+      Fresh m (assignGroups false gs m acc).2 (gs'.map (·.id)) := by
+  induction gs generalizing m acc with
+  | nil => exact ⟨[], by simp [assignGroups], by simpa [assignGroups] using Fresh.nil m h⟩
+  | cons g r ih =>
+    obtain ⟨h1, h2, h3, h4⟩ := get_false_spec m g.id h
+    have hf := Fresh.get m g.id h
+    have hnot : acc.any (fun x => x.id == (m.get false g.id).1) = false := by
+      simp only [List.any_eq_false, beq_iff_eq]
+      intro x hx e
+      exact h1 (e ▸ hacc x hx)
+    simp only [assignGroups, hnot, Bool.false_eq_true, if_false]
+    obtain ⟨gs', e1, e2⟩ := ih (m.get false g.id).2 (acc ++ [{ g with id := (m.get false g.id).1 }]) h3 (by
+      intro x hx
+      rw [h4]
+      simp only [List.mem_append, List.mem_singleton] at hx
+      rcases hx with hx | rfl
+      · exact List.mem_cons_of_mem _ (hacc x hx)
+      · simp)
+    refine ⟨{ g with id := (m.get false g.id).1 } :: gs', by simp [e1], ?_⟩
+    simpa using hf.trans e2
+
+/-- after `preserve_ids=False`, every kind of id is pairwise distinct and positive -/
+structure IdsInjective (m : VMap) : Prop where
+  vis : (visIdsLA m.vis).Nodup ∧ ∀ i ∈ visIdsLA m.vis, 0 < i
+  groups : (m.groups.map (·.id)).Nodup ∧ ∀ i ∈ m.groups.map (·.id), 0 < i
+  ents : ((m.spawn :: m.ents).map (·.id)).Nodup ∧ ∀ i ∈ (m.spawn :: m.ents).map (·.id), 0 < i
+  solids : (solidIds (entSolids (m.spawn :: m.ents))).Nodup ∧ ∀ i ∈ solidIds (entSolids (m.spawn :: m.ents)), 0 < i
+  faces : (solidFaceIds (entSolids (m.spawn :: m.ents))).Nodup ∧
+    ∀ i ∈ solidFaceIds (entSolids (m.spawn :: m.ents)), 0 < i
+
+theorem inv_default : ({} : IdMan).Inv := by simp [IdMan.Inv]
+
+theorem assignIds_injective (m : VMap) : IdsInjective (assignIds false m) := by
+  have hph := Fresh.get ({} : IdMan) (-1) inv_default
+  have hvis := assignVisList_fresh m.vis {} inv_default
+  obtain ⟨gs', hg1, hg2⟩ := assignGroups_fresh m.groups {} [] inv_default (by simp)
+  -- worldspawn, with the entity manager that already handed out the placeholder's id
+  obtain ⟨a1, a2, a3, _, _⟩ := assignEnt_fresh m.spawn
+    { solid := {}, face := {}, ent := (({} : IdMan).get false (-1)).2,
+      group := (assignGroups false m.groups {} []).2,
+      vis := (assignVisAux.assignVisList false m.vis {}).2 } inv_default inv_default hph.inv
+  obtain ⟨b1, b2, b3⟩ := assignEnts_fresh m.ents _ a1.inv a2.inv a3.inv
+  have hf := a1.trans b1
+  have hs := a2.trans b2
+  have he := a3.trans b3
+  refine ⟨⟨hvis.nodup, hvis.pos⟩, ?_, ?_, ?_, ?_⟩
+  · simp only [assignIds, hg1, List.nil_append]
+    exact ⟨hg2.nodup, hg2.pos⟩
+  · simp only [assignIds, List.map_cons]
+    exact ⟨by simpa using he.nodup, by simpa using he.pos⟩
+  · simp only [assignIds, entSolids, List.flatMap_cons, solidIds_append]
+    exact ⟨hs.nodup, hs.pos⟩
+  · simp only [assignIds, entSolids, List.flatMap_cons, solidFaceIds_append]
+    exact ⟨hf.nodup, hf.pos⟩
+
+
+
 
 
 end C06
